@@ -8,7 +8,12 @@
 import TfelVerif.Common.M3
 import TfelVerif.C23.Spec
 import TfelVerif.C23.Lemmas
-import TfelVerif.C23.PropsN2Chains\nimport TfelVerif.C23.PropsN2a\nimport TfelVerif.C23.PropsN2b\nimport TfelVerif.C23.PropsN2c\nimport TfelVerif.C23.PropsN2d\n
+import TfelVerif.C23.PropsN2Chains
+import TfelVerif.C23.PropsN2a
+import TfelVerif.C23.PropsN2b
+import TfelVerif.C23.PropsN2c
+import TfelVerif.C23.PropsN2d
+
 namespace TfelVerif.C23.PropsCompose2
 open TfelVerif TfelVerif.Mandel TfelVerif.C23
 set_option linter.all false
@@ -16,4 +21,562 @@ set_option maxHeartbeats 16000000
 set_option maxRecDepth 100000
 variable {K : Type} [Field K] (c c3 : K) (fn : Fns K)
 
-/-- round trip `DS_DC → DS_DEGL → DS_DC`: converting back gives an operator with the same action (hence the same\nmeaning) as the one started from, for every variation. -/\ntheorem N2_roundtrip_DS_DC__DS_DEGL (hc : c * c = 2) (h2 : (2:K) ≠ 0)\n    (D : Nat → Nat → K) (F0 : M3 K) (f0 f1 f2 f3 f4 : K) (l0 l1 l2 l3 l4 : K) (s : Nat → K)  :\n    upper (lamS (plane f0 f1 f2 f3 f4) (M3.ofMandel c [s 0, s 1, s 2, s 3]) (plane l0 l1 l2 l3 l4) (M3.ofMandel c (act (Gen.N2_DS_DC__DS_DEGL_r c c3 fn (matOf (Gen.N2_DS_DEGL__DS_DC_r c c3 fn D (tensv F0) (tensv (plane f0 f1 f2 f3 f4)) s)) (tensv F0) (tensv (plane f0 f1 f2 f3 f4)) s) (M3.mandel2 c (dC (plane f0 f1 f2 f3 f4) (plane l0 l1 l2 l3 l4))))))\n      = upper (lamS (plane f0 f1 f2 f3 f4) (M3.ofMandel c [s 0, s 1, s 2, s 3]) (plane l0 l1 l2 l3 l4) (M3.ofMandel c (act (rowsOf D i4 i4) (M3.mandel2 c (dC (plane f0 f1 f2 f3 f4) (plane l0 l1 l2 l3 l4)))))) := by\n  refine (PropsN2d.N2_DS_DC__DS_DEGL c c3 fn hc h2 ..).trans ?_\n  exact PropsN2b.N2_DS_DEGL__DS_DC c c3 fn hc h2 ..\n\n/-- round trip `DS_DEGL → DS_DC → DS_DEGL`: converting back gives an operator with the same action (hence the same\nmeaning) as the one started from, for every variation. -/\ntheorem N2_roundtrip_DS_DEGL__DS_DC (hc : c * c = 2) (h2 : (2:K) ≠ 0)\n    (D : Nat → Nat → K) (F0 : M3 K) (f0 f1 f2 f3 f4 : K) (l0 l1 l2 l3 l4 : K) (s : Nat → K)  :\n    upper (lamS (plane f0 f1 f2 f3 f4) (M3.ofMandel c [s 0, s 1, s 2, s 3]) (plane l0 l1 l2 l3 l4) (M3.ofMandel c (act (Gen.N2_DS_DEGL__DS_DC_r c c3 fn (matOf (Gen.N2_DS_DC__DS_DEGL_r c c3 fn D (tensv F0) (tensv (plane f0 f1 f2 f3 f4)) s)) (tensv F0) (tensv (plane f0 f1 f2 f3 f4)) s) (M3.mandel2 c (dE (plane f0 f1 f2 f3 f4) (plane l0 l1 l2 l3 l4))))))\n      = upper (lamS (plane f0 f1 f2 f3 f4) (M3.ofMandel c [s 0, s 1, s 2, s 3]) (plane l0 l1 l2 l3 l4) (M3.ofMandel c (act (rowsOf D i4 i4) (M3.mandel2 c (dE (plane f0 f1 f2 f3 f4) (plane l0 l1 l2 l3 l4)))))) := by\n  refine (PropsN2b.N2_DS_DEGL__DS_DC c c3 fn hc h2 ..).trans ?_\n  exact PropsN2d.N2_DS_DC__DS_DEGL c c3 fn hc h2 ..\n\n/-- round trip `SPATIAL_MODULI → DS_DEGL → SPATIAL_MODULI`: converting back gives an operator with the same action (hence the same\nmeaning) as the one started from, for every variation. -/\ntheorem N2_roundtrip_SPATIAL_MODULI__DS_DEGL (hc : c * c = 2) (h2 : (2:K) ≠ 0)\n    (D : Nat → Nat → K) (F0 : M3 K) (f0 f1 f2 f3 f4 : K) (l0 l1 l2 l3 l4 : K) (s : Nat → K) (hJ : (plane f0 f1 f2 f3 f4).det ≠ 0) :\n    upper (lamSM (plane f0 f1 f2 f3 f4) (M3.ofMandel c [s 0, s 1, s 2, s 3]) (plane l0 l1 l2 l3 l4) (M3.ofMandel c (act (Gen.N2_SPATIAL_MODULI__DS_DEGL_r c c3 fn (matOf (Gen.N2_DS_DEGL__SPATIAL_MODULI_r c c3 fn D (tensv F0) (tensv (plane f0 f1 f2 f3 f4)) s)) (tensv F0) (tensv (plane f0 f1 f2 f3 f4)) s) (M3.mandel2 c (symm (plane l0 l1 l2 l3 l4))))))\n      = upper (lamSM (plane f0 f1 f2 f3 f4) (M3.ofMandel c [s 0, s 1, s 2, s 3]) (plane l0 l1 l2 l3 l4) (M3.ofMandel c (act (rowsOf D i4 i4) (M3.mandel2 c (symm (plane l0 l1 l2 l3 l4)))))) := by\n  refine (PropsN2d.N2_SPATIAL_MODULI__DS_DEGL c c3 fn hc h2 ..).trans ?_\n  exact PropsN2Chains.N2_DS_DEGL__SPATIAL_MODULI c c3 fn hc h2 (hJ := hJ) ..\n\n/-- round trip `DS_DEGL → SPATIAL_MODULI → DS_DEGL`: converting back gives an operator with the same action (hence the same\nmeaning) as the one started from, for every variation. -/\ntheorem N2_roundtrip_DS_DEGL__SPATIAL_MODULI (hc : c * c = 2) (h2 : (2:K) ≠ 0)\n    (D : Nat → Nat → K) (F0 : M3 K) (f0 f1 f2 f3 f4 : K) (l0 l1 l2 l3 l4 : K) (s : Nat → K) (hJ : (plane f0 f1 f2 f3 f4).det ≠ 0) :\n    upper (lamS (plane f0 f1 f2 f3 f4) (M3.ofMandel c [s 0, s 1, s 2, s 3]) (plane l0 l1 l2 l3 l4) (M3.ofMandel c (act (Gen.N2_DS_DEGL__SPATIAL_MODULI_r c c3 fn (matOf (Gen.N2_SPATIAL_MODULI__DS_DEGL_r c c3 fn D (tensv F0) (tensv (plane f0 f1 f2 f3 f4)) s)) (tensv F0) (tensv (plane f0 f1 f2 f3 f4)) s) (M3.mandel2 c (dE (plane f0 f1 f2 f3 f4) (plane l0 l1 l2 l3 l4))))))\n      = upper (lamS (plane f0 f1 f2 f3 f4) (M3.ofMandel c [s 0, s 1, s 2, s 3]) (plane l0 l1 l2 l3 l4) (M3.ofMandel c (act (rowsOf D i4 i4) (M3.mandel2 c (dE (plane f0 f1 f2 f3 f4) (plane l0 l1 l2 l3 l4)))))) := by\n  refine (PropsN2Chains.N2_DS_DEGL__SPATIAL_MODULI c c3 fn hc h2 (hJ := hJ) ..).trans ?_\n  exact PropsN2d.N2_SPATIAL_MODULI__DS_DEGL c c3 fn hc h2 ..\n\n/-- round trip `ABAQUS → SPATIAL_MODULI → ABAQUS`: converting back gives an operator with the same action (hence the same\nmeaning) as the one started from, for every variation. -/\ntheorem N2_roundtrip_ABAQUS__SPATIAL_MODULI (hc : c * c = 2) (h2 : (2:K) ≠ 0)\n    (D : Nat → Nat → K) (F0 : M3 K) (f0 f1 f2 f3 f4 : K) (l0 l1 l2 l3 l4 : K) (s : Nat → K) (hJ : (plane f0 f1 f2 f3 f4).det ≠ 0) :\n    upper (lamAb (plane f0 f1 f2 f3 f4) (M3.ofMandel c [s 0, s 1, s 2, s 3]) (plane l0 l1 l2 l3 l4) (M3.ofMandel c (act (Gen.N2_ABAQUS__SPATIAL_MODULI_r c c3 fn (matOf (Gen.N2_SPATIAL_MODULI__ABAQUS_r c c3 fn D (tensv F0) (tensv (plane f0 f1 f2 f3 f4)) s)) (tensv F0) (tensv (plane f0 f1 f2 f3 f4)) s) (M3.mandel2 c (symm (plane l0 l1 l2 l3 l4))))))\n      = upper (lamAb (plane f0 f1 f2 f3 f4) (M3.ofMandel c [s 0, s 1, s 2, s 3]) (plane l0 l1 l2 l3 l4) (M3.ofMandel c (act (rowsOf D i4 i4) (M3.mandel2 c (symm (plane l0 l1 l2 l3 l4)))))) := by\n  refine (PropsN2d.N2_ABAQUS__SPATIAL_MODULI c c3 fn hc h2 (hJ := hJ) ..).trans ?_\n  exact PropsN2c.N2_SPATIAL_MODULI__ABAQUS c c3 fn hc h2 ..\n\n/-- round trip `SPATIAL_MODULI → ABAQUS → SPATIAL_MODULI`: converting back gives an operator with the same action (hence the same\nmeaning) as the one started from, for every variation. -/\ntheorem N2_roundtrip_SPATIAL_MODULI__ABAQUS (hc : c * c = 2) (h2 : (2:K) ≠ 0)\n    (D : Nat → Nat → K) (F0 : M3 K) (f0 f1 f2 f3 f4 : K) (l0 l1 l2 l3 l4 : K) (s : Nat → K) (hJ : (plane f0 f1 f2 f3 f4).det ≠ 0) :\n    upper (lamSM (plane f0 f1 f2 f3 f4) (M3.ofMandel c [s 0, s 1, s 2, s 3]) (plane l0 l1 l2 l3 l4) (M3.ofMandel c (act (Gen.N2_SPATIAL_MODULI__ABAQUS_r c c3 fn (matOf (Gen.N2_ABAQUS__SPATIAL_MODULI_r c c3 fn D (tensv F0) (tensv (plane f0 f1 f2 f3 f4)) s)) (tensv F0) (tensv (plane f0 f1 f2 f3 f4)) s) (M3.mandel2 c (symm (plane l0 l1 l2 l3 l4))))))\n      = upper (lamSM (plane f0 f1 f2 f3 f4) (M3.ofMandel c [s 0, s 1, s 2, s 3]) (plane l0 l1 l2 l3 l4) (M3.ofMandel c (act (rowsOf D i4 i4) (M3.mandel2 c (symm (plane l0 l1 l2 l3 l4)))))) := by\n  refine (PropsN2c.N2_SPATIAL_MODULI__ABAQUS c c3 fn hc h2 ..).trans ?_\n  exact PropsN2d.N2_ABAQUS__SPATIAL_MODULI c c3 fn hc h2 (hJ := hJ) ..\n\n/-- round trip `C_TRUESDELL → SPATIAL_MODULI → C_TRUESDELL`: converting back gives an operator with the same action (hence the same\nmeaning) as the one started from, for every variation. -/\ntheorem N2_roundtrip_C_TRUESDELL__SPATIAL_MODULI (hc : c * c = 2) (h2 : (2:K) ≠ 0)\n    (D : Nat → Nat → K) (F0 : M3 K) (f0 f1 f2 f3 f4 : K) (l0 l1 l2 l3 l4 : K) (s : Nat → K) (hJ : (plane f0 f1 f2 f3 f4).det ≠ 0) :\n    upper (lamTr (plane f0 f1 f2 f3 f4) (M3.ofMandel c [s 0, s 1, s 2, s 3]) (plane l0 l1 l2 l3 l4) (M3.ofMandel c (act (Gen.N2_C_TRUESDELL__SPATIAL_MODULI_r c c3 fn (matOf (Gen.N2_SPATIAL_MODULI__C_TRUESDELL_r c c3 fn D (tensv F0) (tensv (plane f0 f1 f2 f3 f4)) s)) (tensv F0) (tensv (plane f0 f1 f2 f3 f4)) s) (M3.mandel2 c (symm (plane l0 l1 l2 l3 l4))))))\n      = upper (lamTr (plane f0 f1 f2 f3 f4) (M3.ofMandel c [s 0, s 1, s 2, s 3]) (plane l0 l1 l2 l3 l4) (M3.ofMandel c (act (rowsOf D i4 i4) (M3.mandel2 c (symm (plane l0 l1 l2 l3 l4)))))) := by\n  refine (PropsN2a.N2_C_TRUESDELL__SPATIAL_MODULI c c3 fn hc h2 (hJ := hJ) ..).trans ?_\n  exact PropsN2c.N2_SPATIAL_MODULI__C_TRUESDELL c c3 fn hc h2 ..\n\n/-- round trip `SPATIAL_MODULI → C_TRUESDELL → SPATIAL_MODULI`: converting back gives an operator with the same action (hence the same\nmeaning) as the one started from, for every variation. -/\ntheorem N2_roundtrip_SPATIAL_MODULI__C_TRUESDELL (hc : c * c = 2) (h2 : (2:K) ≠ 0)\n    (D : Nat → Nat → K) (F0 : M3 K) (f0 f1 f2 f3 f4 : K) (l0 l1 l2 l3 l4 : K) (s : Nat → K) (hJ : (plane f0 f1 f2 f3 f4).det ≠ 0) :\n    upper (lamSM (plane f0 f1 f2 f3 f4) (M3.ofMandel c [s 0, s 1, s 2, s 3]) (plane l0 l1 l2 l3 l4) (M3.ofMandel c (act (Gen.N2_SPATIAL_MODULI__C_TRUESDELL_r c c3 fn (matOf (Gen.N2_C_TRUESDELL__SPATIAL_MODULI_r c c3 fn D (tensv F0) (tensv (plane f0 f1 f2 f3 f4)) s)) (tensv F0) (tensv (plane f0 f1 f2 f3 f4)) s) (M3.mandel2 c (symm (plane l0 l1 l2 l3 l4))))))\n      = upper (lamSM (plane f0 f1 f2 f3 f4) (M3.ofMandel c [s 0, s 1, s 2, s 3]) (plane l0 l1 l2 l3 l4) (M3.ofMandel c (act (rowsOf D i4 i4) (M3.mandel2 c (symm (plane l0 l1 l2 l3 l4)))))) := by\n  refine (PropsN2c.N2_SPATIAL_MODULI__C_TRUESDELL c c3 fn hc h2 ..).trans ?_\n  exact PropsN2a.N2_C_TRUESDELL__SPATIAL_MODULI c c3 fn hc h2 (hJ := hJ) ..\n\n/-- round trip `DSIG_DDF → DSIG_DF → DSIG_DDF`: converting back gives an operator with the same action (hence the same\nmeaning) as the one started from, for every variation. -/\ntheorem N2_roundtrip_DSIG_DDF__DSIG_DF (hc : c * c = 2) (h2 : (2:K) ≠ 0)\n    (D : Nat → Nat → K) (g0 g1 g2 g3 g4 d0 d1 d2 d3 d4 : K) (l0 l1 l2 l3 l4 : K) (s : Nat → K) (hJ : (plane g0 g1 g2 g3 g4).det ≠ 0) :\n    upper (lamSig ((plane d0 d1 d2 d3 d4) * (plane g0 g1 g2 g3 g4)) (M3.ofMandel c [s 0, s 1, s 2, s 3]) (plane l0 l1 l2 l3 l4) (M3.ofMandel c (act (Gen.N2_DSIG_DDF__DSIG_DF_r c c3 fn (matOf (Gen.N2_DSIG_DF__DSIG_DDF_r c c3 fn D (tensv (plane g0 g1 g2 g3 g4)) (tensv ((plane d0 d1 d2 d3 d4) * (plane g0 g1 g2 g3 g4))) s)) (tensv (plane g0 g1 g2 g3 g4)) (tensv ((plane d0 d1 d2 d3 d4) * (plane g0 g1 g2 g3 g4))) s) (M3.tens2 ((plane l0 l1 l2 l3 l4) * (plane d0 d1 d2 d3 d4))))))\n      = upper (lamSig ((plane d0 d1 d2 d3 d4) * (plane g0 g1 g2 g3 g4)) (M3.ofMandel c [s 0, s 1, s 2, s 3]) (plane l0 l1 l2 l3 l4) (M3.ofMandel c (act (rowsOf D i4 i5) (M3.tens2 ((plane l0 l1 l2 l3 l4) * (plane d0 d1 d2 d3 d4)))))) := by\n  refine (PropsN2d.N2_DSIG_DDF__DSIG_DF c c3 fn hc h2 ..).trans ?_\n  exact PropsN2b.N2_DSIG_DF__DSIG_DDF c c3 fn hc h2 (hJ := hJ) ..\n\n/-- round trip `DSIG_DF → DSIG_DDF → DSIG_DF`: converting back gives an operator with the same action (hence the same\nmeaning) as the one started from, for every variation. -/\ntheorem N2_roundtrip_DSIG_DF__DSIG_DDF (hc : c * c = 2) (h2 : (2:K) ≠ 0)\n    (D : Nat → Nat → K) (g0 g1 g2 g3 g4 d0 d1 d2 d3 d4 : K) (l0 l1 l2 l3 l4 : K) (s : Nat → K) (hJ : (plane g0 g1 g2 g3 g4).det ≠ 0) :\n    upper (lamSig ((plane d0 d1 d2 d3 d4) * (plane g0 g1 g2 g3 g4)) (M3.ofMandel c [s 0, s 1, s 2, s 3]) (plane l0 l1 l2 l3 l4) (M3.ofMandel c (act (Gen.N2_DSIG_DF__DSIG_DDF_r c c3 fn (matOf (Gen.N2_DSIG_DDF__DSIG_DF_r c c3 fn D (tensv (plane g0 g1 g2 g3 g4)) (tensv ((plane d0 d1 d2 d3 d4) * (plane g0 g1 g2 g3 g4))) s)) (tensv (plane g0 g1 g2 g3 g4)) (tensv ((plane d0 d1 d2 d3 d4) * (plane g0 g1 g2 g3 g4))) s) (M3.tens2 ((plane l0 l1 l2 l3 l4) * ((plane d0 d1 d2 d3 d4) * (plane g0 g1 g2 g3 g4)))))))\n      = upper (lamSig ((plane d0 d1 d2 d3 d4) * (plane g0 g1 g2 g3 g4)) (M3.ofMandel c [s 0, s 1, s 2, s 3]) (plane l0 l1 l2 l3 l4) (M3.ofMandel c (act (rowsOf D i4 i5) (M3.tens2 ((plane l0 l1 l2 l3 l4) * ((plane d0 d1 d2 d3 d4) * (plane g0 g1 g2 g3 g4))))))) := by\n  refine (PropsN2b.N2_DSIG_DF__DSIG_DDF c c3 fn hc h2 (hJ := hJ) ..).trans ?_\n  exact PropsN2d.N2_DSIG_DDF__DSIG_DF c c3 fn hc h2 ..\n\n/-- round trip `DTAU_DDF → DTAU_DF → DTAU_DDF`: converting back gives an operator with the same action (hence the same\nmeaning) as the one started from, for every variation. -/\ntheorem N2_roundtrip_DTAU_DDF__DTAU_DF (hc : c * c = 2) (h2 : (2:K) ≠ 0)\n    (D : Nat → Nat → K) (g0 g1 g2 g3 g4 d0 d1 d2 d3 d4 : K) (l0 l1 l2 l3 l4 : K) (s : Nat → K) (hJ : (plane g0 g1 g2 g3 g4).det ≠ 0) :\n    upper (lamTau ((plane d0 d1 d2 d3 d4) * (plane g0 g1 g2 g3 g4)) (M3.ofMandel c [s 0, s 1, s 2, s 3]) (plane l0 l1 l2 l3 l4) (M3.ofMandel c (act (Gen.N2_DTAU_DDF__DTAU_DF_r c c3 fn (matOf (Gen.N2_DTAU_DF__DTAU_DDF_r c c3 fn D (tensv (plane g0 g1 g2 g3 g4)) (tensv ((plane d0 d1 d2 d3 d4) * (plane g0 g1 g2 g3 g4))) s)) (tensv (plane g0 g1 g2 g3 g4)) (tensv ((plane d0 d1 d2 d3 d4) * (plane g0 g1 g2 g3 g4))) s) (M3.tens2 ((plane l0 l1 l2 l3 l4) * (plane d0 d1 d2 d3 d4))))))\n      = upper (lamTau ((plane d0 d1 d2 d3 d4) * (plane g0 g1 g2 g3 g4)) (M3.ofMandel c [s 0, s 1, s 2, s 3]) (plane l0 l1 l2 l3 l4) (M3.ofMandel c (act (rowsOf D i4 i5) (M3.tens2 ((plane l0 l1 l2 l3 l4) * (plane d0 d1 d2 d3 d4)))))) := by\n  refine (PropsN2b.N2_DTAU_DDF__DTAU_DF c c3 fn hc h2 ..).trans ?_\n  exact PropsN2a.N2_DTAU_DF__DTAU_DDF c c3 fn hc h2 (hJ := hJ) ..\n\n/-- round trip `DTAU_DF → DTAU_DDF → DTAU_DF`: converting back gives an operator with the same action (hence the same\nmeaning) as the one started from, for every variation. -/\ntheorem N2_roundtrip_DTAU_DF__DTAU_DDF (hc : c * c = 2) (h2 : (2:K) ≠ 0)\n    (D : Nat → Nat → K) (g0 g1 g2 g3 g4 d0 d1 d2 d3 d4 : K) (l0 l1 l2 l3 l4 : K) (s : Nat → K) (hJ : (plane g0 g1 g2 g3 g4).det ≠ 0) :\n    upper (lamTau ((plane d0 d1 d2 d3 d4) * (plane g0 g1 g2 g3 g4)) (M3.ofMandel c [s 0, s 1, s 2, s 3]) (plane l0 l1 l2 l3 l4) (M3.ofMandel c (act (Gen.N2_DTAU_DF__DTAU_DDF_r c c3 fn (matOf (Gen.N2_DTAU_DDF__DTAU_DF_r c c3 fn D (tensv (plane g0 g1 g2 g3 g4)) (tensv ((plane d0 d1 d2 d3 d4) * (plane g0 g1 g2 g3 g4))) s)) (tensv (plane g0 g1 g2 g3 g4)) (tensv ((plane d0 d1 d2 d3 d4) * (plane g0 g1 g2 g3 g4))) s) (M3.tens2 ((plane l0 l1 l2 l3 l4) * ((plane d0 d1 d2 d3 d4) * (plane g0 g1 g2 g3 g4)))))))\n      = upper (lamTau ((plane d0 d1 d2 d3 d4) * (plane g0 g1 g2 g3 g4)) (M3.ofMandel c [s 0, s 1, s 2, s 3]) (plane l0 l1 l2 l3 l4) (M3.ofMandel c (act (rowsOf D i4 i5) (M3.tens2 ((plane l0 l1 l2 l3 l4) * ((plane d0 d1 d2 d3 d4) * (plane g0 g1 g2 g3 g4))))))) := by\n  refine (PropsN2a.N2_DTAU_DF__DTAU_DDF c c3 fn hc h2 (hJ := hJ) ..).trans ?_\n  exact PropsN2b.N2_DTAU_DDF__DTAU_DF c c3 fn hc h2 ..\n\n/-- round trip `SPATIAL_MODULI → DTAU_DF → SPATIAL_MODULI`: converting back gives an operator with the same action (hence the same\nmeaning) as the one started from, for every variation. -/\ntheorem N2_roundtrip_SPATIAL_MODULI__DTAU_DF (hc : c * c = 2) (h2 : (2:K) ≠ 0)\n    (D : Nat → Nat → K) (F0 : M3 K) (f0 f1 f2 f3 f4 : K) (l0 l1 l2 l3 : K) (s : Nat → K) (hJ : (plane f0 f1 f2 f3 f4).det ≠ 0) :\n    upper (lamSM (plane f0 f1 f2 f3 f4) (M3.ofMandel c [s 0, s 1, s 2, s 3]) (plane l0 l1 l2 l3 l3) (M3.ofMandel c (act (Gen.N2_SPATIAL_MODULI__DTAU_DF_r c c3 fn (matOf (Gen.N2_DTAU_DF__SPATIAL_MODULI_r c c3 fn D (tensv F0) (tensv (plane f0 f1 f2 f3 f4)) s)) (tensv F0) (tensv (plane f0 f1 f2 f3 f4)) s) (M3.mandel2 c (symm (plane l0 l1 l2 l3 l3))))))\n      = upper (lamSM (plane f0 f1 f2 f3 f4) (M3.ofMandel c [s 0, s 1, s 2, s 3]) (plane l0 l1 l2 l3 l3) (M3.ofMandel c (act (rowsOf D i4 i4) (M3.mandel2 c (symm (plane l0 l1 l2 l3 l3)))))) := by\n  refine (PropsN2Chains.N2_SPATIAL_MODULI__DTAU_DF c c3 fn hc h2 ..).trans ?_\n  exact PropsN2Chains.N2_DTAU_DF__SPATIAL_MODULI c c3 fn hc h2 (hJ := hJ) ..\n\n/-- round trip `C_TAU_JAUMANN → DTAU_DF → C_TAU_JAUMANN`: converting back gives an operator with the same action (hence the same\nmeaning) as the one started from, for every variation. -/\ntheorem N2_roundtrip_C_TAU_JAUMANN__DTAU_DF (hc : c * c = 2) (h2 : (2:K) ≠ 0)\n    (D : Nat → Nat → K) (F0 : M3 K) (f0 f1 f2 f3 f4 : K) (l0 l1 l2 l3 : K) (s : Nat → K) (hJ : (plane f0 f1 f2 f3 f4).det ≠ 0) :\n    upper (lamJ (plane f0 f1 f2 f3 f4) (M3.ofMandel c [s 0, s 1, s 2, s 3]) (plane l0 l1 l2 l3 l3) (M3.ofMandel c (act (Gen.N2_C_TAU_JAUMANN__DTAU_DF_r c c3 fn (matOf (Gen.N2_DTAU_DF__C_TAU_JAUMANN_r c c3 fn D (tensv F0) (tensv (plane f0 f1 f2 f3 f4)) s)) (tensv F0) (tensv (plane f0 f1 f2 f3 f4)) s) (M3.mandel2 c (symm (plane l0 l1 l2 l3 l3))))))\n      = upper (lamJ (plane f0 f1 f2 f3 f4) (M3.ofMandel c [s 0, s 1, s 2, s 3]) (plane l0 l1 l2 l3 l3) (M3.ofMandel c (act (rowsOf D i4 i4) (M3.mandel2 c (symm (plane l0 l1 l2 l3 l3)))))) := by\n  refine (PropsN2d.N2_C_TAU_JAUMANN__DTAU_DF c c3 fn hc h2 ..).trans ?_\n  exact PropsN2b.N2_DTAU_DF__C_TAU_JAUMANN c c3 fn hc h2 (hJ := hJ) ..\n\n/-- round trip `ABAQUS → C_TAU_JAUMANN → ABAQUS`: converting back gives an operator with the same action (hence the same\nmeaning) as the one started from, for every variation. -/\ntheorem N2_roundtrip_ABAQUS__C_TAU_JAUMANN (hc : c * c = 2) (h2 : (2:K) ≠ 0)\n    (D : Nat → Nat → K) (F0 : M3 K) (f0 f1 f2 f3 f4 : K) (l0 l1 l2 l3 l4 : K) (s : Nat → K) (hJ : (plane f0 f1 f2 f3 f4).det ≠ 0) :\n    upper (lamAb (plane f0 f1 f2 f3 f4) (M3.ofMandel c [s 0, s 1, s 2, s 3]) (plane l0 l1 l2 l3 l4) (M3.ofMandel c (act (Gen.N2_ABAQUS__C_TAU_JAUMANN_r c c3 fn (matOf (Gen.N2_C_TAU_JAUMANN__ABAQUS_r c c3 fn D (tensv F0) (tensv (plane f0 f1 f2 f3 f4)) s)) (tensv F0) (tensv (plane f0 f1 f2 f3 f4)) s) (M3.mandel2 c (symm (plane l0 l1 l2 l3 l4))))))\n      = upper (lamAb (plane f0 f1 f2 f3 f4) (M3.ofMandel c [s 0, s 1, s 2, s 3]) (plane l0 l1 l2 l3 l4) (M3.ofMandel c (act (rowsOf D i4 i4) (M3.mandel2 c (symm (plane l0 l1 l2 l3 l4)))))) := by\n  refine (PropsN2d.N2_ABAQUS__C_TAU_JAUMANN c c3 fn hc h2 (hJ := hJ) ..).trans ?_\n  exact PropsN2b.N2_C_TAU_JAUMANN__ABAQUS c c3 fn hc h2 ..\n\n/-- round trip `C_TAU_JAUMANN → ABAQUS → C_TAU_JAUMANN`: converting back gives an operator with the same action (hence the same\nmeaning) as the one started from, for every variation. -/\ntheorem N2_roundtrip_C_TAU_JAUMANN__ABAQUS (hc : c * c = 2) (h2 : (2:K) ≠ 0)\n    (D : Nat → Nat → K) (F0 : M3 K) (f0 f1 f2 f3 f4 : K) (l0 l1 l2 l3 l4 : K) (s : Nat → K) (hJ : (plane f0 f1 f2 f3 f4).det ≠ 0) :\n    upper (lamJ (plane f0 f1 f2 f3 f4) (M3.ofMandel c [s 0, s 1, s 2, s 3]) (plane l0 l1 l2 l3 l4) (M3.ofMandel c (act (Gen.N2_C_TAU_JAUMANN__ABAQUS_r c c3 fn (matOf (Gen.N2_ABAQUS__C_TAU_JAUMANN_r c c3 fn D (tensv F0) (tensv (plane f0 f1 f2 f3 f4)) s)) (tensv F0) (tensv (plane f0 f1 f2 f3 f4)) s) (M3.mandel2 c (symm (plane l0 l1 l2 l3 l4))))))\n      = upper (lamJ (plane f0 f1 f2 f3 f4) (M3.ofMandel c [s 0, s 1, s 2, s 3]) (plane l0 l1 l2 l3 l4) (M3.ofMandel c (act (rowsOf D i4 i4) (M3.mandel2 c (symm (plane l0 l1 l2 l3 l4)))))) := by\n  refine (PropsN2b.N2_C_TAU_JAUMANN__ABAQUS c c3 fn hc h2 ..).trans ?_\n  exact PropsN2d.N2_ABAQUS__C_TAU_JAUMANN c c3 fn hc h2 (hJ := hJ) ..\n\n/-- round trip `C_TAU_JAUMANN → SPATIAL_MODULI → C_TAU_JAUMANN`: converting back gives an operator with the same action (hence the same\nmeaning) as the one started from, for every variation. -/\ntheorem N2_roundtrip_C_TAU_JAUMANN__SPATIAL_MODULI (hc : c * c = 2) (h2 : (2:K) ≠ 0)\n    (D : Nat → Nat → K) (F0 : M3 K) (f0 f1 f2 f3 f4 : K) (l0 l1 l2 l3 l4 : K) (s : Nat → K)  :\n    upper (lamJ (plane f0 f1 f2 f3 f4) (M3.ofMandel c [s 0, s 1, s 2, s 3]) (plane l0 l1 l2 l3 l4) (M3.ofMandel c (act (Gen.N2_C_TAU_JAUMANN__SPATIAL_MODULI_r c c3 fn (matOf (Gen.N2_SPATIAL_MODULI__C_TAU_JAUMANN_r c c3 fn D (tensv F0) (tensv (plane f0 f1 f2 f3 f4)) s)) (tensv F0) (tensv (plane f0 f1 f2 f3 f4)) s) (M3.mandel2 c (symm (plane l0 l1 l2 l3 l4))))))\n      = upper (lamJ (plane f0 f1 f2 f3 f4) (M3.ofMandel c [s 0, s 1, s 2, s 3]) (plane l0 l1 l2 l3 l4) (M3.ofMandel c (act (rowsOf D i4 i4) (M3.mandel2 c (symm (plane l0 l1 l2 l3 l4)))))) := by\n  refine (PropsN2c.N2_C_TAU_JAUMANN__SPATIAL_MODULI c c3 fn hc h2 ..).trans ?_\n  exact PropsN2a.N2_SPATIAL_MODULI__C_TAU_JAUMANN c c3 fn hc h2 ..\n\n/-- round trip `SPATIAL_MODULI → C_TAU_JAUMANN → SPATIAL_MODULI`: converting back gives an operator with the same action (hence the same\nmeaning) as the one started from, for every variation. -/\ntheorem N2_roundtrip_SPATIAL_MODULI__C_TAU_JAUMANN (hc : c * c = 2) (h2 : (2:K) ≠ 0)\n    (D : Nat → Nat → K) (F0 : M3 K) (f0 f1 f2 f3 f4 : K) (l0 l1 l2 l3 l4 : K) (s : Nat → K)  :\n    upper (lamSM (plane f0 f1 f2 f3 f4) (M3.ofMandel c [s 0, s 1, s 2, s 3]) (plane l0 l1 l2 l3 l4) (M3.ofMandel c (act (Gen.N2_SPATIAL_MODULI__C_TAU_JAUMANN_r c c3 fn (matOf (Gen.N2_C_TAU_JAUMANN__SPATIAL_MODULI_r c c3 fn D (tensv F0) (tensv (plane f0 f1 f2 f3 f4)) s)) (tensv F0) (tensv (plane f0 f1 f2 f3 f4)) s) (M3.mandel2 c (symm (plane l0 l1 l2 l3 l4))))))\n      = upper (lamSM (plane f0 f1 f2 f3 f4) (M3.ofMandel c [s 0, s 1, s 2, s 3]) (plane l0 l1 l2 l3 l4) (M3.ofMandel c (act (rowsOf D i4 i4) (M3.mandel2 c (symm (plane l0 l1 l2 l3 l4)))))) := by\n  refine (PropsN2a.N2_SPATIAL_MODULI__C_TAU_JAUMANN c c3 fn hc h2 ..).trans ?_\n  exact PropsN2c.N2_C_TAU_JAUMANN__SPATIAL_MODULI c c3 fn hc h2 ..\n\n/-- round trip `ABAQUS → DTAU_DF → ABAQUS`: converting back gives an operator with the same action (hence the same\nmeaning) as the one started from, for every variation. -/\ntheorem N2_roundtrip_ABAQUS__DTAU_DF (hc : c * c = 2) (h2 : (2:K) ≠ 0)\n    (D : Nat → Nat → K) (F0 : M3 K) (f0 f1 f2 f3 f4 : K) (l0 l1 l2 l3 : K) (s : Nat → K) (hJ : (plane f0 f1 f2 f3 f4).det ≠ 0) :\n    upper (lamAb (plane f0 f1 f2 f3 f4) (M3.ofMandel c [s 0, s 1, s 2, s 3]) (plane l0 l1 l2 l3 l3) (M3.ofMandel c (act (Gen.N2_ABAQUS__DTAU_DF_r c c3 fn (matOf (Gen.N2_DTAU_DF__ABAQUS_r c c3 fn D (tensv F0) (tensv (plane f0 f1 f2 f3 f4)) s)) (tensv F0) (tensv (plane f0 f1 f2 f3 f4)) s) (M3.mandel2 c (symm (plane l0 l1 l2 l3 l3))))))\n      = upper (lamAb (plane f0 f1 f2 f3 f4) (M3.ofMandel c [s 0, s 1, s 2, s 3]) (plane l0 l1 l2 l3 l3) (M3.ofMandel c (act (rowsOf D i4 i4) (M3.mandel2 c (symm (plane l0 l1 l2 l3 l3)))))) := by\n  refine (PropsN2c.N2_ABAQUS__DTAU_DF c c3 fn hc h2 (hJ := hJ) ..).trans ?_\n  exact PropsN2a.N2_DTAU_DF__ABAQUS c c3 fn hc h2 (hJ := hJ) ..\n\n/-- round trip `DTAU_DF → C_TAU_JAUMANN → DTAU_DF`: converting back gives an operator with the same action (hence the same\nmeaning) as the one started from, for every variation. -/\ntheorem N2_roundtrip_DTAU_DF__C_TAU_JAUMANN (hc : c * c = 2) (h2 : (2:K) ≠ 0)\n    (D : Nat → Nat → K) (F0 : M3 K) (f0 f1 f2 f3 f4 : K) (l0 l1 l2 l3 : K) (s : Nat → K) (hJ : (plane f0 f1 f2 f3 f4).det ≠ 0) :\n    upper (lamTau (plane f0 f1 f2 f3 f4) (M3.ofMandel c [s 0, s 1, s 2, s 3]) (plane l0 l1 l2 l3 l3) (M3.ofMandel c (act (Gen.N2_DTAU_DF__C_TAU_JAUMANN_r c c3 fn (matOf (Gen.N2_C_TAU_JAUMANN__DTAU_DF_r c c3 fn D (tensv F0) (tensv (plane f0 f1 f2 f3 f4)) s)) (tensv F0) (tensv (plane f0 f1 f2 f3 f4)) s) (M3.tens2 ((plane l0 l1 l2 l3 l3) * (plane f0 f1 f2 f3 f4))))))\n      = upper (lamTau (plane f0 f1 f2 f3 f4) (M3.ofMandel c [s 0, s 1, s 2, s 3]) (plane l0 l1 l2 l3 l3) (M3.ofMandel c (act (rowsOf D i4 i5) (M3.tens2 ((plane l0 l1 l2 l3 l3) * (plane f0 f1 f2 f3 f4)))))) := by\n  refine (PropsN2b.N2_DTAU_DF__C_TAU_JAUMANN c c3 fn hc h2 (hJ := hJ) ..).trans ?_\n  exact PropsN2d.N2_C_TAU_JAUMANN__DTAU_DF c c3 fn hc h2 ..\n\n/-- round trip `DTAU_DF → ABAQUS → DTAU_DF`: converting back gives an operator with the same action (hence the same\nmeaning) as the one started from, for every variation. -/\ntheorem N2_roundtrip_DTAU_DF__ABAQUS (hc : c * c = 2) (h2 : (2:K) ≠ 0)\n    (D : Nat → Nat → K) (F0 : M3 K) (f0 f1 f2 f3 f4 : K) (l0 l1 l2 l3 : K) (s : Nat → K) (hJ : (plane f0 f1 f2 f3 f4).det ≠ 0) :\n    upper (lamTau (plane f0 f1 f2 f3 f4) (M3.ofMandel c [s 0, s 1, s 2, s 3]) (plane l0 l1 l2 l3 l3) (M3.ofMandel c (act (Gen.N2_DTAU_DF__ABAQUS_r c c3 fn (matOf (Gen.N2_ABAQUS__DTAU_DF_r c c3 fn D (tensv F0) (tensv (plane f0 f1 f2 f3 f4)) s)) (tensv F0) (tensv (plane f0 f1 f2 f3 f4)) s) (M3.tens2 ((plane l0 l1 l2 l3 l3) * (plane f0 f1 f2 f3 f4))))))\n      = upper (lamTau (plane f0 f1 f2 f3 f4) (M3.ofMandel c [s 0, s 1, s 2, s 3]) (plane l0 l1 l2 l3 l3) (M3.ofMandel c (act (rowsOf D i4 i5) (M3.tens2 ((plane l0 l1 l2 l3 l3) * (plane f0 f1 f2 f3 f4)))))) := by\n  refine (PropsN2a.N2_DTAU_DF__ABAQUS c c3 fn hc h2 (hJ := hJ) ..).trans ?_\n  exact PropsN2c.N2_ABAQUS__DTAU_DF c c3 fn hc h2 (hJ := hJ) ..\n\n/-- round trip `DTAU_DF → SPATIAL_MODULI → DTAU_DF`: converting back gives an operator with the same action (hence the same\nmeaning) as the one started from, for every variation. -/\ntheorem N2_roundtrip_DTAU_DF__SPATIAL_MODULI (hc : c * c = 2) (h2 : (2:K) ≠ 0)\n    (D : Nat → Nat → K) (F0 : M3 K) (f0 f1 f2 f3 f4 : K) (l0 l1 l2 l3 : K) (s : Nat → K) (hJ : (plane f0 f1 f2 f3 f4).det ≠ 0) :\n    upper (lamTau (plane f0 f1 f2 f3 f4) (M3.ofMandel c [s 0, s 1, s 2, s 3]) (plane l0 l1 l2 l3 l3) (M3.ofMandel c (act (Gen.N2_DTAU_DF__SPATIAL_MODULI_r c c3 fn (matOf (Gen.N2_SPATIAL_MODULI__DTAU_DF_r c c3 fn D (tensv F0) (tensv (plane f0 f1 f2 f3 f4)) s)) (tensv F0) (tensv (plane f0 f1 f2 f3 f4)) s) (M3.tens2 ((plane l0 l1 l2 l3 l3) * (plane f0 f1 f2 f3 f4))))))\n      = upper (lamTau (plane f0 f1 f2 f3 f4) (M3.ofMandel c [s 0, s 1, s 2, s 3]) (plane l0 l1 l2 l3 l3) (M3.ofMandel c (act (rowsOf D i4 i5) (M3.tens2 ((plane l0 l1 l2 l3 l3) * (plane f0 f1 f2 f3 f4)))))) := by\n  refine (PropsN2Chains.N2_DTAU_DF__SPATIAL_MODULI c c3 fn hc h2 (hJ := hJ) ..).trans ?_\n  exact PropsN2Chains.N2_SPATIAL_MODULI__DTAU_DF c c3 fn hc h2 ..\n\n/-- conversions compose: `DS_DF ← DS_DC ← DS_DEGL` acts as the direct `DS_DF ← DS_DEGL`, for every variation. -/\ntheorem N2_compose_DS_DF__DS_DC__DS_DEGL (hc : c * c = 2) (h2 : (2:K) ≠ 0)\n    (D : Nat → Nat → K) (F0 : M3 K) (f0 f1 f2 f3 f4 : K) (l0 l1 l2 l3 l4 : K) (s : Nat → K)  :\n    upper (lamS (plane f0 f1 f2 f3 f4) (M3.ofMandel c [s 0, s 1, s 2, s 3]) (plane l0 l1 l2 l3 l4) (M3.ofMandel c (act (Gen.N2_DS_DF__DS_DC_r c c3 fn (matOf (Gen.N2_DS_DC__DS_DEGL_r c c3 fn D (tensv F0) (tensv (plane f0 f1 f2 f3 f4)) s)) (tensv F0) (tensv (plane f0 f1 f2 f3 f4)) s) (M3.tens2 ((plane l0 l1 l2 l3 l4) * (plane f0 f1 f2 f3 f4))))))\n      = upper (lamS (plane f0 f1 f2 f3 f4) (M3.ofMandel c [s 0, s 1, s 2, s 3]) (plane l0 l1 l2 l3 l4) (M3.ofMandel c (act (Gen.N2_DS_DF__DS_DEGL_r c c3 fn D (tensv F0) (tensv (plane f0 f1 f2 f3 f4)) s) (M3.tens2 ((plane l0 l1 l2 l3 l4) * (plane f0 f1 f2 f3 f4)))))) := by\n  refine (PropsN2a.N2_DS_DF__DS_DC c c3 fn hc h2 ..).trans ?_\n  refine (PropsN2d.N2_DS_DC__DS_DEGL c c3 fn hc h2 ..).trans ?_\n  exact (PropsN2c.N2_DS_DF__DS_DEGL c c3 fn hc h2 ..).symm\n\n/-- conversions compose: `DS_DF ← DS_DEGL ← DS_DC` acts as the direct `DS_DF ← DS_DC`, for every variation. -/\ntheorem N2_compose_DS_DF__DS_DEGL__DS_DC (hc : c * c = 2) (h2 : (2:K) ≠ 0)\n    (D : Nat → Nat → K) (F0 : M3 K) (f0 f1 f2 f3 f4 : K) (l0 l1 l2 l3 l4 : K) (s : Nat → K)  :\n    upper (lamS (plane f0 f1 f2 f3 f4) (M3.ofMandel c [s 0, s 1, s 2, s 3]) (plane l0 l1 l2 l3 l4) (M3.ofMandel c (act (Gen.N2_DS_DF__DS_DEGL_r c c3 fn (matOf (Gen.N2_DS_DEGL__DS_DC_r c c3 fn D (tensv F0) (tensv (plane f0 f1 f2 f3 f4)) s)) (tensv F0) (tensv (plane f0 f1 f2 f3 f4)) s) (M3.tens2 ((plane l0 l1 l2 l3 l4) * (plane f0 f1 f2 f3 f4))))))\n      = upper (lamS (plane f0 f1 f2 f3 f4) (M3.ofMandel c [s 0, s 1, s 2, s 3]) (plane l0 l1 l2 l3 l4) (M3.ofMandel c (act (Gen.N2_DS_DF__DS_DC_r c c3 fn D (tensv F0) (tensv (plane f0 f1 f2 f3 f4)) s) (M3.tens2 ((plane l0 l1 l2 l3 l4) * (plane f0 f1 f2 f3 f4)))))) := by\n  refine (PropsN2c.N2_DS_DF__DS_DEGL c c3 fn hc h2 ..).trans ?_\n  refine (PropsN2b.N2_DS_DEGL__DS_DC c c3 fn hc h2 ..).trans ?_\n  exact (PropsN2a.N2_DS_DF__DS_DC c c3 fn hc h2 ..).symm\n\n/-- conversions compose: `ABAQUS ← SPATIAL_MODULI ← DS_DEGL` acts as the direct `ABAQUS ← DS_DEGL`, for every variation. -/\ntheorem N2_compose_ABAQUS__SPATIAL_MODULI__DS_DEGL (hc : c * c = 2) (h2 : (2:K) ≠ 0)\n    (D : Nat → Nat → K) (F0 : M3 K) (f0 f1 f2 f3 f4 : K) (l0 l1 l2 l3 l4 : K) (s : Nat → K) (hJ : (plane f0 f1 f2 f3 f4).det ≠ 0) :\n    upper (lamAb (plane f0 f1 f2 f3 f4) (M3.ofMandel c [s 0, s 1, s 2, s 3]) (plane l0 l1 l2 l3 l4) (M3.ofMandel c (act (Gen.N2_ABAQUS__SPATIAL_MODULI_r c c3 fn (matOf (Gen.N2_SPATIAL_MODULI__DS_DEGL_r c c3 fn D (tensv F0) (tensv (plane f0 f1 f2 f3 f4)) s)) (tensv F0) (tensv (plane f0 f1 f2 f3 f4)) s) (M3.mandel2 c (symm (plane l0 l1 l2 l3 l4))))))\n      = upper (lamAb (plane f0 f1 f2 f3 f4) (M3.ofMandel c [s 0, s 1, s 2, s 3]) (plane l0 l1 l2 l3 l4) (M3.ofMandel c (act (Gen.N2_ABAQUS__DS_DEGL_r c c3 fn D (tensv F0) (tensv (plane f0 f1 f2 f3 f4)) s) (M3.mandel2 c (symm (plane l0 l1 l2 l3 l4)))))) := by\n  refine (PropsN2d.N2_ABAQUS__SPATIAL_MODULI c c3 fn hc h2 (hJ := hJ) ..).trans ?_\n  refine (PropsN2d.N2_SPATIAL_MODULI__DS_DEGL c c3 fn hc h2 ..).trans ?_\n  exact (PropsN2Chains.N2_ABAQUS__DS_DEGL c c3 fn hc h2 (hJ := hJ) ..).symm\n\n/-- conversions compose: `ABAQUS ← SPATIAL_MODULI ← DTAU_DF` acts as the direct `ABAQUS ← DTAU_DF`, for every variation. -/\ntheorem N2_compose_ABAQUS__SPATIAL_MODULI__DTAU_DF (hc : c * c = 2) (h2 : (2:K) ≠ 0)\n    (D : Nat → Nat → K) (F0 : M3 K) (f0 f1 f2 f3 f4 : K) (l0 l1 l2 l3 : K) (s : Nat → K) (hJ : (plane f0 f1 f2 f3 f4).det ≠ 0) :\n    upper (lamAb (plane f0 f1 f2 f3 f4) (M3.ofMandel c [s 0, s 1, s 2, s 3]) (plane l0 l1 l2 l3 l3) (M3.ofMandel c (act (Gen.N2_ABAQUS__SPATIAL_MODULI_r c c3 fn (matOf (Gen.N2_SPATIAL_MODULI__DTAU_DF_r c c3 fn D (tensv F0) (tensv (plane f0 f1 f2 f3 f4)) s)) (tensv F0) (tensv (plane f0 f1 f2 f3 f4)) s) (M3.mandel2 c (symm (plane l0 l1 l2 l3 l3))))))\n      = upper (lamAb (plane f0 f1 f2 f3 f4) (M3.ofMandel c [s 0, s 1, s 2, s 3]) (plane l0 l1 l2 l3 l3) (M3.ofMandel c (act (Gen.N2_ABAQUS__DTAU_DF_r c c3 fn D (tensv F0) (tensv (plane f0 f1 f2 f3 f4)) s) (M3.mandel2 c (symm (plane l0 l1 l2 l3 l3)))))) := by\n  refine (PropsN2d.N2_ABAQUS__SPATIAL_MODULI c c3 fn hc h2 (hJ := hJ) ..).trans ?_\n  refine (PropsN2Chains.N2_SPATIAL_MODULI__DTAU_DF c c3 fn hc h2 ..).trans ?_\n  exact (PropsN2c.N2_ABAQUS__DTAU_DF c c3 fn hc h2 (hJ := hJ) ..).symm\n\n/-- conversions compose: `ABAQUS ← SPATIAL_MODULI ← C_TAU_JAUMANN` acts as the direct `ABAQUS ← C_TAU_JAUMANN`, for every variation. -/\ntheorem N2_compose_ABAQUS__SPATIAL_MODULI__C_TAU_JAUMANN (hc : c * c = 2) (h2 : (2:K) ≠ 0)\n    (D : Nat → Nat → K) (F0 : M3 K) (f0 f1 f2 f3 f4 : K) (l0 l1 l2 l3 l4 : K) (s : Nat → K) (hJ : (plane f0 f1 f2 f3 f4).det ≠ 0) :\n    upper (lamAb (plane f0 f1 f2 f3 f4) (M3.ofMandel c [s 0, s 1, s 2, s 3]) (plane l0 l1 l2 l3 l4) (M3.ofMandel c (act (Gen.N2_ABAQUS__SPATIAL_MODULI_r c c3 fn (matOf (Gen.N2_SPATIAL_MODULI__C_TAU_JAUMANN_r c c3 fn D (tensv F0) (tensv (plane f0 f1 f2 f3 f4)) s)) (tensv F0) (tensv (plane f0 f1 f2 f3 f4)) s) (M3.mandel2 c (symm (plane l0 l1 l2 l3 l4))))))\n      = upper (lamAb (plane f0 f1 f2 f3 f4) (M3.ofMandel c [s 0, s 1, s 2, s 3]) (plane l0 l1 l2 l3 l4) (M3.ofMandel c (act (Gen.N2_ABAQUS__C_TAU_JAUMANN_r c c3 fn D (tensv F0) (tensv (plane f0 f1 f2 f3 f4)) s) (M3.mandel2 c (symm (plane l0 l1 l2 l3 l4)))))) := by\n  refine (PropsN2d.N2_ABAQUS__SPATIAL_MODULI c c3 fn hc h2 (hJ := hJ) ..).trans ?_\n  refine (PropsN2a.N2_SPATIAL_MODULI__C_TAU_JAUMANN c c3 fn hc h2 ..).trans ?_\n  exact (PropsN2d.N2_ABAQUS__C_TAU_JAUMANN c c3 fn hc h2 (hJ := hJ) ..).symm\n\n/-- conversions compose: `ABAQUS ← DS_DEGL ← SPATIAL_MODULI` acts as the direct `ABAQUS ← SPATIAL_MODULI`, for every variation. -/\ntheorem N2_compose_ABAQUS__DS_DEGL__SPATIAL_MODULI (hc : c * c = 2) (h2 : (2:K) ≠ 0)\n    (D : Nat → Nat → K) (F0 : M3 K) (f0 f1 f2 f3 f4 : K) (l0 l1 l2 l3 l4 : K) (s : Nat → K) (hJ : (plane f0 f1 f2 f3 f4).det ≠ 0) :\n    upper (lamAb (plane f0 f1 f2 f3 f4) (M3.ofMandel c [s 0, s 1, s 2, s 3]) (plane l0 l1 l2 l3 l4) (M3.ofMandel c (act (Gen.N2_ABAQUS__DS_DEGL_r c c3 fn (matOf (Gen.N2_DS_DEGL__SPATIAL_MODULI_r c c3 fn D (tensv F0) (tensv (plane f0 f1 f2 f3 f4)) s)) (tensv F0) (tensv (plane f0 f1 f2 f3 f4)) s) (M3.mandel2 c (symm (plane l0 l1 l2 l3 l4))))))\n      = upper (lamAb (plane f0 f1 f2 f3 f4) (M3.ofMandel c [s 0, s 1, s 2, s 3]) (plane l0 l1 l2 l3 l4) (M3.ofMandel c (act (Gen.N2_ABAQUS__SPATIAL_MODULI_r c c3 fn D (tensv F0) (tensv (plane f0 f1 f2 f3 f4)) s) (M3.mandel2 c (symm (plane l0 l1 l2 l3 l4)))))) := by\n  refine (PropsN2Chains.N2_ABAQUS__DS_DEGL c c3 fn hc h2 (hJ := hJ) ..).trans ?_\n  refine (PropsN2Chains.N2_DS_DEGL__SPATIAL_MODULI c c3 fn hc h2 (hJ := hJ) ..).trans ?_\n  exact (PropsN2d.N2_ABAQUS__SPATIAL_MODULI c c3 fn hc h2 (hJ := hJ) ..).symm\n\n/-- conversions compose: `DSIG_DF ← C_TRUESDELL ← DS_DEGL` acts as the direct `DSIG_DF ← DS_DEGL`, for every variation. -/\ntheorem N2_compose_DSIG_DF__C_TRUESDELL__DS_DEGL (hc : c * c = 2) (h2 : (2:K) ≠ 0)\n    (D : Nat → Nat → K) (F0 : M3 K) (f0 f1 f2 f3 f4 : K) (l0 l1 l2 l3 l4 : K) (s : Nat → K) (hJ : (plane f0 f1 f2 f3 f4).det ≠ 0) :\n    upper (lamSig (plane f0 f1 f2 f3 f4) (M3.ofMandel c [s 0, s 1, s 2, s 3]) (plane l0 l1 l2 l3 l4) (M3.ofMandel c (act (Gen.N2_DSIG_DF__C_TRUESDELL_r c c3 fn (matOf (Gen.N2_C_TRUESDELL__DS_DEGL_r c c3 fn D (tensv F0) (tensv (plane f0 f1 f2 f3 f4)) s)) (tensv F0) (tensv (plane f0 f1 f2 f3 f4)) s) (M3.tens2 ((plane l0 l1 l2 l3 l4) * (plane f0 f1 f2 f3 f4))))))\n      = upper (lamSig (plane f0 f1 f2 f3 f4) (M3.ofMandel c [s 0, s 1, s 2, s 3]) (plane l0 l1 l2 l3 l4) (M3.ofMandel c (act (Gen.N2_DSIG_DF__DS_DEGL_r c c3 fn D (tensv F0) (tensv (plane f0 f1 f2 f3 f4)) s) (M3.tens2 ((plane l0 l1 l2 l3 l4) * (plane f0 f1 f2 f3 f4)))))) := by\n  refine (PropsN2Chains.N2_DSIG_DF__C_TRUESDELL c c3 fn hc h2 (hJ := hJ) ..).trans ?_\n  refine (PropsN2Chains.N2_C_TRUESDELL__DS_DEGL c c3 fn hc h2 (hJ := hJ) ..).trans ?_\n  exact (PropsN2Chains.N2_DSIG_DF__DS_DEGL c c3 fn hc h2 (hJ := hJ) ..).symm\n\n/-- conversions compose: `DSIG_DF ← C_TRUESDELL ← DTAU_DF` acts as the direct `DSIG_DF ← DTAU_DF`, for every variation. -/\ntheorem N2_compose_DSIG_DF__C_TRUESDELL__DTAU_DF (hc : c * c = 2) (h2 : (2:K) ≠ 0)\n    (D : Nat → Nat → K) (F0 : M3 K) (f0 f1 f2 f3 f4 : K) (l0 l1 l2 l3 : K) (s : Nat → K) (hJ : (plane f0 f1 f2 f3 f4).det ≠ 0) :\n    upper (lamSig (plane f0 f1 f2 f3 f4) (M3.ofMandel c [s 0, s 1, s 2, s 3]) (plane l0 l1 l2 l3 l3) (M3.ofMandel c (act (Gen.N2_DSIG_DF__C_TRUESDELL_r c c3 fn (matOf (Gen.N2_C_TRUESDELL__DTAU_DF_r c c3 fn D (tensv F0) (tensv (plane f0 f1 f2 f3 f4)) s)) (tensv F0) (tensv (plane f0 f1 f2 f3 f4)) s) (M3.tens2 ((plane l0 l1 l2 l3 l3) * (plane f0 f1 f2 f3 f4))))))\n      = upper (lamSig (plane f0 f1 f2 f3 f4) (M3.ofMandel c [s 0, s 1, s 2, s 3]) (plane l0 l1 l2 l3 l3) (M3.ofMandel c (act (Gen.N2_DSIG_DF__DTAU_DF_r c c3 fn D (tensv F0) (tensv (plane f0 f1 f2 f3 f4)) s) (M3.tens2 ((plane l0 l1 l2 l3 l3) * (plane f0 f1 f2 f3 f4)))))) := by\n  refine (PropsN2Chains.N2_DSIG_DF__C_TRUESDELL c c3 fn hc h2 (hJ := hJ) ..).trans ?_\n  refine (PropsN2Chains.N2_C_TRUESDELL__DTAU_DF c c3 fn hc h2 (hJ := hJ) ..).trans ?_\n  exact (PropsN2c.N2_DSIG_DF__DTAU_DF c c3 fn hc h2 (hJ := hJ) ..).symm\n\n/-- conversions compose: `SPATIAL_MODULI ← ABAQUS ← DS_DEGL` acts as the direct `SPATIAL_MODULI ← DS_DEGL`, for every variation. -/\ntheorem N2_compose_SPATIAL_MODULI__ABAQUS__DS_DEGL (hc : c * c = 2) (h2 : (2:K) ≠ 0)\n    (D : Nat → Nat → K) (F0 : M3 K) (f0 f1 f2 f3 f4 : K) (l0 l1 l2 l3 l4 : K) (s : Nat → K) (hJ : (plane f0 f1 f2 f3 f4).det ≠ 0) :\n    upper (lamSM (plane f0 f1 f2 f3 f4) (M3.ofMandel c [s 0, s 1, s 2, s 3]) (plane l0 l1 l2 l3 l4) (M3.ofMandel c (act (Gen.N2_SPATIAL_MODULI__ABAQUS_r c c3 fn (matOf (Gen.N2_ABAQUS__DS_DEGL_r c c3 fn D (tensv F0) (tensv (plane f0 f1 f2 f3 f4)) s)) (tensv F0) (tensv (plane f0 f1 f2 f3 f4)) s) (M3.mandel2 c (symm (plane l0 l1 l2 l3 l4))))))\n      = upper (lamSM (plane f0 f1 f2 f3 f4) (M3.ofMandel c [s 0, s 1, s 2, s 3]) (plane l0 l1 l2 l3 l4) (M3.ofMandel c (act (Gen.N2_SPATIAL_MODULI__DS_DEGL_r c c3 fn D (tensv F0) (tensv (plane f0 f1 f2 f3 f4)) s) (M3.mandel2 c (symm (plane l0 l1 l2 l3 l4)))))) := by\n  refine (PropsN2c.N2_SPATIAL_MODULI__ABAQUS c c3 fn hc h2 ..).trans ?_\n  refine (PropsN2Chains.N2_ABAQUS__DS_DEGL c c3 fn hc h2 (hJ := hJ) ..).trans ?_\n  exact (PropsN2d.N2_SPATIAL_MODULI__DS_DEGL c c3 fn hc h2 ..).symm\n\n/-- conversions compose: `SPATIAL_MODULI ← ABAQUS ← C_TAU_JAUMANN` acts as the direct `SPATIAL_MODULI ← C_TAU_JAUMANN`, for every variation. -/\ntheorem N2_compose_SPATIAL_MODULI__ABAQUS__C_TAU_JAUMANN (hc : c * c = 2) (h2 : (2:K) ≠ 0)\n    (D : Nat → Nat → K) (F0 : M3 K) (f0 f1 f2 f3 f4 : K) (l0 l1 l2 l3 l4 : K) (s : Nat → K) (hJ : (plane f0 f1 f2 f3 f4).det ≠ 0) :\n    upper (lamSM (plane f0 f1 f2 f3 f4) (M3.ofMandel c [s 0, s 1, s 2, s 3]) (plane l0 l1 l2 l3 l4) (M3.ofMandel c (act (Gen.N2_SPATIAL_MODULI__ABAQUS_r c c3 fn (matOf (Gen.N2_ABAQUS__C_TAU_JAUMANN_r c c3 fn D (tensv F0) (tensv (plane f0 f1 f2 f3 f4)) s)) (tensv F0) (tensv (plane f0 f1 f2 f3 f4)) s) (M3.mandel2 c (symm (plane l0 l1 l2 l3 l4))))))\n      = upper (lamSM (plane f0 f1 f2 f3 f4) (M3.ofMandel c [s 0, s 1, s 2, s 3]) (plane l0 l1 l2 l3 l4) (M3.ofMandel c (act (Gen.N2_SPATIAL_MODULI__C_TAU_JAUMANN_r c c3 fn D (tensv F0) (tensv (plane f0 f1 f2 f3 f4)) s) (M3.mandel2 c (symm (plane l0 l1 l2 l3 l4)))))) := by\n  refine (PropsN2c.N2_SPATIAL_MODULI__ABAQUS c c3 fn hc h2 ..).trans ?_\n  refine (PropsN2d.N2_ABAQUS__C_TAU_JAUMANN c c3 fn hc h2 (hJ := hJ) ..).trans ?_\n  exact (PropsN2a.N2_SPATIAL_MODULI__C_TAU_JAUMANN c c3 fn hc h2 ..).symm\n\n/-- conversions compose: `SPATIAL_MODULI ← ABAQUS ← DTAU_DF` acts as the direct `SPATIAL_MODULI ← DTAU_DF`, for every variation. -/\ntheorem N2_compose_SPATIAL_MODULI__ABAQUS__DTAU_DF (hc : c * c = 2) (h2 : (2:K) ≠ 0)\n    (D : Nat → Nat → K) (F0 : M3 K) (f0 f1 f2 f3 f4 : K) (l0 l1 l2 l3 : K) (s : Nat → K) (hJ : (plane f0 f1 f2 f3 f4).det ≠ 0) :\n    upper (lamSM (plane f0 f1 f2 f3 f4) (M3.ofMandel c [s 0, s 1, s 2, s 3]) (plane l0 l1 l2 l3 l3) (M3.ofMandel c (act (Gen.N2_SPATIAL_MODULI__ABAQUS_r c c3 fn (matOf (Gen.N2_ABAQUS__DTAU_DF_r c c3 fn D (tensv F0) (tensv (plane f0 f1 f2 f3 f4)) s)) (tensv F0) (tensv (plane f0 f1 f2 f3 f4)) s) (M3.mandel2 c (symm (plane l0 l1 l2 l3 l3))))))\n      = upper (lamSM (plane f0 f1 f2 f3 f4) (M3.ofMandel c [s 0, s 1, s 2, s 3]) (plane l0 l1 l2 l3 l3) (M3.ofMandel c (act (Gen.N2_SPATIAL_MODULI__DTAU_DF_r c c3 fn D (tensv F0) (tensv (plane f0 f1 f2 f3 f4)) s) (M3.mandel2 c (symm (plane l0 l1 l2 l3 l3)))))) := by\n  refine (PropsN2c.N2_SPATIAL_MODULI__ABAQUS c c3 fn hc h2 ..).trans ?_\n  refine (PropsN2c.N2_ABAQUS__DTAU_DF c c3 fn hc h2 (hJ := hJ) ..).trans ?_\n  exact (PropsN2Chains.N2_SPATIAL_MODULI__DTAU_DF c c3 fn hc h2 ..).symm\n\n/-- conversions compose: `C_TRUESDELL ← SPATIAL_MODULI ← DS_DEGL` acts as the direct `C_TRUESDELL ← DS_DEGL`, for every variation. -/\ntheorem N2_compose_C_TRUESDELL__SPATIAL_MODULI__DS_DEGL (hc : c * c = 2) (h2 : (2:K) ≠ 0)\n    (D : Nat → Nat → K) (F0 : M3 K) (f0 f1 f2 f3 f4 : K) (l0 l1 l2 l3 l4 : K) (s : Nat → K) (hJ : (plane f0 f1 f2 f3 f4).det ≠ 0) :\n    upper (lamTr (plane f0 f1 f2 f3 f4) (M3.ofMandel c [s 0, s 1, s 2, s 3]) (plane l0 l1 l2 l3 l4) (M3.ofMandel c (act (Gen.N2_C_TRUESDELL__SPATIAL_MODULI_r c c3 fn (matOf (Gen.N2_SPATIAL_MODULI__DS_DEGL_r c c3 fn D (tensv F0) (tensv (plane f0 f1 f2 f3 f4)) s)) (tensv F0) (tensv (plane f0 f1 f2 f3 f4)) s) (M3.mandel2 c (symm (plane l0 l1 l2 l3 l4))))))\n      = upper (lamTr (plane f0 f1 f2 f3 f4) (M3.ofMandel c [s 0, s 1, s 2, s 3]) (plane l0 l1 l2 l3 l4) (M3.ofMandel c (act (Gen.N2_C_TRUESDELL__DS_DEGL_r c c3 fn D (tensv F0) (tensv (plane f0 f1 f2 f3 f4)) s) (M3.mandel2 c (symm (plane l0 l1 l2 l3 l4)))))) := by\n  refine (PropsN2a.N2_C_TRUESDELL__SPATIAL_MODULI c c3 fn hc h2 (hJ := hJ) ..).trans ?_\n  refine (PropsN2d.N2_SPATIAL_MODULI__DS_DEGL c c3 fn hc h2 ..).trans ?_\n  exact (PropsN2Chains.N2_C_TRUESDELL__DS_DEGL c c3 fn hc h2 (hJ := hJ) ..).symm\n\n/-- conversions compose: `C_TRUESDELL ← SPATIAL_MODULI ← DTAU_DF` acts as the direct `C_TRUESDELL ← DTAU_DF`, for every variation. -/\ntheorem N2_compose_C_TRUESDELL__SPATIAL_MODULI__DTAU_DF (hc : c * c = 2) (h2 : (2:K) ≠ 0)\n    (D : Nat → Nat → K) (F0 : M3 K) (f0 f1 f2 f3 f4 : K) (l0 l1 l2 l3 : K) (s : Nat → K) (hJ : (plane f0 f1 f2 f3 f4).det ≠ 0) :\n    upper (lamTr (plane f0 f1 f2 f3 f4) (M3.ofMandel c [s 0, s 1, s 2, s 3]) (plane l0 l1 l2 l3 l3) (M3.ofMandel c (act (Gen.N2_C_TRUESDELL__SPATIAL_MODULI_r c c3 fn (matOf (Gen.N2_SPATIAL_MODULI__DTAU_DF_r c c3 fn D (tensv F0) (tensv (plane f0 f1 f2 f3 f4)) s)) (tensv F0) (tensv (plane f0 f1 f2 f3 f4)) s) (M3.mandel2 c (symm (plane l0 l1 l2 l3 l3))))))\n      = upper (lamTr (plane f0 f1 f2 f3 f4) (M3.ofMandel c [s 0, s 1, s 2, s 3]) (plane l0 l1 l2 l3 l3) (M3.ofMandel c (act (Gen.N2_C_TRUESDELL__DTAU_DF_r c c3 fn D (tensv F0) (tensv (plane f0 f1 f2 f3 f4)) s) (M3.mandel2 c (symm (plane l0 l1 l2 l3 l3)))))) := by\n  refine (PropsN2a.N2_C_TRUESDELL__SPATIAL_MODULI c c3 fn hc h2 (hJ := hJ) ..).trans ?_\n  refine (PropsN2Chains.N2_SPATIAL_MODULI__DTAU_DF c c3 fn hc h2 ..).trans ?_\n  exact (PropsN2Chains.N2_C_TRUESDELL__DTAU_DF c c3 fn hc h2 (hJ := hJ) ..).symm\n\n/-- conversions compose: `C_TRUESDELL ← DS_DEGL ← SPATIAL_MODULI` acts as the direct `C_TRUESDELL ← SPATIAL_MODULI`, for every variation. -/\ntheorem N2_compose_C_TRUESDELL__DS_DEGL__SPATIAL_MODULI (hc : c * c = 2) (h2 : (2:K) ≠ 0)\n    (D : Nat → Nat → K) (F0 : M3 K) (f0 f1 f2 f3 f4 : K) (l0 l1 l2 l3 l4 : K) (s : Nat → K) (hJ : (plane f0 f1 f2 f3 f4).det ≠ 0) :\n    upper (lamTr (plane f0 f1 f2 f3 f4) (M3.ofMandel c [s 0, s 1, s 2, s 3]) (plane l0 l1 l2 l3 l4) (M3.ofMandel c (act (Gen.N2_C_TRUESDELL__DS_DEGL_r c c3 fn (matOf (Gen.N2_DS_DEGL__SPATIAL_MODULI_r c c3 fn D (tensv F0) (tensv (plane f0 f1 f2 f3 f4)) s)) (tensv F0) (tensv (plane f0 f1 f2 f3 f4)) s) (M3.mandel2 c (symm (plane l0 l1 l2 l3 l4))))))\n      = upper (lamTr (plane f0 f1 f2 f3 f4) (M3.ofMandel c [s 0, s 1, s 2, s 3]) (plane l0 l1 l2 l3 l4) (M3.ofMandel c (act (Gen.N2_C_TRUESDELL__SPATIAL_MODULI_r c c3 fn D (tensv F0) (tensv (plane f0 f1 f2 f3 f4)) s) (M3.mandel2 c (symm (plane l0 l1 l2 l3 l4)))))) := by\n  refine (PropsN2Chains.N2_C_TRUESDELL__DS_DEGL c c3 fn hc h2 (hJ := hJ) ..).trans ?_\n  refine (PropsN2Chains.N2_DS_DEGL__SPATIAL_MODULI c c3 fn hc h2 (hJ := hJ) ..).trans ?_\n  exact (PropsN2a.N2_C_TRUESDELL__SPATIAL_MODULI c c3 fn hc h2 (hJ := hJ) ..).symm\n\n/-- conversions compose: `SPATIAL_MODULI ← C_TRUESDELL ← DS_DEGL` acts as the direct `SPATIAL_MODULI ← DS_DEGL`, for every variation. -/\ntheorem N2_compose_SPATIAL_MODULI__C_TRUESDELL__DS_DEGL (hc : c * c = 2) (h2 : (2:K) ≠ 0)\n    (D : Nat → Nat → K) (F0 : M3 K) (f0 f1 f2 f3 f4 : K) (l0 l1 l2 l3 l4 : K) (s : Nat → K) (hJ : (plane f0 f1 f2 f3 f4).det ≠ 0) :\n    upper (lamSM (plane f0 f1 f2 f3 f4) (M3.ofMandel c [s 0, s 1, s 2, s 3]) (plane l0 l1 l2 l3 l4) (M3.ofMandel c (act (Gen.N2_SPATIAL_MODULI__C_TRUESDELL_r c c3 fn (matOf (Gen.N2_C_TRUESDELL__DS_DEGL_r c c3 fn D (tensv F0) (tensv (plane f0 f1 f2 f3 f4)) s)) (tensv F0) (tensv (plane f0 f1 f2 f3 f4)) s) (M3.mandel2 c (symm (plane l0 l1 l2 l3 l4))))))\n      = upper (lamSM (plane f0 f1 f2 f3 f4) (M3.ofMandel c [s 0, s 1, s 2, s 3]) (plane l0 l1 l2 l3 l4) (M3.ofMandel c (act (Gen.N2_SPATIAL_MODULI__DS_DEGL_r c c3 fn D (tensv F0) (tensv (plane f0 f1 f2 f3 f4)) s) (M3.mandel2 c (symm (plane l0 l1 l2 l3 l4)))))) := by\n  refine (PropsN2c.N2_SPATIAL_MODULI__C_TRUESDELL c c3 fn hc h2 ..).trans ?_\n  refine (PropsN2Chains.N2_C_TRUESDELL__DS_DEGL c c3 fn hc h2 (hJ := hJ) ..).trans ?_\n  exact (PropsN2d.N2_SPATIAL_MODULI__DS_DEGL c c3 fn hc h2 ..).symm\n\n/-- conversions compose: `SPATIAL_MODULI ← C_TRUESDELL ← DTAU_DF` acts as the direct `SPATIAL_MODULI ← DTAU_DF`, for every variation. -/\ntheorem N2_compose_SPATIAL_MODULI__C_TRUESDELL__DTAU_DF (hc : c * c = 2) (h2 : (2:K) ≠ 0)\n    (D : Nat → Nat → K) (F0 : M3 K) (f0 f1 f2 f3 f4 : K) (l0 l1 l2 l3 : K) (s : Nat → K) (hJ : (plane f0 f1 f2 f3 f4).det ≠ 0) :\n    upper (lamSM (plane f0 f1 f2 f3 f4) (M3.ofMandel c [s 0, s 1, s 2, s 3]) (plane l0 l1 l2 l3 l3) (M3.ofMandel c (act (Gen.N2_SPATIAL_MODULI__C_TRUESDELL_r c c3 fn (matOf (Gen.N2_C_TRUESDELL__DTAU_DF_r c c3 fn D (tensv F0) (tensv (plane f0 f1 f2 f3 f4)) s)) (tensv F0) (tensv (plane f0 f1 f2 f3 f4)) s) (M3.mandel2 c (symm (plane l0 l1 l2 l3 l3))))))\n      = upper (lamSM (plane f0 f1 f2 f3 f4) (M3.ofMandel c [s 0, s 1, s 2, s 3]) (plane l0 l1 l2 l3 l3) (M3.ofMandel c (act (Gen.N2_SPATIAL_MODULI__DTAU_DF_r c c3 fn D (tensv F0) (tensv (plane f0 f1 f2 f3 f4)) s) (M3.mandel2 c (symm (plane l0 l1 l2 l3 l3)))))) := by\n  refine (PropsN2c.N2_SPATIAL_MODULI__C_TRUESDELL c c3 fn hc h2 ..).trans ?_\n  refine (PropsN2Chains.N2_C_TRUESDELL__DTAU_DF c c3 fn hc h2 (hJ := hJ) ..).trans ?_\n  exact (PropsN2Chains.N2_SPATIAL_MODULI__DTAU_DF c c3 fn hc h2 ..).symm\n\n/-- conversions compose: `DSIG_DF ← DTAU_DF ← ABAQUS` acts as the direct `DSIG_DF ← ABAQUS`, for every variation. -/\ntheorem N2_compose_DSIG_DF__DTAU_DF__ABAQUS (hc : c * c = 2) (h2 : (2:K) ≠ 0)\n    (D : Nat → Nat → K) (F0 : M3 K) (f0 f1 f2 f3 f4 : K) (l0 l1 l2 l3 l4 : K) (s : Nat → K) (hJ : (plane f0 f1 f2 f3 f4).det ≠ 0) :\n    upper (lamSig (plane f0 f1 f2 f3 f4) (M3.ofMandel c [s 0, s 1, s 2, s 3]) (plane l0 l1 l2 l3 l4) (M3.ofMandel c (act (Gen.N2_DSIG_DF__DTAU_DF_r c c3 fn (matOf (Gen.N2_DTAU_DF__ABAQUS_r c c3 fn D (tensv F0) (tensv (plane f0 f1 f2 f3 f4)) s)) (tensv F0) (tensv (plane f0 f1 f2 f3 f4)) s) (M3.tens2 ((plane l0 l1 l2 l3 l4) * (plane f0 f1 f2 f3 f4))))))\n      = upper (lamSig (plane f0 f1 f2 f3 f4) (M3.ofMandel c [s 0, s 1, s 2, s 3]) (plane l0 l1 l2 l3 l4) (M3.ofMandel c (act (Gen.N2_DSIG_DF__ABAQUS_r c c3 fn D (tensv F0) (tensv (plane f0 f1 f2 f3 f4)) s) (M3.tens2 ((plane l0 l1 l2 l3 l4) * (plane f0 f1 f2 f3 f4)))))) := by\n  refine (PropsN2c.N2_DSIG_DF__DTAU_DF c c3 fn hc h2 (hJ := hJ) ..).trans ?_\n  refine (PropsN2a.N2_DTAU_DF__ABAQUS c c3 fn hc h2 (hJ := hJ) ..).trans ?_\n  exact (PropsN2Chains.N2_DSIG_DF__ABAQUS c c3 fn hc h2 (hJ := hJ) ..).symm\n\n/-- conversions compose: `SPATIAL_MODULI ← DTAU_DF ← C_TAU_JAUMANN` acts as the direct `SPATIAL_MODULI ← C_TAU_JAUMANN`, for every variation. -/\ntheorem N2_compose_SPATIAL_MODULI__DTAU_DF__C_TAU_JAUMANN (hc : c * c = 2) (h2 : (2:K) ≠ 0)\n    (D : Nat → Nat → K) (F0 : M3 K) (f0 f1 f2 f3 f4 : K) (l0 l1 l2 l3 : K) (s : Nat → K) (hJ : (plane f0 f1 f2 f3 f4).det ≠ 0) :\n    upper (lamSM (plane f0 f1 f2 f3 f4) (M3.ofMandel c [s 0, s 1, s 2, s 3]) (plane l0 l1 l2 l3 l3) (M3.ofMandel c (act (Gen.N2_SPATIAL_MODULI__DTAU_DF_r c c3 fn (matOf (Gen.N2_DTAU_DF__C_TAU_JAUMANN_r c c3 fn D (tensv F0) (tensv (plane f0 f1 f2 f3 f4)) s)) (tensv F0) (tensv (plane f0 f1 f2 f3 f4)) s) (M3.mandel2 c (symm (plane l0 l1 l2 l3 l3))))))\n      = upper (lamSM (plane f0 f1 f2 f3 f4) (M3.ofMandel c [s 0, s 1, s 2, s 3]) (plane l0 l1 l2 l3 l3) (M3.ofMandel c (act (Gen.N2_SPATIAL_MODULI__C_TAU_JAUMANN_r c c3 fn D (tensv F0) (tensv (plane f0 f1 f2 f3 f4)) s) (M3.mandel2 c (symm (plane l0 l1 l2 l3 l3)))))) := by\n  refine (PropsN2Chains.N2_SPATIAL_MODULI__DTAU_DF c c3 fn hc h2 ..).trans ?_\n  refine (PropsN2b.N2_DTAU_DF__C_TAU_JAUMANN c c3 fn hc h2 (hJ := hJ) ..).trans ?_\n  exact (PropsN2a.N2_SPATIAL_MODULI__C_TAU_JAUMANN c c3 fn hc h2 ..).symm\n\n/-- conversions compose: `SPATIAL_MODULI ← DTAU_DF ← ABAQUS` acts as the direct `SPATIAL_MODULI ← ABAQUS`, for every variation. -/\ntheorem N2_compose_SPATIAL_MODULI__DTAU_DF__ABAQUS (hc : c * c = 2) (h2 : (2:K) ≠ 0)\n    (D : Nat → Nat → K) (F0 : M3 K) (f0 f1 f2 f3 f4 : K) (l0 l1 l2 l3 : K) (s : Nat → K) (hJ : (plane f0 f1 f2 f3 f4).det ≠ 0) :\n    upper (lamSM (plane f0 f1 f2 f3 f4) (M3.ofMandel c [s 0, s 1, s 2, s 3]) (plane l0 l1 l2 l3 l3) (M3.ofMandel c (act (Gen.N2_SPATIAL_MODULI__DTAU_DF_r c c3 fn (matOf (Gen.N2_DTAU_DF__ABAQUS_r c c3 fn D (tensv F0) (tensv (plane f0 f1 f2 f3 f4)) s)) (tensv F0) (tensv (plane f0 f1 f2 f3 f4)) s) (M3.mandel2 c (symm (plane l0 l1 l2 l3 l3))))))\n      = upper (lamSM (plane f0 f1 f2 f3 f4) (M3.ofMandel c [s 0, s 1, s 2, s 3]) (plane l0 l1 l2 l3 l3) (M3.ofMandel c (act (Gen.N2_SPATIAL_MODULI__ABAQUS_r c c3 fn D (tensv F0) (tensv (plane f0 f1 f2 f3 f4)) s) (M3.mandel2 c (symm (plane l0 l1 l2 l3 l3)))))) := by\n  refine (PropsN2Chains.N2_SPATIAL_MODULI__DTAU_DF c c3 fn hc h2 ..).trans ?_\n  refine (PropsN2a.N2_DTAU_DF__ABAQUS c c3 fn hc h2 (hJ := hJ) ..).trans ?_\n  exact (PropsN2c.N2_SPATIAL_MODULI__ABAQUS c c3 fn hc h2 ..).symm\n\n/-- conversions compose: `C_TAU_JAUMANN ← DTAU_DF ← ABAQUS` acts as the direct `C_TAU_JAUMANN ← ABAQUS`, for every variation. -/\ntheorem N2_compose_C_TAU_JAUMANN__DTAU_DF__ABAQUS (hc : c * c = 2) (h2 : (2:K) ≠ 0)\n    (D : Nat → Nat → K) (F0 : M3 K) (f0 f1 f2 f3 f4 : K) (l0 l1 l2 l3 : K) (s : Nat → K) (hJ : (plane f0 f1 f2 f3 f4).det ≠ 0) :\n    upper (lamJ (plane f0 f1 f2 f3 f4) (M3.ofMandel c [s 0, s 1, s 2, s 3]) (plane l0 l1 l2 l3 l3) (M3.ofMandel c (act (Gen.N2_C_TAU_JAUMANN__DTAU_DF_r c c3 fn (matOf (Gen.N2_DTAU_DF__ABAQUS_r c c3 fn D (tensv F0) (tensv (plane f0 f1 f2 f3 f4)) s)) (tensv F0) (tensv (plane f0 f1 f2 f3 f4)) s) (M3.mandel2 c (symm (plane l0 l1 l2 l3 l3))))))\n      = upper (lamJ (plane f0 f1 f2 f3 f4) (M3.ofMandel c [s 0, s 1, s 2, s 3]) (plane l0 l1 l2 l3 l3) (M3.ofMandel c (act (Gen.N2_C_TAU_JAUMANN__ABAQUS_r c c3 fn D (tensv F0) (tensv (plane f0 f1 f2 f3 f4)) s) (M3.mandel2 c (symm (plane l0 l1 l2 l3 l3)))))) := by\n  refine (PropsN2d.N2_C_TAU_JAUMANN__DTAU_DF c c3 fn hc h2 ..).trans ?_\n  refine (PropsN2a.N2_DTAU_DF__ABAQUS c c3 fn hc h2 (hJ := hJ) ..).trans ?_\n  exact (PropsN2b.N2_C_TAU_JAUMANN__ABAQUS c c3 fn hc h2 ..).symm\n\n/-- conversions compose: `C_TAU_JAUMANN ← DTAU_DF ← SPATIAL_MODULI` acts as the direct `C_TAU_JAUMANN ← SPATIAL_MODULI`, for every variation. -/\ntheorem N2_compose_C_TAU_JAUMANN__DTAU_DF__SPATIAL_MODULI (hc : c * c = 2) (h2 : (2:K) ≠ 0)\n    (D : Nat → Nat → K) (F0 : M3 K) (f0 f1 f2 f3 f4 : K) (l0 l1 l2 l3 : K) (s : Nat → K) (hJ : (plane f0 f1 f2 f3 f4).det ≠ 0) :\n    upper (lamJ (plane f0 f1 f2 f3 f4) (M3.ofMandel c [s 0, s 1, s 2, s 3]) (plane l0 l1 l2 l3 l3) (M3.ofMandel c (act (Gen.N2_C_TAU_JAUMANN__DTAU_DF_r c c3 fn (matOf (Gen.N2_DTAU_DF__SPATIAL_MODULI_r c c3 fn D (tensv F0) (tensv (plane f0 f1 f2 f3 f4)) s)) (tensv F0) (tensv (plane f0 f1 f2 f3 f4)) s) (M3.mandel2 c (symm (plane l0 l1 l2 l3 l3))))))\n      = upper (lamJ (plane f0 f1 f2 f3 f4) (M3.ofMandel c [s 0, s 1, s 2, s 3]) (plane l0 l1 l2 l3 l3) (M3.ofMandel c (act (Gen.N2_C_TAU_JAUMANN__SPATIAL_MODULI_r c c3 fn D (tensv F0) (tensv (plane f0 f1 f2 f3 f4)) s) (M3.mandel2 c (symm (plane l0 l1 l2 l3 l3)))))) := by\n  refine (PropsN2d.N2_C_TAU_JAUMANN__DTAU_DF c c3 fn hc h2 ..).trans ?_\n  refine (PropsN2Chains.N2_DTAU_DF__SPATIAL_MODULI c c3 fn hc h2 (hJ := hJ) ..).trans ?_\n  exact (PropsN2c.N2_C_TAU_JAUMANN__SPATIAL_MODULI c c3 fn hc h2 ..).symm\n\n/-- conversions compose: `C_TRUESDELL ← DTAU_DF ← SPATIAL_MODULI` acts as the direct `C_TRUESDELL ← SPATIAL_MODULI`, for every variation. -/\ntheorem N2_compose_C_TRUESDELL__DTAU_DF__SPATIAL_MODULI (hc : c * c = 2) (h2 : (2:K) ≠ 0)\n    (D : Nat → Nat → K) (F0 : M3 K) (f0 f1 f2 f3 f4 : K) (l0 l1 l2 l3 : K) (s : Nat → K) (hJ : (plane f0 f1 f2 f3 f4).det ≠ 0) :\n    upper (lamTr (plane f0 f1 f2 f3 f4) (M3.ofMandel c [s 0, s 1, s 2, s 3]) (plane l0 l1 l2 l3 l3) (M3.ofMandel c (act (Gen.N2_C_TRUESDELL__DTAU_DF_r c c3 fn (matOf (Gen.N2_DTAU_DF__SPATIAL_MODULI_r c c3 fn D (tensv F0) (tensv (plane f0 f1 f2 f3 f4)) s)) (tensv F0) (tensv (plane f0 f1 f2 f3 f4)) s) (M3.mandel2 c (symm (plane l0 l1 l2 l3 l3))))))\n      = upper (lamTr (plane f0 f1 f2 f3 f4) (M3.ofMandel c [s 0, s 1, s 2, s 3]) (plane l0 l1 l2 l3 l3) (M3.ofMandel c (act (Gen.N2_C_TRUESDELL__SPATIAL_MODULI_r c c3 fn D (tensv F0) (tensv (plane f0 f1 f2 f3 f4)) s) (M3.mandel2 c (symm (plane l0 l1 l2 l3 l3)))))) := by\n  refine (PropsN2Chains.N2_C_TRUESDELL__DTAU_DF c c3 fn hc h2 (hJ := hJ) ..).trans ?_\n  refine (PropsN2Chains.N2_DTAU_DF__SPATIAL_MODULI c c3 fn hc h2 (hJ := hJ) ..).trans ?_\n  exact (PropsN2a.N2_C_TRUESDELL__SPATIAL_MODULI c c3 fn hc h2 (hJ := hJ) ..).symm\n\n/-- conversions compose: `ABAQUS ← C_TAU_JAUMANN ← DTAU_DF` acts as the direct `ABAQUS ← DTAU_DF`, for every variation. -/\ntheorem N2_compose_ABAQUS__C_TAU_JAUMANN__DTAU_DF (hc : c * c = 2) (h2 : (2:K) ≠ 0)\n    (D : Nat → Nat → K) (F0 : M3 K) (f0 f1 f2 f3 f4 : K) (l0 l1 l2 l3 : K) (s : Nat → K) (hJ : (plane f0 f1 f2 f3 f4).det ≠ 0) :\n    upper (lamAb (plane f0 f1 f2 f3 f4) (M3.ofMandel c [s 0, s 1, s 2, s 3]) (plane l0 l1 l2 l3 l3) (M3.ofMandel c (act (Gen.N2_ABAQUS__C_TAU_JAUMANN_r c c3 fn (matOf (Gen.N2_C_TAU_JAUMANN__DTAU_DF_r c c3 fn D (tensv F0) (tensv (plane f0 f1 f2 f3 f4)) s)) (tensv F0) (tensv (plane f0 f1 f2 f3 f4)) s) (M3.mandel2 c (symm (plane l0 l1 l2 l3 l3))))))\n      = upper (lamAb (plane f0 f1 f2 f3 f4) (M3.ofMandel c [s 0, s 1, s 2, s 3]) (plane l0 l1 l2 l3 l3) (M3.ofMandel c (act (Gen.N2_ABAQUS__DTAU_DF_r c c3 fn D (tensv F0) (tensv (plane f0 f1 f2 f3 f4)) s) (M3.mandel2 c (symm (plane l0 l1 l2 l3 l3)))))) := by\n  refine (PropsN2d.N2_ABAQUS__C_TAU_JAUMANN c c3 fn hc h2 (hJ := hJ) ..).trans ?_\n  refine (PropsN2d.N2_C_TAU_JAUMANN__DTAU_DF c c3 fn hc h2 ..).trans ?_\n  exact (PropsN2c.N2_ABAQUS__DTAU_DF c c3 fn hc h2 (hJ := hJ) ..).symm\n\n/-- conversions compose: `ABAQUS ← C_TAU_JAUMANN ← SPATIAL_MODULI` acts as the direct `ABAQUS ← SPATIAL_MODULI`, for every variation. -/\ntheorem N2_compose_ABAQUS__C_TAU_JAUMANN__SPATIAL_MODULI (hc : c * c = 2) (h2 : (2:K) ≠ 0)\n    (D : Nat → Nat → K) (F0 : M3 K) (f0 f1 f2 f3 f4 : K) (l0 l1 l2 l3 l4 : K) (s : Nat → K) (hJ : (plane f0 f1 f2 f3 f4).det ≠ 0) :\n    upper (lamAb (plane f0 f1 f2 f3 f4) (M3.ofMandel c [s 0, s 1, s 2, s 3]) (plane l0 l1 l2 l3 l4) (M3.ofMandel c (act (Gen.N2_ABAQUS__C_TAU_JAUMANN_r c c3 fn (matOf (Gen.N2_C_TAU_JAUMANN__SPATIAL_MODULI_r c c3 fn D (tensv F0) (tensv (plane f0 f1 f2 f3 f4)) s)) (tensv F0) (tensv (plane f0 f1 f2 f3 f4)) s) (M3.mandel2 c (symm (plane l0 l1 l2 l3 l4))))))\n      = upper (lamAb (plane f0 f1 f2 f3 f4) (M3.ofMandel c [s 0, s 1, s 2, s 3]) (plane l0 l1 l2 l3 l4) (M3.ofMandel c (act (Gen.N2_ABAQUS__SPATIAL_MODULI_r c c3 fn D (tensv F0) (tensv (plane f0 f1 f2 f3 f4)) s) (M3.mandel2 c (symm (plane l0 l1 l2 l3 l4)))))) := by\n  refine (PropsN2d.N2_ABAQUS__C_TAU_JAUMANN c c3 fn hc h2 (hJ := hJ) ..).trans ?_\n  refine (PropsN2c.N2_C_TAU_JAUMANN__SPATIAL_MODULI c c3 fn hc h2 ..).trans ?_\n  exact (PropsN2d.N2_ABAQUS__SPATIAL_MODULI c c3 fn hc h2 (hJ := hJ) ..).symm\n\n/-- conversions compose: `C_TAU_JAUMANN ← ABAQUS ← SPATIAL_MODULI` acts as the direct `C_TAU_JAUMANN ← SPATIAL_MODULI`, for every variation. -/\ntheorem N2_compose_C_TAU_JAUMANN__ABAQUS__SPATIAL_MODULI (hc : c * c = 2) (h2 : (2:K) ≠ 0)\n    (D : Nat → Nat → K) (F0 : M3 K) (f0 f1 f2 f3 f4 : K) (l0 l1 l2 l3 l4 : K) (s : Nat → K) (hJ : (plane f0 f1 f2 f3 f4).det ≠ 0) :\n    upper (lamJ (plane f0 f1 f2 f3 f4) (M3.ofMandel c [s 0, s 1, s 2, s 3]) (plane l0 l1 l2 l3 l4) (M3.ofMandel c (act (Gen.N2_C_TAU_JAUMANN__ABAQUS_r c c3 fn (matOf (Gen.N2_ABAQUS__SPATIAL_MODULI_r c c3 fn D (tensv F0) (tensv (plane f0 f1 f2 f3 f4)) s)) (tensv F0) (tensv (plane f0 f1 f2 f3 f4)) s) (M3.mandel2 c (symm (plane l0 l1 l2 l3 l4))))))\n      = upper (lamJ (plane f0 f1 f2 f3 f4) (M3.ofMandel c [s 0, s 1, s 2, s 3]) (plane l0 l1 l2 l3 l4) (M3.ofMandel c (act (Gen.N2_C_TAU_JAUMANN__SPATIAL_MODULI_r c c3 fn D (tensv F0) (tensv (plane f0 f1 f2 f3 f4)) s) (M3.mandel2 c (symm (plane l0 l1 l2 l3 l4)))))) := by\n  refine (PropsN2b.N2_C_TAU_JAUMANN__ABAQUS c c3 fn hc h2 ..).trans ?_\n  refine (PropsN2d.N2_ABAQUS__SPATIAL_MODULI c c3 fn hc h2 (hJ := hJ) ..).trans ?_\n  exact (PropsN2c.N2_C_TAU_JAUMANN__SPATIAL_MODULI c c3 fn hc h2 ..).symm\n\n/-- conversions compose: `C_TAU_JAUMANN ← ABAQUS ← DTAU_DF` acts as the direct `C_TAU_JAUMANN ← DTAU_DF`, for every variation. -/\ntheorem N2_compose_C_TAU_JAUMANN__ABAQUS__DTAU_DF (hc : c * c = 2) (h2 : (2:K) ≠ 0)\n    (D : Nat → Nat → K) (F0 : M3 K) (f0 f1 f2 f3 f4 : K) (l0 l1 l2 l3 : K) (s : Nat → K) (hJ : (plane f0 f1 f2 f3 f4).det ≠ 0) :\n    upper (lamJ (plane f0 f1 f2 f3 f4) (M3.ofMandel c [s 0, s 1, s 2, s 3]) (plane l0 l1 l2 l3 l3) (M3.ofMandel c (act (Gen.N2_C_TAU_JAUMANN__ABAQUS_r c c3 fn (matOf (Gen.N2_ABAQUS__DTAU_DF_r c c3 fn D (tensv F0) (tensv (plane f0 f1 f2 f3 f4)) s)) (tensv F0) (tensv (plane f0 f1 f2 f3 f4)) s) (M3.mandel2 c (symm (plane l0 l1 l2 l3 l3))))))\n      = upper (lamJ (plane f0 f1 f2 f3 f4) (M3.ofMandel c [s 0, s 1, s 2, s 3]) (plane l0 l1 l2 l3 l3) (M3.ofMandel c (act (Gen.N2_C_TAU_JAUMANN__DTAU_DF_r c c3 fn D (tensv F0) (tensv (plane f0 f1 f2 f3 f4)) s) (M3.mandel2 c (symm (plane l0 l1 l2 l3 l3)))))) := by\n  refine (PropsN2b.N2_C_TAU_JAUMANN__ABAQUS c c3 fn hc h2 ..).trans ?_\n  refine (PropsN2c.N2_ABAQUS__DTAU_DF c c3 fn hc h2 (hJ := hJ) ..).trans ?_\n  exact (PropsN2d.N2_C_TAU_JAUMANN__DTAU_DF c c3 fn hc h2 ..).symm\n\n/-- conversions compose: `C_TAU_JAUMANN ← SPATIAL_MODULI ← ABAQUS` acts as the direct `C_TAU_JAUMANN ← ABAQUS`, for every variation. -/\ntheorem N2_compose_C_TAU_JAUMANN__SPATIAL_MODULI__ABAQUS (hc : c * c = 2) (h2 : (2:K) ≠ 0)\n    (D : Nat → Nat → K) (F0 : M3 K) (f0 f1 f2 f3 f4 : K) (l0 l1 l2 l3 l4 : K) (s : Nat → K)  :\n    upper (lamJ (plane f0 f1 f2 f3 f4) (M3.ofMandel c [s 0, s 1, s 2, s 3]) (plane l0 l1 l2 l3 l4) (M3.ofMandel c (act (Gen.N2_C_TAU_JAUMANN__SPATIAL_MODULI_r c c3 fn (matOf (Gen.N2_SPATIAL_MODULI__ABAQUS_r c c3 fn D (tensv F0) (tensv (plane f0 f1 f2 f3 f4)) s)) (tensv F0) (tensv (plane f0 f1 f2 f3 f4)) s) (M3.mandel2 c (symm (plane l0 l1 l2 l3 l4))))))\n      = upper (lamJ (plane f0 f1 f2 f3 f4) (M3.ofMandel c [s 0, s 1, s 2, s 3]) (plane l0 l1 l2 l3 l4) (M3.ofMandel c (act (Gen.N2_C_TAU_JAUMANN__ABAQUS_r c c3 fn D (tensv F0) (tensv (plane f0 f1 f2 f3 f4)) s) (M3.mandel2 c (symm (plane l0 l1 l2 l3 l4)))))) := by\n  refine (PropsN2c.N2_C_TAU_JAUMANN__SPATIAL_MODULI c c3 fn hc h2 ..).trans ?_\n  refine (PropsN2c.N2_SPATIAL_MODULI__ABAQUS c c3 fn hc h2 ..).trans ?_\n  exact (PropsN2b.N2_C_TAU_JAUMANN__ABAQUS c c3 fn hc h2 ..).symm\n\n/-- conversions compose: `C_TAU_JAUMANN ← SPATIAL_MODULI ← DTAU_DF` acts as the direct `C_TAU_JAUMANN ← DTAU_DF`, for every variation. -/\ntheorem N2_compose_C_TAU_JAUMANN__SPATIAL_MODULI__DTAU_DF (hc : c * c = 2) (h2 : (2:K) ≠ 0)\n    (D : Nat → Nat → K) (F0 : M3 K) (f0 f1 f2 f3 f4 : K) (l0 l1 l2 l3 : K) (s : Nat → K)  :\n    upper (lamJ (plane f0 f1 f2 f3 f4) (M3.ofMandel c [s 0, s 1, s 2, s 3]) (plane l0 l1 l2 l3 l3) (M3.ofMandel c (act (Gen.N2_C_TAU_JAUMANN__SPATIAL_MODULI_r c c3 fn (matOf (Gen.N2_SPATIAL_MODULI__DTAU_DF_r c c3 fn D (tensv F0) (tensv (plane f0 f1 f2 f3 f4)) s)) (tensv F0) (tensv (plane f0 f1 f2 f3 f4)) s) (M3.mandel2 c (symm (plane l0 l1 l2 l3 l3))))))\n      = upper (lamJ (plane f0 f1 f2 f3 f4) (M3.ofMandel c [s 0, s 1, s 2, s 3]) (plane l0 l1 l2 l3 l3) (M3.ofMandel c (act (Gen.N2_C_TAU_JAUMANN__DTAU_DF_r c c3 fn D (tensv F0) (tensv (plane f0 f1 f2 f3 f4)) s) (M3.mandel2 c (symm (plane l0 l1 l2 l3 l3)))))) := by\n  refine (PropsN2c.N2_C_TAU_JAUMANN__SPATIAL_MODULI c c3 fn hc h2 ..).trans ?_\n  refine (PropsN2Chains.N2_SPATIAL_MODULI__DTAU_DF c c3 fn hc h2 ..).trans ?_\n  exact (PropsN2d.N2_C_TAU_JAUMANN__DTAU_DF c c3 fn hc h2 ..).symm\n\n/-- conversions compose: `SPATIAL_MODULI ← C_TAU_JAUMANN ← DTAU_DF` acts as the direct `SPATIAL_MODULI ← DTAU_DF`, for every variation. -/\ntheorem N2_compose_SPATIAL_MODULI__C_TAU_JAUMANN__DTAU_DF (hc : c * c = 2) (h2 : (2:K) ≠ 0)\n    (D : Nat → Nat → K) (F0 : M3 K) (f0 f1 f2 f3 f4 : K) (l0 l1 l2 l3 : K) (s : Nat → K)  :\n    upper (lamSM (plane f0 f1 f2 f3 f4) (M3.ofMandel c [s 0, s 1, s 2, s 3]) (plane l0 l1 l2 l3 l3) (M3.ofMandel c (act (Gen.N2_SPATIAL_MODULI__C_TAU_JAUMANN_r c c3 fn (matOf (Gen.N2_C_TAU_JAUMANN__DTAU_DF_r c c3 fn D (tensv F0) (tensv (plane f0 f1 f2 f3 f4)) s)) (tensv F0) (tensv (plane f0 f1 f2 f3 f4)) s) (M3.mandel2 c (symm (plane l0 l1 l2 l3 l3))))))\n      = upper (lamSM (plane f0 f1 f2 f3 f4) (M3.ofMandel c [s 0, s 1, s 2, s 3]) (plane l0 l1 l2 l3 l3) (M3.ofMandel c (act (Gen.N2_SPATIAL_MODULI__DTAU_DF_r c c3 fn D (tensv F0) (tensv (plane f0 f1 f2 f3 f4)) s) (M3.mandel2 c (symm (plane l0 l1 l2 l3 l3)))))) := by\n  refine (PropsN2a.N2_SPATIAL_MODULI__C_TAU_JAUMANN c c3 fn hc h2 ..).trans ?_\n  refine (PropsN2d.N2_C_TAU_JAUMANN__DTAU_DF c c3 fn hc h2 ..).trans ?_\n  exact (PropsN2Chains.N2_SPATIAL_MODULI__DTAU_DF c c3 fn hc h2 ..).symm\n\n/-- conversions compose: `SPATIAL_MODULI ← C_TAU_JAUMANN ← ABAQUS` acts as the direct `SPATIAL_MODULI ← ABAQUS`, for every variation. -/\ntheorem N2_compose_SPATIAL_MODULI__C_TAU_JAUMANN__ABAQUS (hc : c * c = 2) (h2 : (2:K) ≠ 0)\n    (D : Nat → Nat → K) (F0 : M3 K) (f0 f1 f2 f3 f4 : K) (l0 l1 l2 l3 l4 : K) (s : Nat → K)  :\n    upper (lamSM (plane f0 f1 f2 f3 f4) (M3.ofMandel c [s 0, s 1, s 2, s 3]) (plane l0 l1 l2 l3 l4) (M3.ofMandel c (act (Gen.N2_SPATIAL_MODULI__C_TAU_JAUMANN_r c c3 fn (matOf (Gen.N2_C_TAU_JAUMANN__ABAQUS_r c c3 fn D (tensv F0) (tensv (plane f0 f1 f2 f3 f4)) s)) (tensv F0) (tensv (plane f0 f1 f2 f3 f4)) s) (M3.mandel2 c (symm (plane l0 l1 l2 l3 l4))))))\n      = upper (lamSM (plane f0 f1 f2 f3 f4) (M3.ofMandel c [s 0, s 1, s 2, s 3]) (plane l0 l1 l2 l3 l4) (M3.ofMandel c (act (Gen.N2_SPATIAL_MODULI__ABAQUS_r c c3 fn D (tensv F0) (tensv (plane f0 f1 f2 f3 f4)) s) (M3.mandel2 c (symm (plane l0 l1 l2 l3 l4)))))) := by\n  refine (PropsN2a.N2_SPATIAL_MODULI__C_TAU_JAUMANN c c3 fn hc h2 ..).trans ?_\n  refine (PropsN2b.N2_C_TAU_JAUMANN__ABAQUS c c3 fn hc h2 ..).trans ?_\n  exact (PropsN2c.N2_SPATIAL_MODULI__ABAQUS c c3 fn hc h2 ..).symm\n\n/-- conversions compose: `ABAQUS ← DTAU_DF ← C_TAU_JAUMANN` acts as the direct `ABAQUS ← C_TAU_JAUMANN`, for every variation. -/\ntheorem N2_compose_ABAQUS__DTAU_DF__C_TAU_JAUMANN (hc : c * c = 2) (h2 : (2:K) ≠ 0)\n    (D : Nat → Nat → K) (F0 : M3 K) (f0 f1 f2 f3 f4 : K) (l0 l1 l2 l3 : K) (s : Nat → K) (hJ : (plane f0 f1 f2 f3 f4).det ≠ 0) :\n    upper (lamAb (plane f0 f1 f2 f3 f4) (M3.ofMandel c [s 0, s 1, s 2, s 3]) (plane l0 l1 l2 l3 l3) (M3.ofMandel c (act (Gen.N2_ABAQUS__DTAU_DF_r c c3 fn (matOf (Gen.N2_DTAU_DF__C_TAU_JAUMANN_r c c3 fn D (tensv F0) (tensv (plane f0 f1 f2 f3 f4)) s)) (tensv F0) (tensv (plane f0 f1 f2 f3 f4)) s) (M3.mandel2 c (symm (plane l0 l1 l2 l3 l3))))))\n      = upper (lamAb (plane f0 f1 f2 f3 f4) (M3.ofMandel c [s 0, s 1, s 2, s 3]) (plane l0 l1 l2 l3 l3) (M3.ofMandel c (act (Gen.N2_ABAQUS__C_TAU_JAUMANN_r c c3 fn D (tensv F0) (tensv (plane f0 f1 f2 f3 f4)) s) (M3.mandel2 c (symm (plane l0 l1 l2 l3 l3)))))) := by\n  refine (PropsN2c.N2_ABAQUS__DTAU_DF c c3 fn hc h2 (hJ := hJ) ..).trans ?_\n  refine (PropsN2b.N2_DTAU_DF__C_TAU_JAUMANN c c3 fn hc h2 (hJ := hJ) ..).trans ?_\n  exact (PropsN2d.N2_ABAQUS__C_TAU_JAUMANN c c3 fn hc h2 (hJ := hJ) ..).symm\n\n/-- conversions compose: `ABAQUS ← DTAU_DF ← SPATIAL_MODULI` acts as the direct `ABAQUS ← SPATIAL_MODULI`, for every variation. -/\ntheorem N2_compose_ABAQUS__DTAU_DF__SPATIAL_MODULI (hc : c * c = 2) (h2 : (2:K) ≠ 0)\n    (D : Nat → Nat → K) (F0 : M3 K) (f0 f1 f2 f3 f4 : K) (l0 l1 l2 l3 : K) (s : Nat → K) (hJ : (plane f0 f1 f2 f3 f4).det ≠ 0) :\n    upper (lamAb (plane f0 f1 f2 f3 f4) (M3.ofMandel c [s 0, s 1, s 2, s 3]) (plane l0 l1 l2 l3 l3) (M3.ofMandel c (act (Gen.N2_ABAQUS__DTAU_DF_r c c3 fn (matOf (Gen.N2_DTAU_DF__SPATIAL_MODULI_r c c3 fn D (tensv F0) (tensv (plane f0 f1 f2 f3 f4)) s)) (tensv F0) (tensv (plane f0 f1 f2 f3 f4)) s) (M3.mandel2 c (symm (plane l0 l1 l2 l3 l3))))))\n      = upper (lamAb (plane f0 f1 f2 f3 f4) (M3.ofMandel c [s 0, s 1, s 2, s 3]) (plane l0 l1 l2 l3 l3) (M3.ofMandel c (act (Gen.N2_ABAQUS__SPATIAL_MODULI_r c c3 fn D (tensv F0) (tensv (plane f0 f1 f2 f3 f4)) s) (M3.mandel2 c (symm (plane l0 l1 l2 l3 l3)))))) := by\n  refine (PropsN2c.N2_ABAQUS__DTAU_DF c c3 fn hc h2 (hJ := hJ) ..).trans ?_\n  refine (PropsN2Chains.N2_DTAU_DF__SPATIAL_MODULI c c3 fn hc h2 (hJ := hJ) ..).trans ?_\n  exact (PropsN2d.N2_ABAQUS__SPATIAL_MODULI c c3 fn hc h2 (hJ := hJ) ..).symm\n\n/-- conversions compose: `DTAU_DF ← C_TAU_JAUMANN ← ABAQUS` acts as the direct `DTAU_DF ← ABAQUS`, for every variation. -/\ntheorem N2_compose_DTAU_DF__C_TAU_JAUMANN__ABAQUS (hc : c * c = 2) (h2 : (2:K) ≠ 0)\n    (D : Nat → Nat → K) (F0 : M3 K) (f0 f1 f2 f3 f4 : K) (l0 l1 l2 l3 l4 : K) (s : Nat → K) (hJ : (plane f0 f1 f2 f3 f4).det ≠ 0) :\n    upper (lamTau (plane f0 f1 f2 f3 f4) (M3.ofMandel c [s 0, s 1, s 2, s 3]) (plane l0 l1 l2 l3 l4) (M3.ofMandel c (act (Gen.N2_DTAU_DF__C_TAU_JAUMANN_r c c3 fn (matOf (Gen.N2_C_TAU_JAUMANN__ABAQUS_r c c3 fn D (tensv F0) (tensv (plane f0 f1 f2 f3 f4)) s)) (tensv F0) (tensv (plane f0 f1 f2 f3 f4)) s) (M3.tens2 ((plane l0 l1 l2 l3 l4) * (plane f0 f1 f2 f3 f4))))))\n      = upper (lamTau (plane f0 f1 f2 f3 f4) (M3.ofMandel c [s 0, s 1, s 2, s 3]) (plane l0 l1 l2 l3 l4) (M3.ofMandel c (act (Gen.N2_DTAU_DF__ABAQUS_r c c3 fn D (tensv F0) (tensv (plane f0 f1 f2 f3 f4)) s) (M3.tens2 ((plane l0 l1 l2 l3 l4) * (plane f0 f1 f2 f3 f4)))))) := by\n  refine (PropsN2b.N2_DTAU_DF__C_TAU_JAUMANN c c3 fn hc h2 (hJ := hJ) ..).trans ?_\n  refine (PropsN2b.N2_C_TAU_JAUMANN__ABAQUS c c3 fn hc h2 ..).trans ?_\n  exact (PropsN2a.N2_DTAU_DF__ABAQUS c c3 fn hc h2 (hJ := hJ) ..).symm\n\n/-- conversions compose: `DTAU_DF ← C_TAU_JAUMANN ← SPATIAL_MODULI` acts as the direct `DTAU_DF ← SPATIAL_MODULI`, for every variation. -/\ntheorem N2_compose_DTAU_DF__C_TAU_JAUMANN__SPATIAL_MODULI (hc : c * c = 2) (h2 : (2:K) ≠ 0)\n    (D : Nat → Nat → K) (F0 : M3 K) (f0 f1 f2 f3 f4 : K) (l0 l1 l2 l3 l4 : K) (s : Nat → K) (hJ : (plane f0 f1 f2 f3 f4).det ≠ 0) :\n    upper (lamTau (plane f0 f1 f2 f3 f4) (M3.ofMandel c [s 0, s 1, s 2, s 3]) (plane l0 l1 l2 l3 l4) (M3.ofMandel c (act (Gen.N2_DTAU_DF__C_TAU_JAUMANN_r c c3 fn (matOf (Gen.N2_C_TAU_JAUMANN__SPATIAL_MODULI_r c c3 fn D (tensv F0) (tensv (plane f0 f1 f2 f3 f4)) s)) (tensv F0) (tensv (plane f0 f1 f2 f3 f4)) s) (M3.tens2 ((plane l0 l1 l2 l3 l4) * (plane f0 f1 f2 f3 f4))))))\n      = upper (lamTau (plane f0 f1 f2 f3 f4) (M3.ofMandel c [s 0, s 1, s 2, s 3]) (plane l0 l1 l2 l3 l4) (M3.ofMandel c (act (Gen.N2_DTAU_DF__SPATIAL_MODULI_r c c3 fn D (tensv F0) (tensv (plane f0 f1 f2 f3 f4)) s) (M3.tens2 ((plane l0 l1 l2 l3 l4) * (plane f0 f1 f2 f3 f4)))))) := by\n  refine (PropsN2b.N2_DTAU_DF__C_TAU_JAUMANN c c3 fn hc h2 (hJ := hJ) ..).trans ?_\n  refine (PropsN2c.N2_C_TAU_JAUMANN__SPATIAL_MODULI c c3 fn hc h2 ..).trans ?_\n  exact (PropsN2Chains.N2_DTAU_DF__SPATIAL_MODULI c c3 fn hc h2 (hJ := hJ) ..).symm\n\n/-- conversions compose: `DTAU_DF ← ABAQUS ← SPATIAL_MODULI` acts as the direct `DTAU_DF ← SPATIAL_MODULI`, for every variation. -/\ntheorem N2_compose_DTAU_DF__ABAQUS__SPATIAL_MODULI (hc : c * c = 2) (h2 : (2:K) ≠ 0)\n    (D : Nat → Nat → K) (F0 : M3 K) (f0 f1 f2 f3 f4 : K) (l0 l1 l2 l3 l4 : K) (s : Nat → K) (hJ : (plane f0 f1 f2 f3 f4).det ≠ 0) :\n    upper (lamTau (plane f0 f1 f2 f3 f4) (M3.ofMandel c [s 0, s 1, s 2, s 3]) (plane l0 l1 l2 l3 l4) (M3.ofMandel c (act (Gen.N2_DTAU_DF__ABAQUS_r c c3 fn (matOf (Gen.N2_ABAQUS__SPATIAL_MODULI_r c c3 fn D (tensv F0) (tensv (plane f0 f1 f2 f3 f4)) s)) (tensv F0) (tensv (plane f0 f1 f2 f3 f4)) s) (M3.tens2 ((plane l0 l1 l2 l3 l4) * (plane f0 f1 f2 f3 f4))))))\n      = upper (lamTau (plane f0 f1 f2 f3 f4) (M3.ofMandel c [s 0, s 1, s 2, s 3]) (plane l0 l1 l2 l3 l4) (M3.ofMandel c (act (Gen.N2_DTAU_DF__SPATIAL_MODULI_r c c3 fn D (tensv F0) (tensv (plane f0 f1 f2 f3 f4)) s) (M3.tens2 ((plane l0 l1 l2 l3 l4) * (plane f0 f1 f2 f3 f4)))))) := by\n  refine (PropsN2a.N2_DTAU_DF__ABAQUS c c3 fn hc h2 (hJ := hJ) ..).trans ?_\n  refine (PropsN2d.N2_ABAQUS__SPATIAL_MODULI c c3 fn hc h2 (hJ := hJ) ..).trans ?_\n  exact (PropsN2Chains.N2_DTAU_DF__SPATIAL_MODULI c c3 fn hc h2 (hJ := hJ) ..).symm\n\n/-- conversions compose: `DTAU_DF ← ABAQUS ← C_TAU_JAUMANN` acts as the direct `DTAU_DF ← C_TAU_JAUMANN`, for every variation. -/\ntheorem N2_compose_DTAU_DF__ABAQUS__C_TAU_JAUMANN (hc : c * c = 2) (h2 : (2:K) ≠ 0)\n    (D : Nat → Nat → K) (F0 : M3 K) (f0 f1 f2 f3 f4 : K) (l0 l1 l2 l3 l4 : K) (s : Nat → K) (hJ : (plane f0 f1 f2 f3 f4).det ≠ 0) :\n    upper (lamTau (plane f0 f1 f2 f3 f4) (M3.ofMandel c [s 0, s 1, s 2, s 3]) (plane l0 l1 l2 l3 l4) (M3.ofMandel c (act (Gen.N2_DTAU_DF__ABAQUS_r c c3 fn (matOf (Gen.N2_ABAQUS__C_TAU_JAUMANN_r c c3 fn D (tensv F0) (tensv (plane f0 f1 f2 f3 f4)) s)) (tensv F0) (tensv (plane f0 f1 f2 f3 f4)) s) (M3.tens2 ((plane l0 l1 l2 l3 l4) * (plane f0 f1 f2 f3 f4))))))\n      = upper (lamTau (plane f0 f1 f2 f3 f4) (M3.ofMandel c [s 0, s 1, s 2, s 3]) (plane l0 l1 l2 l3 l4) (M3.ofMandel c (act (Gen.N2_DTAU_DF__C_TAU_JAUMANN_r c c3 fn D (tensv F0) (tensv (plane f0 f1 f2 f3 f4)) s) (M3.tens2 ((plane l0 l1 l2 l3 l4) * (plane f0 f1 f2 f3 f4)))))) := by\n  refine (PropsN2a.N2_DTAU_DF__ABAQUS c c3 fn hc h2 (hJ := hJ) ..).trans ?_\n  refine (PropsN2d.N2_ABAQUS__C_TAU_JAUMANN c c3 fn hc h2 (hJ := hJ) ..).trans ?_\n  exact (PropsN2b.N2_DTAU_DF__C_TAU_JAUMANN c c3 fn hc h2 (hJ := hJ) ..).symm\n\n/-- conversions compose: `DTAU_DF ← SPATIAL_MODULI ← ABAQUS` acts as the direct `DTAU_DF ← ABAQUS`, for every variation. -/\ntheorem N2_compose_DTAU_DF__SPATIAL_MODULI__ABAQUS (hc : c * c = 2) (h2 : (2:K) ≠ 0)\n    (D : Nat → Nat → K) (F0 : M3 K) (f0 f1 f2 f3 f4 : K) (l0 l1 l2 l3 l4 : K) (s : Nat → K) (hJ : (plane f0 f1 f2 f3 f4).det ≠ 0) :\n    upper (lamTau (plane f0 f1 f2 f3 f4) (M3.ofMandel c [s 0, s 1, s 2, s 3]) (plane l0 l1 l2 l3 l4) (M3.ofMandel c (act (Gen.N2_DTAU_DF__SPATIAL_MODULI_r c c3 fn (matOf (Gen.N2_SPATIAL_MODULI__ABAQUS_r c c3 fn D (tensv F0) (tensv (plane f0 f1 f2 f3 f4)) s)) (tensv F0) (tensv (plane f0 f1 f2 f3 f4)) s) (M3.tens2 ((plane l0 l1 l2 l3 l4) * (plane f0 f1 f2 f3 f4))))))\n      = upper (lamTau (plane f0 f1 f2 f3 f4) (M3.ofMandel c [s 0, s 1, s 2, s 3]) (plane l0 l1 l2 l3 l4) (M3.ofMandel c (act (Gen.N2_DTAU_DF__ABAQUS_r c c3 fn D (tensv F0) (tensv (plane f0 f1 f2 f3 f4)) s) (M3.tens2 ((plane l0 l1 l2 l3 l4) * (plane f0 f1 f2 f3 f4)))))) := by\n  refine (PropsN2Chains.N2_DTAU_DF__SPATIAL_MODULI c c3 fn hc h2 (hJ := hJ) ..).trans ?_\n  refine (PropsN2c.N2_SPATIAL_MODULI__ABAQUS c c3 fn hc h2 ..).trans ?_\n  exact (PropsN2a.N2_DTAU_DF__ABAQUS c c3 fn hc h2 (hJ := hJ) ..).symm\n\n/-- conversions compose: `DTAU_DF ← SPATIAL_MODULI ← C_TAU_JAUMANN` acts as the direct `DTAU_DF ← C_TAU_JAUMANN`, for every variation. -/\ntheorem N2_compose_DTAU_DF__SPATIAL_MODULI__C_TAU_JAUMANN (hc : c * c = 2) (h2 : (2:K) ≠ 0)\n    (D : Nat → Nat → K) (F0 : M3 K) (f0 f1 f2 f3 f4 : K) (l0 l1 l2 l3 l4 : K) (s : Nat → K) (hJ : (plane f0 f1 f2 f3 f4).det ≠ 0) :\n    upper (lamTau (plane f0 f1 f2 f3 f4) (M3.ofMandel c [s 0, s 1, s 2, s 3]) (plane l0 l1 l2 l3 l4) (M3.ofMandel c (act (Gen.N2_DTAU_DF__SPATIAL_MODULI_r c c3 fn (matOf (Gen.N2_SPATIAL_MODULI__C_TAU_JAUMANN_r c c3 fn D (tensv F0) (tensv (plane f0 f1 f2 f3 f4)) s)) (tensv F0) (tensv (plane f0 f1 f2 f3 f4)) s) (M3.tens2 ((plane l0 l1 l2 l3 l4) * (plane f0 f1 f2 f3 f4))))))\n      = upper (lamTau (plane f0 f1 f2 f3 f4) (M3.ofMandel c [s 0, s 1, s 2, s 3]) (plane l0 l1 l2 l3 l4) (M3.ofMandel c (act (Gen.N2_DTAU_DF__C_TAU_JAUMANN_r c c3 fn D (tensv F0) (tensv (plane f0 f1 f2 f3 f4)) s) (M3.tens2 ((plane l0 l1 l2 l3 l4) * (plane f0 f1 f2 f3 f4)))))) := by\n  refine (PropsN2Chains.N2_DTAU_DF__SPATIAL_MODULI c c3 fn hc h2 (hJ := hJ) ..).trans ?_\n  refine (PropsN2a.N2_SPATIAL_MODULI__C_TAU_JAUMANN c c3 fn hc h2 ..).trans ?_\n  exact (PropsN2b.N2_DTAU_DF__C_TAU_JAUMANN c c3 fn hc h2 (hJ := hJ) ..).symm\n\n/-- conversions compose: `DSIG_DF ← ABAQUS ← DS_DEGL` acts as the direct `DSIG_DF ← DS_DEGL`, for every variation. -/\ntheorem N2_compose_DSIG_DF__ABAQUS__DS_DEGL (hc : c * c = 2) (h2 : (2:K) ≠ 0)\n    (D : Nat → Nat → K) (F0 : M3 K) (f0 f1 f2 f3 f4 : K) (l0 l1 l2 l3 l4 : K) (s : Nat → K) (hJ : (plane f0 f1 f2 f3 f4).det ≠ 0) :\n    upper (lamSig (plane f0 f1 f2 f3 f4) (M3.ofMandel c [s 0, s 1, s 2, s 3]) (plane l0 l1 l2 l3 l4) (M3.ofMandel c (act (Gen.N2_DSIG_DF__ABAQUS_r c c3 fn (matOf (Gen.N2_ABAQUS__DS_DEGL_r c c3 fn D (tensv F0) (tensv (plane f0 f1 f2 f3 f4)) s)) (tensv F0) (tensv (plane f0 f1 f2 f3 f4)) s) (M3.tens2 ((plane l0 l1 l2 l3 l4) * (plane f0 f1 f2 f3 f4))))))\n      = upper (lamSig (plane f0 f1 f2 f3 f4) (M3.ofMandel c [s 0, s 1, s 2, s 3]) (plane l0 l1 l2 l3 l4) (M3.ofMandel c (act (Gen.N2_DSIG_DF__DS_DEGL_r c c3 fn D (tensv F0) (tensv (plane f0 f1 f2 f3 f4)) s) (M3.tens2 ((plane l0 l1 l2 l3 l4) * (plane f0 f1 f2 f3 f4)))))) := by\n  refine (PropsN2Chains.N2_DSIG_DF__ABAQUS c c3 fn hc h2 (hJ := hJ) ..).trans ?_\n  refine (PropsN2Chains.N2_ABAQUS__DS_DEGL c c3 fn hc h2 (hJ := hJ) ..).trans ?_\n  exact (PropsN2Chains.N2_DSIG_DF__DS_DEGL c c3 fn hc h2 (hJ := hJ) ..).symm\n\n/-- conversions compose: `DSIG_DF ← ABAQUS ← DTAU_DF` acts as the direct `DSIG_DF ← DTAU_DF`, for every variation. -/\ntheorem N2_compose_DSIG_DF__ABAQUS__DTAU_DF (hc : c * c = 2) (h2 : (2:K) ≠ 0)\n    (D : Nat → Nat → K) (F0 : M3 K) (f0 f1 f2 f3 f4 : K) (l0 l1 l2 l3 : K) (s : Nat → K) (hJ : (plane f0 f1 f2 f3 f4).det ≠ 0) :\n    upper (lamSig (plane f0 f1 f2 f3 f4) (M3.ofMandel c [s 0, s 1, s 2, s 3]) (plane l0 l1 l2 l3 l3) (M3.ofMandel c (act (Gen.N2_DSIG_DF__ABAQUS_r c c3 fn (matOf (Gen.N2_ABAQUS__DTAU_DF_r c c3 fn D (tensv F0) (tensv (plane f0 f1 f2 f3 f4)) s)) (tensv F0) (tensv (plane f0 f1 f2 f3 f4)) s) (M3.tens2 ((plane l0 l1 l2 l3 l3) * (plane f0 f1 f2 f3 f4))))))\n      = upper (lamSig (plane f0 f1 f2 f3 f4) (M3.ofMandel c [s 0, s 1, s 2, s 3]) (plane l0 l1 l2 l3 l3) (M3.ofMandel c (act (Gen.N2_DSIG_DF__DTAU_DF_r c c3 fn D (tensv F0) (tensv (plane f0 f1 f2 f3 f4)) s) (M3.tens2 ((plane l0 l1 l2 l3 l3) * (plane f0 f1 f2 f3 f4)))))) := by\n  refine (PropsN2Chains.N2_DSIG_DF__ABAQUS c c3 fn hc h2 (hJ := hJ) ..).trans ?_\n  refine (PropsN2c.N2_ABAQUS__DTAU_DF c c3 fn hc h2 (hJ := hJ) ..).trans ?_\n  exact (PropsN2c.N2_DSIG_DF__DTAU_DF c c3 fn hc h2 (hJ := hJ) ..).symm\n\nend TfelVerif.C23.PropsCompose2\n
+/-- round trip `DS_DC → DS_DEGL → DS_DC`: converting back gives an operator with the same action (hence the same
+meaning) as the one started from, for every variation. -/
+theorem N2_roundtrip_DS_DC__DS_DEGL (hc : c * c = 2) (h2 : (2:K) ≠ 0)
+    (D : Nat → Nat → K) (F0 : M3 K) (f0 f1 f2 f3 f4 : K) (l0 l1 l2 l3 l4 : K) (s : Nat → K)  :
+    upper (lamS (plane f0 f1 f2 f3 f4) (M3.ofMandel c [s 0, s 1, s 2, s 3]) (plane l0 l1 l2 l3 l4) (M3.ofMandel c (act (Gen.N2_DS_DC__DS_DEGL_r c c3 fn (matOf (Gen.N2_DS_DEGL__DS_DC_r c c3 fn D (tensv F0) (tensv (plane f0 f1 f2 f3 f4)) s)) (tensv F0) (tensv (plane f0 f1 f2 f3 f4)) s) (M3.mandel2 c (dC (plane f0 f1 f2 f3 f4) (plane l0 l1 l2 l3 l4))))))
+      = upper (lamS (plane f0 f1 f2 f3 f4) (M3.ofMandel c [s 0, s 1, s 2, s 3]) (plane l0 l1 l2 l3 l4) (M3.ofMandel c (act (rowsOf D i4 i4) (M3.mandel2 c (dC (plane f0 f1 f2 f3 f4) (plane l0 l1 l2 l3 l4)))))) := by
+  refine (PropsN2d.N2_DS_DC__DS_DEGL c c3 fn hc h2 ..).trans ?_
+  exact PropsN2b.N2_DS_DEGL__DS_DC c c3 fn hc h2 ..
+
+/-- round trip `DS_DEGL → DS_DC → DS_DEGL`: converting back gives an operator with the same action (hence the same
+meaning) as the one started from, for every variation. -/
+theorem N2_roundtrip_DS_DEGL__DS_DC (hc : c * c = 2) (h2 : (2:K) ≠ 0)
+    (D : Nat → Nat → K) (F0 : M3 K) (f0 f1 f2 f3 f4 : K) (l0 l1 l2 l3 l4 : K) (s : Nat → K)  :
+    upper (lamS (plane f0 f1 f2 f3 f4) (M3.ofMandel c [s 0, s 1, s 2, s 3]) (plane l0 l1 l2 l3 l4) (M3.ofMandel c (act (Gen.N2_DS_DEGL__DS_DC_r c c3 fn (matOf (Gen.N2_DS_DC__DS_DEGL_r c c3 fn D (tensv F0) (tensv (plane f0 f1 f2 f3 f4)) s)) (tensv F0) (tensv (plane f0 f1 f2 f3 f4)) s) (M3.mandel2 c (dE (plane f0 f1 f2 f3 f4) (plane l0 l1 l2 l3 l4))))))
+      = upper (lamS (plane f0 f1 f2 f3 f4) (M3.ofMandel c [s 0, s 1, s 2, s 3]) (plane l0 l1 l2 l3 l4) (M3.ofMandel c (act (rowsOf D i4 i4) (M3.mandel2 c (dE (plane f0 f1 f2 f3 f4) (plane l0 l1 l2 l3 l4)))))) := by
+  refine (PropsN2b.N2_DS_DEGL__DS_DC c c3 fn hc h2 ..).trans ?_
+  exact PropsN2d.N2_DS_DC__DS_DEGL c c3 fn hc h2 ..
+
+/-- round trip `SPATIAL_MODULI → DS_DEGL → SPATIAL_MODULI`: converting back gives an operator with the same action (hence the same
+meaning) as the one started from, for every variation. -/
+theorem N2_roundtrip_SPATIAL_MODULI__DS_DEGL (hc : c * c = 2) (h2 : (2:K) ≠ 0)
+    (D : Nat → Nat → K) (F0 : M3 K) (f0 f1 f2 f3 f4 : K) (l0 l1 l2 l3 l4 : K) (s : Nat → K) (hJ : (plane f0 f1 f2 f3 f4).det ≠ 0) :
+    upper (lamSM (plane f0 f1 f2 f3 f4) (M3.ofMandel c [s 0, s 1, s 2, s 3]) (plane l0 l1 l2 l3 l4) (M3.ofMandel c (act (Gen.N2_SPATIAL_MODULI__DS_DEGL_r c c3 fn (matOf (Gen.N2_DS_DEGL__SPATIAL_MODULI_r c c3 fn D (tensv F0) (tensv (plane f0 f1 f2 f3 f4)) s)) (tensv F0) (tensv (plane f0 f1 f2 f3 f4)) s) (M3.mandel2 c (symm (plane l0 l1 l2 l3 l4))))))
+      = upper (lamSM (plane f0 f1 f2 f3 f4) (M3.ofMandel c [s 0, s 1, s 2, s 3]) (plane l0 l1 l2 l3 l4) (M3.ofMandel c (act (rowsOf D i4 i4) (M3.mandel2 c (symm (plane l0 l1 l2 l3 l4)))))) := by
+  refine (PropsN2d.N2_SPATIAL_MODULI__DS_DEGL c c3 fn hc h2 ..).trans ?_
+  exact PropsN2Chains.N2_DS_DEGL__SPATIAL_MODULI c c3 fn hc h2 (hJ := hJ) ..
+
+/-- round trip `DS_DEGL → SPATIAL_MODULI → DS_DEGL`: converting back gives an operator with the same action (hence the same
+meaning) as the one started from, for every variation. -/
+theorem N2_roundtrip_DS_DEGL__SPATIAL_MODULI (hc : c * c = 2) (h2 : (2:K) ≠ 0)
+    (D : Nat → Nat → K) (F0 : M3 K) (f0 f1 f2 f3 f4 : K) (l0 l1 l2 l3 l4 : K) (s : Nat → K) (hJ : (plane f0 f1 f2 f3 f4).det ≠ 0) :
+    upper (lamS (plane f0 f1 f2 f3 f4) (M3.ofMandel c [s 0, s 1, s 2, s 3]) (plane l0 l1 l2 l3 l4) (M3.ofMandel c (act (Gen.N2_DS_DEGL__SPATIAL_MODULI_r c c3 fn (matOf (Gen.N2_SPATIAL_MODULI__DS_DEGL_r c c3 fn D (tensv F0) (tensv (plane f0 f1 f2 f3 f4)) s)) (tensv F0) (tensv (plane f0 f1 f2 f3 f4)) s) (M3.mandel2 c (dE (plane f0 f1 f2 f3 f4) (plane l0 l1 l2 l3 l4))))))
+      = upper (lamS (plane f0 f1 f2 f3 f4) (M3.ofMandel c [s 0, s 1, s 2, s 3]) (plane l0 l1 l2 l3 l4) (M3.ofMandel c (act (rowsOf D i4 i4) (M3.mandel2 c (dE (plane f0 f1 f2 f3 f4) (plane l0 l1 l2 l3 l4)))))) := by
+  refine (PropsN2Chains.N2_DS_DEGL__SPATIAL_MODULI c c3 fn hc h2 (hJ := hJ) ..).trans ?_
+  exact PropsN2d.N2_SPATIAL_MODULI__DS_DEGL c c3 fn hc h2 ..
+
+/-- round trip `ABAQUS → SPATIAL_MODULI → ABAQUS`: converting back gives an operator with the same action (hence the same
+meaning) as the one started from, for every variation. -/
+theorem N2_roundtrip_ABAQUS__SPATIAL_MODULI (hc : c * c = 2) (h2 : (2:K) ≠ 0)
+    (D : Nat → Nat → K) (F0 : M3 K) (f0 f1 f2 f3 f4 : K) (l0 l1 l2 l3 l4 : K) (s : Nat → K) (hJ : (plane f0 f1 f2 f3 f4).det ≠ 0) :
+    upper (lamAb (plane f0 f1 f2 f3 f4) (M3.ofMandel c [s 0, s 1, s 2, s 3]) (plane l0 l1 l2 l3 l4) (M3.ofMandel c (act (Gen.N2_ABAQUS__SPATIAL_MODULI_r c c3 fn (matOf (Gen.N2_SPATIAL_MODULI__ABAQUS_r c c3 fn D (tensv F0) (tensv (plane f0 f1 f2 f3 f4)) s)) (tensv F0) (tensv (plane f0 f1 f2 f3 f4)) s) (M3.mandel2 c (symm (plane l0 l1 l2 l3 l4))))))
+      = upper (lamAb (plane f0 f1 f2 f3 f4) (M3.ofMandel c [s 0, s 1, s 2, s 3]) (plane l0 l1 l2 l3 l4) (M3.ofMandel c (act (rowsOf D i4 i4) (M3.mandel2 c (symm (plane l0 l1 l2 l3 l4)))))) := by
+  refine (PropsN2d.N2_ABAQUS__SPATIAL_MODULI c c3 fn hc h2 (hJ := hJ) ..).trans ?_
+  exact PropsN2c.N2_SPATIAL_MODULI__ABAQUS c c3 fn hc h2 ..
+
+/-- round trip `SPATIAL_MODULI → ABAQUS → SPATIAL_MODULI`: converting back gives an operator with the same action (hence the same
+meaning) as the one started from, for every variation. -/
+theorem N2_roundtrip_SPATIAL_MODULI__ABAQUS (hc : c * c = 2) (h2 : (2:K) ≠ 0)
+    (D : Nat → Nat → K) (F0 : M3 K) (f0 f1 f2 f3 f4 : K) (l0 l1 l2 l3 l4 : K) (s : Nat → K) (hJ : (plane f0 f1 f2 f3 f4).det ≠ 0) :
+    upper (lamSM (plane f0 f1 f2 f3 f4) (M3.ofMandel c [s 0, s 1, s 2, s 3]) (plane l0 l1 l2 l3 l4) (M3.ofMandel c (act (Gen.N2_SPATIAL_MODULI__ABAQUS_r c c3 fn (matOf (Gen.N2_ABAQUS__SPATIAL_MODULI_r c c3 fn D (tensv F0) (tensv (plane f0 f1 f2 f3 f4)) s)) (tensv F0) (tensv (plane f0 f1 f2 f3 f4)) s) (M3.mandel2 c (symm (plane l0 l1 l2 l3 l4))))))
+      = upper (lamSM (plane f0 f1 f2 f3 f4) (M3.ofMandel c [s 0, s 1, s 2, s 3]) (plane l0 l1 l2 l3 l4) (M3.ofMandel c (act (rowsOf D i4 i4) (M3.mandel2 c (symm (plane l0 l1 l2 l3 l4)))))) := by
+  refine (PropsN2c.N2_SPATIAL_MODULI__ABAQUS c c3 fn hc h2 ..).trans ?_
+  exact PropsN2d.N2_ABAQUS__SPATIAL_MODULI c c3 fn hc h2 (hJ := hJ) ..
+
+/-- round trip `C_TRUESDELL → SPATIAL_MODULI → C_TRUESDELL`: converting back gives an operator with the same action (hence the same
+meaning) as the one started from, for every variation. -/
+theorem N2_roundtrip_C_TRUESDELL__SPATIAL_MODULI (hc : c * c = 2) (h2 : (2:K) ≠ 0)
+    (D : Nat → Nat → K) (F0 : M3 K) (f0 f1 f2 f3 f4 : K) (l0 l1 l2 l3 l4 : K) (s : Nat → K) (hJ : (plane f0 f1 f2 f3 f4).det ≠ 0) :
+    upper (lamTr (plane f0 f1 f2 f3 f4) (M3.ofMandel c [s 0, s 1, s 2, s 3]) (plane l0 l1 l2 l3 l4) (M3.ofMandel c (act (Gen.N2_C_TRUESDELL__SPATIAL_MODULI_r c c3 fn (matOf (Gen.N2_SPATIAL_MODULI__C_TRUESDELL_r c c3 fn D (tensv F0) (tensv (plane f0 f1 f2 f3 f4)) s)) (tensv F0) (tensv (plane f0 f1 f2 f3 f4)) s) (M3.mandel2 c (symm (plane l0 l1 l2 l3 l4))))))
+      = upper (lamTr (plane f0 f1 f2 f3 f4) (M3.ofMandel c [s 0, s 1, s 2, s 3]) (plane l0 l1 l2 l3 l4) (M3.ofMandel c (act (rowsOf D i4 i4) (M3.mandel2 c (symm (plane l0 l1 l2 l3 l4)))))) := by
+  refine (PropsN2a.N2_C_TRUESDELL__SPATIAL_MODULI c c3 fn hc h2 (hJ := hJ) ..).trans ?_
+  exact PropsN2c.N2_SPATIAL_MODULI__C_TRUESDELL c c3 fn hc h2 ..
+
+/-- round trip `SPATIAL_MODULI → C_TRUESDELL → SPATIAL_MODULI`: converting back gives an operator with the same action (hence the same
+meaning) as the one started from, for every variation. -/
+theorem N2_roundtrip_SPATIAL_MODULI__C_TRUESDELL (hc : c * c = 2) (h2 : (2:K) ≠ 0)
+    (D : Nat → Nat → K) (F0 : M3 K) (f0 f1 f2 f3 f4 : K) (l0 l1 l2 l3 l4 : K) (s : Nat → K) (hJ : (plane f0 f1 f2 f3 f4).det ≠ 0) :
+    upper (lamSM (plane f0 f1 f2 f3 f4) (M3.ofMandel c [s 0, s 1, s 2, s 3]) (plane l0 l1 l2 l3 l4) (M3.ofMandel c (act (Gen.N2_SPATIAL_MODULI__C_TRUESDELL_r c c3 fn (matOf (Gen.N2_C_TRUESDELL__SPATIAL_MODULI_r c c3 fn D (tensv F0) (tensv (plane f0 f1 f2 f3 f4)) s)) (tensv F0) (tensv (plane f0 f1 f2 f3 f4)) s) (M3.mandel2 c (symm (plane l0 l1 l2 l3 l4))))))
+      = upper (lamSM (plane f0 f1 f2 f3 f4) (M3.ofMandel c [s 0, s 1, s 2, s 3]) (plane l0 l1 l2 l3 l4) (M3.ofMandel c (act (rowsOf D i4 i4) (M3.mandel2 c (symm (plane l0 l1 l2 l3 l4)))))) := by
+  refine (PropsN2c.N2_SPATIAL_MODULI__C_TRUESDELL c c3 fn hc h2 ..).trans ?_
+  exact PropsN2a.N2_C_TRUESDELL__SPATIAL_MODULI c c3 fn hc h2 (hJ := hJ) ..
+
+/-- round trip `DSIG_DDF → DSIG_DF → DSIG_DDF`: converting back gives an operator with the same action (hence the same
+meaning) as the one started from, for every variation. -/
+theorem N2_roundtrip_DSIG_DDF__DSIG_DF (hc : c * c = 2) (h2 : (2:K) ≠ 0)
+    (D : Nat → Nat → K) (g0 g1 g2 g3 g4 d0 d1 d2 d3 d4 : K) (l0 l1 l2 l3 l4 : K) (s : Nat → K) (hJ : (plane g0 g1 g2 g3 g4).det ≠ 0) :
+    upper (lamSig ((plane d0 d1 d2 d3 d4) * (plane g0 g1 g2 g3 g4)) (M3.ofMandel c [s 0, s 1, s 2, s 3]) (plane l0 l1 l2 l3 l4) (M3.ofMandel c (act (Gen.N2_DSIG_DDF__DSIG_DF_r c c3 fn (matOf (Gen.N2_DSIG_DF__DSIG_DDF_r c c3 fn D (tensv (plane g0 g1 g2 g3 g4)) (tensv ((plane d0 d1 d2 d3 d4) * (plane g0 g1 g2 g3 g4))) s)) (tensv (plane g0 g1 g2 g3 g4)) (tensv ((plane d0 d1 d2 d3 d4) * (plane g0 g1 g2 g3 g4))) s) (M3.tens2 ((plane l0 l1 l2 l3 l4) * (plane d0 d1 d2 d3 d4))))))
+      = upper (lamSig ((plane d0 d1 d2 d3 d4) * (plane g0 g1 g2 g3 g4)) (M3.ofMandel c [s 0, s 1, s 2, s 3]) (plane l0 l1 l2 l3 l4) (M3.ofMandel c (act (rowsOf D i4 i5) (M3.tens2 ((plane l0 l1 l2 l3 l4) * (plane d0 d1 d2 d3 d4)))))) := by
+  refine (PropsN2d.N2_DSIG_DDF__DSIG_DF c c3 fn hc h2 ..).trans ?_
+  exact PropsN2b.N2_DSIG_DF__DSIG_DDF c c3 fn hc h2 (hJ := hJ) ..
+
+/-- round trip `DSIG_DF → DSIG_DDF → DSIG_DF`: converting back gives an operator with the same action (hence the same
+meaning) as the one started from, for every variation. -/
+theorem N2_roundtrip_DSIG_DF__DSIG_DDF (hc : c * c = 2) (h2 : (2:K) ≠ 0)
+    (D : Nat → Nat → K) (g0 g1 g2 g3 g4 d0 d1 d2 d3 d4 : K) (l0 l1 l2 l3 l4 : K) (s : Nat → K) (hJ : (plane g0 g1 g2 g3 g4).det ≠ 0) :
+    upper (lamSig ((plane d0 d1 d2 d3 d4) * (plane g0 g1 g2 g3 g4)) (M3.ofMandel c [s 0, s 1, s 2, s 3]) (plane l0 l1 l2 l3 l4) (M3.ofMandel c (act (Gen.N2_DSIG_DF__DSIG_DDF_r c c3 fn (matOf (Gen.N2_DSIG_DDF__DSIG_DF_r c c3 fn D (tensv (plane g0 g1 g2 g3 g4)) (tensv ((plane d0 d1 d2 d3 d4) * (plane g0 g1 g2 g3 g4))) s)) (tensv (plane g0 g1 g2 g3 g4)) (tensv ((plane d0 d1 d2 d3 d4) * (plane g0 g1 g2 g3 g4))) s) (M3.tens2 ((plane l0 l1 l2 l3 l4) * ((plane d0 d1 d2 d3 d4) * (plane g0 g1 g2 g3 g4)))))))
+      = upper (lamSig ((plane d0 d1 d2 d3 d4) * (plane g0 g1 g2 g3 g4)) (M3.ofMandel c [s 0, s 1, s 2, s 3]) (plane l0 l1 l2 l3 l4) (M3.ofMandel c (act (rowsOf D i4 i5) (M3.tens2 ((plane l0 l1 l2 l3 l4) * ((plane d0 d1 d2 d3 d4) * (plane g0 g1 g2 g3 g4))))))) := by
+  refine (PropsN2b.N2_DSIG_DF__DSIG_DDF c c3 fn hc h2 (hJ := hJ) ..).trans ?_
+  exact PropsN2d.N2_DSIG_DDF__DSIG_DF c c3 fn hc h2 ..
+
+/-- round trip `DTAU_DDF → DTAU_DF → DTAU_DDF`: converting back gives an operator with the same action (hence the same
+meaning) as the one started from, for every variation. -/
+theorem N2_roundtrip_DTAU_DDF__DTAU_DF (hc : c * c = 2) (h2 : (2:K) ≠ 0)
+    (D : Nat → Nat → K) (g0 g1 g2 g3 g4 d0 d1 d2 d3 d4 : K) (l0 l1 l2 l3 l4 : K) (s : Nat → K) (hJ : (plane g0 g1 g2 g3 g4).det ≠ 0) :
+    upper (lamTau ((plane d0 d1 d2 d3 d4) * (plane g0 g1 g2 g3 g4)) (M3.ofMandel c [s 0, s 1, s 2, s 3]) (plane l0 l1 l2 l3 l4) (M3.ofMandel c (act (Gen.N2_DTAU_DDF__DTAU_DF_r c c3 fn (matOf (Gen.N2_DTAU_DF__DTAU_DDF_r c c3 fn D (tensv (plane g0 g1 g2 g3 g4)) (tensv ((plane d0 d1 d2 d3 d4) * (plane g0 g1 g2 g3 g4))) s)) (tensv (plane g0 g1 g2 g3 g4)) (tensv ((plane d0 d1 d2 d3 d4) * (plane g0 g1 g2 g3 g4))) s) (M3.tens2 ((plane l0 l1 l2 l3 l4) * (plane d0 d1 d2 d3 d4))))))
+      = upper (lamTau ((plane d0 d1 d2 d3 d4) * (plane g0 g1 g2 g3 g4)) (M3.ofMandel c [s 0, s 1, s 2, s 3]) (plane l0 l1 l2 l3 l4) (M3.ofMandel c (act (rowsOf D i4 i5) (M3.tens2 ((plane l0 l1 l2 l3 l4) * (plane d0 d1 d2 d3 d4)))))) := by
+  refine (PropsN2b.N2_DTAU_DDF__DTAU_DF c c3 fn hc h2 ..).trans ?_
+  exact PropsN2a.N2_DTAU_DF__DTAU_DDF c c3 fn hc h2 (hJ := hJ) ..
+
+/-- round trip `DTAU_DF → DTAU_DDF → DTAU_DF`: converting back gives an operator with the same action (hence the same
+meaning) as the one started from, for every variation. -/
+theorem N2_roundtrip_DTAU_DF__DTAU_DDF (hc : c * c = 2) (h2 : (2:K) ≠ 0)
+    (D : Nat → Nat → K) (g0 g1 g2 g3 g4 d0 d1 d2 d3 d4 : K) (l0 l1 l2 l3 l4 : K) (s : Nat → K) (hJ : (plane g0 g1 g2 g3 g4).det ≠ 0) :
+    upper (lamTau ((plane d0 d1 d2 d3 d4) * (plane g0 g1 g2 g3 g4)) (M3.ofMandel c [s 0, s 1, s 2, s 3]) (plane l0 l1 l2 l3 l4) (M3.ofMandel c (act (Gen.N2_DTAU_DF__DTAU_DDF_r c c3 fn (matOf (Gen.N2_DTAU_DDF__DTAU_DF_r c c3 fn D (tensv (plane g0 g1 g2 g3 g4)) (tensv ((plane d0 d1 d2 d3 d4) * (plane g0 g1 g2 g3 g4))) s)) (tensv (plane g0 g1 g2 g3 g4)) (tensv ((plane d0 d1 d2 d3 d4) * (plane g0 g1 g2 g3 g4))) s) (M3.tens2 ((plane l0 l1 l2 l3 l4) * ((plane d0 d1 d2 d3 d4) * (plane g0 g1 g2 g3 g4)))))))
+      = upper (lamTau ((plane d0 d1 d2 d3 d4) * (plane g0 g1 g2 g3 g4)) (M3.ofMandel c [s 0, s 1, s 2, s 3]) (plane l0 l1 l2 l3 l4) (M3.ofMandel c (act (rowsOf D i4 i5) (M3.tens2 ((plane l0 l1 l2 l3 l4) * ((plane d0 d1 d2 d3 d4) * (plane g0 g1 g2 g3 g4))))))) := by
+  refine (PropsN2a.N2_DTAU_DF__DTAU_DDF c c3 fn hc h2 (hJ := hJ) ..).trans ?_
+  exact PropsN2b.N2_DTAU_DDF__DTAU_DF c c3 fn hc h2 ..
+
+/-- round trip `SPATIAL_MODULI → DTAU_DF → SPATIAL_MODULI`: converting back gives an operator with the same action (hence the same
+meaning) as the one started from, for every variation. -/
+theorem N2_roundtrip_SPATIAL_MODULI__DTAU_DF (hc : c * c = 2) (h2 : (2:K) ≠ 0)
+    (D : Nat → Nat → K) (F0 : M3 K) (f0 f1 f2 f3 f4 : K) (l0 l1 l2 l3 : K) (s : Nat → K) (hJ : (plane f0 f1 f2 f3 f4).det ≠ 0) :
+    upper (lamSM (plane f0 f1 f2 f3 f4) (M3.ofMandel c [s 0, s 1, s 2, s 3]) (plane l0 l1 l2 l3 l3) (M3.ofMandel c (act (Gen.N2_SPATIAL_MODULI__DTAU_DF_r c c3 fn (matOf (Gen.N2_DTAU_DF__SPATIAL_MODULI_r c c3 fn D (tensv F0) (tensv (plane f0 f1 f2 f3 f4)) s)) (tensv F0) (tensv (plane f0 f1 f2 f3 f4)) s) (M3.mandel2 c (symm (plane l0 l1 l2 l3 l3))))))
+      = upper (lamSM (plane f0 f1 f2 f3 f4) (M3.ofMandel c [s 0, s 1, s 2, s 3]) (plane l0 l1 l2 l3 l3) (M3.ofMandel c (act (rowsOf D i4 i4) (M3.mandel2 c (symm (plane l0 l1 l2 l3 l3)))))) := by
+  refine (PropsN2Chains.N2_SPATIAL_MODULI__DTAU_DF c c3 fn hc h2 ..).trans ?_
+  exact PropsN2Chains.N2_DTAU_DF__SPATIAL_MODULI c c3 fn hc h2 (hJ := hJ) ..
+
+/-- round trip `C_TAU_JAUMANN → DTAU_DF → C_TAU_JAUMANN`: converting back gives an operator with the same action (hence the same
+meaning) as the one started from, for every variation. -/
+theorem N2_roundtrip_C_TAU_JAUMANN__DTAU_DF (hc : c * c = 2) (h2 : (2:K) ≠ 0)
+    (D : Nat → Nat → K) (F0 : M3 K) (f0 f1 f2 f3 f4 : K) (l0 l1 l2 l3 : K) (s : Nat → K) (hJ : (plane f0 f1 f2 f3 f4).det ≠ 0) :
+    upper (lamJ (plane f0 f1 f2 f3 f4) (M3.ofMandel c [s 0, s 1, s 2, s 3]) (plane l0 l1 l2 l3 l3) (M3.ofMandel c (act (Gen.N2_C_TAU_JAUMANN__DTAU_DF_r c c3 fn (matOf (Gen.N2_DTAU_DF__C_TAU_JAUMANN_r c c3 fn D (tensv F0) (tensv (plane f0 f1 f2 f3 f4)) s)) (tensv F0) (tensv (plane f0 f1 f2 f3 f4)) s) (M3.mandel2 c (symm (plane l0 l1 l2 l3 l3))))))
+      = upper (lamJ (plane f0 f1 f2 f3 f4) (M3.ofMandel c [s 0, s 1, s 2, s 3]) (plane l0 l1 l2 l3 l3) (M3.ofMandel c (act (rowsOf D i4 i4) (M3.mandel2 c (symm (plane l0 l1 l2 l3 l3)))))) := by
+  refine (PropsN2d.N2_C_TAU_JAUMANN__DTAU_DF c c3 fn hc h2 ..).trans ?_
+  exact PropsN2b.N2_DTAU_DF__C_TAU_JAUMANN c c3 fn hc h2 (hJ := hJ) ..
+
+/-- round trip `ABAQUS → C_TAU_JAUMANN → ABAQUS`: converting back gives an operator with the same action (hence the same
+meaning) as the one started from, for every variation. -/
+theorem N2_roundtrip_ABAQUS__C_TAU_JAUMANN (hc : c * c = 2) (h2 : (2:K) ≠ 0)
+    (D : Nat → Nat → K) (F0 : M3 K) (f0 f1 f2 f3 f4 : K) (l0 l1 l2 l3 l4 : K) (s : Nat → K) (hJ : (plane f0 f1 f2 f3 f4).det ≠ 0) :
+    upper (lamAb (plane f0 f1 f2 f3 f4) (M3.ofMandel c [s 0, s 1, s 2, s 3]) (plane l0 l1 l2 l3 l4) (M3.ofMandel c (act (Gen.N2_ABAQUS__C_TAU_JAUMANN_r c c3 fn (matOf (Gen.N2_C_TAU_JAUMANN__ABAQUS_r c c3 fn D (tensv F0) (tensv (plane f0 f1 f2 f3 f4)) s)) (tensv F0) (tensv (plane f0 f1 f2 f3 f4)) s) (M3.mandel2 c (symm (plane l0 l1 l2 l3 l4))))))
+      = upper (lamAb (plane f0 f1 f2 f3 f4) (M3.ofMandel c [s 0, s 1, s 2, s 3]) (plane l0 l1 l2 l3 l4) (M3.ofMandel c (act (rowsOf D i4 i4) (M3.mandel2 c (symm (plane l0 l1 l2 l3 l4)))))) := by
+  refine (PropsN2d.N2_ABAQUS__C_TAU_JAUMANN c c3 fn hc h2 (hJ := hJ) ..).trans ?_
+  exact PropsN2b.N2_C_TAU_JAUMANN__ABAQUS c c3 fn hc h2 ..
+
+/-- round trip `C_TAU_JAUMANN → ABAQUS → C_TAU_JAUMANN`: converting back gives an operator with the same action (hence the same
+meaning) as the one started from, for every variation. -/
+theorem N2_roundtrip_C_TAU_JAUMANN__ABAQUS (hc : c * c = 2) (h2 : (2:K) ≠ 0)
+    (D : Nat → Nat → K) (F0 : M3 K) (f0 f1 f2 f3 f4 : K) (l0 l1 l2 l3 l4 : K) (s : Nat → K) (hJ : (plane f0 f1 f2 f3 f4).det ≠ 0) :
+    upper (lamJ (plane f0 f1 f2 f3 f4) (M3.ofMandel c [s 0, s 1, s 2, s 3]) (plane l0 l1 l2 l3 l4) (M3.ofMandel c (act (Gen.N2_C_TAU_JAUMANN__ABAQUS_r c c3 fn (matOf (Gen.N2_ABAQUS__C_TAU_JAUMANN_r c c3 fn D (tensv F0) (tensv (plane f0 f1 f2 f3 f4)) s)) (tensv F0) (tensv (plane f0 f1 f2 f3 f4)) s) (M3.mandel2 c (symm (plane l0 l1 l2 l3 l4))))))
+      = upper (lamJ (plane f0 f1 f2 f3 f4) (M3.ofMandel c [s 0, s 1, s 2, s 3]) (plane l0 l1 l2 l3 l4) (M3.ofMandel c (act (rowsOf D i4 i4) (M3.mandel2 c (symm (plane l0 l1 l2 l3 l4)))))) := by
+  refine (PropsN2b.N2_C_TAU_JAUMANN__ABAQUS c c3 fn hc h2 ..).trans ?_
+  exact PropsN2d.N2_ABAQUS__C_TAU_JAUMANN c c3 fn hc h2 (hJ := hJ) ..
+
+/-- round trip `C_TAU_JAUMANN → SPATIAL_MODULI → C_TAU_JAUMANN`: converting back gives an operator with the same action (hence the same
+meaning) as the one started from, for every variation. -/
+theorem N2_roundtrip_C_TAU_JAUMANN__SPATIAL_MODULI (hc : c * c = 2) (h2 : (2:K) ≠ 0)
+    (D : Nat → Nat → K) (F0 : M3 K) (f0 f1 f2 f3 f4 : K) (l0 l1 l2 l3 l4 : K) (s : Nat → K)  :
+    upper (lamJ (plane f0 f1 f2 f3 f4) (M3.ofMandel c [s 0, s 1, s 2, s 3]) (plane l0 l1 l2 l3 l4) (M3.ofMandel c (act (Gen.N2_C_TAU_JAUMANN__SPATIAL_MODULI_r c c3 fn (matOf (Gen.N2_SPATIAL_MODULI__C_TAU_JAUMANN_r c c3 fn D (tensv F0) (tensv (plane f0 f1 f2 f3 f4)) s)) (tensv F0) (tensv (plane f0 f1 f2 f3 f4)) s) (M3.mandel2 c (symm (plane l0 l1 l2 l3 l4))))))
+      = upper (lamJ (plane f0 f1 f2 f3 f4) (M3.ofMandel c [s 0, s 1, s 2, s 3]) (plane l0 l1 l2 l3 l4) (M3.ofMandel c (act (rowsOf D i4 i4) (M3.mandel2 c (symm (plane l0 l1 l2 l3 l4)))))) := by
+  refine (PropsN2c.N2_C_TAU_JAUMANN__SPATIAL_MODULI c c3 fn hc h2 ..).trans ?_
+  exact PropsN2a.N2_SPATIAL_MODULI__C_TAU_JAUMANN c c3 fn hc h2 ..
+
+/-- round trip `SPATIAL_MODULI → C_TAU_JAUMANN → SPATIAL_MODULI`: converting back gives an operator with the same action (hence the same
+meaning) as the one started from, for every variation. -/
+theorem N2_roundtrip_SPATIAL_MODULI__C_TAU_JAUMANN (hc : c * c = 2) (h2 : (2:K) ≠ 0)
+    (D : Nat → Nat → K) (F0 : M3 K) (f0 f1 f2 f3 f4 : K) (l0 l1 l2 l3 l4 : K) (s : Nat → K)  :
+    upper (lamSM (plane f0 f1 f2 f3 f4) (M3.ofMandel c [s 0, s 1, s 2, s 3]) (plane l0 l1 l2 l3 l4) (M3.ofMandel c (act (Gen.N2_SPATIAL_MODULI__C_TAU_JAUMANN_r c c3 fn (matOf (Gen.N2_C_TAU_JAUMANN__SPATIAL_MODULI_r c c3 fn D (tensv F0) (tensv (plane f0 f1 f2 f3 f4)) s)) (tensv F0) (tensv (plane f0 f1 f2 f3 f4)) s) (M3.mandel2 c (symm (plane l0 l1 l2 l3 l4))))))
+      = upper (lamSM (plane f0 f1 f2 f3 f4) (M3.ofMandel c [s 0, s 1, s 2, s 3]) (plane l0 l1 l2 l3 l4) (M3.ofMandel c (act (rowsOf D i4 i4) (M3.mandel2 c (symm (plane l0 l1 l2 l3 l4)))))) := by
+  refine (PropsN2a.N2_SPATIAL_MODULI__C_TAU_JAUMANN c c3 fn hc h2 ..).trans ?_
+  exact PropsN2c.N2_C_TAU_JAUMANN__SPATIAL_MODULI c c3 fn hc h2 ..
+
+/-- round trip `ABAQUS → DTAU_DF → ABAQUS`: converting back gives an operator with the same action (hence the same
+meaning) as the one started from, for every variation. -/
+theorem N2_roundtrip_ABAQUS__DTAU_DF (hc : c * c = 2) (h2 : (2:K) ≠ 0)
+    (D : Nat → Nat → K) (F0 : M3 K) (f0 f1 f2 f3 f4 : K) (l0 l1 l2 l3 : K) (s : Nat → K) (hJ : (plane f0 f1 f2 f3 f4).det ≠ 0) :
+    upper (lamAb (plane f0 f1 f2 f3 f4) (M3.ofMandel c [s 0, s 1, s 2, s 3]) (plane l0 l1 l2 l3 l3) (M3.ofMandel c (act (Gen.N2_ABAQUS__DTAU_DF_r c c3 fn (matOf (Gen.N2_DTAU_DF__ABAQUS_r c c3 fn D (tensv F0) (tensv (plane f0 f1 f2 f3 f4)) s)) (tensv F0) (tensv (plane f0 f1 f2 f3 f4)) s) (M3.mandel2 c (symm (plane l0 l1 l2 l3 l3))))))
+      = upper (lamAb (plane f0 f1 f2 f3 f4) (M3.ofMandel c [s 0, s 1, s 2, s 3]) (plane l0 l1 l2 l3 l3) (M3.ofMandel c (act (rowsOf D i4 i4) (M3.mandel2 c (symm (plane l0 l1 l2 l3 l3)))))) := by
+  refine (PropsN2c.N2_ABAQUS__DTAU_DF c c3 fn hc h2 (hJ := hJ) ..).trans ?_
+  exact PropsN2a.N2_DTAU_DF__ABAQUS c c3 fn hc h2 (hJ := hJ) ..
+
+/-- round trip `DTAU_DF → C_TAU_JAUMANN → DTAU_DF`: converting back gives an operator with the same action (hence the same
+meaning) as the one started from, for every variation. -/
+theorem N2_roundtrip_DTAU_DF__C_TAU_JAUMANN (hc : c * c = 2) (h2 : (2:K) ≠ 0)
+    (D : Nat → Nat → K) (F0 : M3 K) (f0 f1 f2 f3 f4 : K) (l0 l1 l2 l3 : K) (s : Nat → K) (hJ : (plane f0 f1 f2 f3 f4).det ≠ 0) :
+    upper (lamTau (plane f0 f1 f2 f3 f4) (M3.ofMandel c [s 0, s 1, s 2, s 3]) (plane l0 l1 l2 l3 l3) (M3.ofMandel c (act (Gen.N2_DTAU_DF__C_TAU_JAUMANN_r c c3 fn (matOf (Gen.N2_C_TAU_JAUMANN__DTAU_DF_r c c3 fn D (tensv F0) (tensv (plane f0 f1 f2 f3 f4)) s)) (tensv F0) (tensv (plane f0 f1 f2 f3 f4)) s) (M3.tens2 ((plane l0 l1 l2 l3 l3) * (plane f0 f1 f2 f3 f4))))))
+      = upper (lamTau (plane f0 f1 f2 f3 f4) (M3.ofMandel c [s 0, s 1, s 2, s 3]) (plane l0 l1 l2 l3 l3) (M3.ofMandel c (act (rowsOf D i4 i5) (M3.tens2 ((plane l0 l1 l2 l3 l3) * (plane f0 f1 f2 f3 f4)))))) := by
+  refine (PropsN2b.N2_DTAU_DF__C_TAU_JAUMANN c c3 fn hc h2 (hJ := hJ) ..).trans ?_
+  exact PropsN2d.N2_C_TAU_JAUMANN__DTAU_DF c c3 fn hc h2 ..
+
+/-- round trip `DTAU_DF → ABAQUS → DTAU_DF`: converting back gives an operator with the same action (hence the same
+meaning) as the one started from, for every variation. -/
+theorem N2_roundtrip_DTAU_DF__ABAQUS (hc : c * c = 2) (h2 : (2:K) ≠ 0)
+    (D : Nat → Nat → K) (F0 : M3 K) (f0 f1 f2 f3 f4 : K) (l0 l1 l2 l3 : K) (s : Nat → K) (hJ : (plane f0 f1 f2 f3 f4).det ≠ 0) :
+    upper (lamTau (plane f0 f1 f2 f3 f4) (M3.ofMandel c [s 0, s 1, s 2, s 3]) (plane l0 l1 l2 l3 l3) (M3.ofMandel c (act (Gen.N2_DTAU_DF__ABAQUS_r c c3 fn (matOf (Gen.N2_ABAQUS__DTAU_DF_r c c3 fn D (tensv F0) (tensv (plane f0 f1 f2 f3 f4)) s)) (tensv F0) (tensv (plane f0 f1 f2 f3 f4)) s) (M3.tens2 ((plane l0 l1 l2 l3 l3) * (plane f0 f1 f2 f3 f4))))))
+      = upper (lamTau (plane f0 f1 f2 f3 f4) (M3.ofMandel c [s 0, s 1, s 2, s 3]) (plane l0 l1 l2 l3 l3) (M3.ofMandel c (act (rowsOf D i4 i5) (M3.tens2 ((plane l0 l1 l2 l3 l3) * (plane f0 f1 f2 f3 f4)))))) := by
+  refine (PropsN2a.N2_DTAU_DF__ABAQUS c c3 fn hc h2 (hJ := hJ) ..).trans ?_
+  exact PropsN2c.N2_ABAQUS__DTAU_DF c c3 fn hc h2 (hJ := hJ) ..
+
+/-- round trip `DTAU_DF → SPATIAL_MODULI → DTAU_DF`: converting back gives an operator with the same action (hence the same
+meaning) as the one started from, for every variation. -/
+theorem N2_roundtrip_DTAU_DF__SPATIAL_MODULI (hc : c * c = 2) (h2 : (2:K) ≠ 0)
+    (D : Nat → Nat → K) (F0 : M3 K) (f0 f1 f2 f3 f4 : K) (l0 l1 l2 l3 : K) (s : Nat → K) (hJ : (plane f0 f1 f2 f3 f4).det ≠ 0) :
+    upper (lamTau (plane f0 f1 f2 f3 f4) (M3.ofMandel c [s 0, s 1, s 2, s 3]) (plane l0 l1 l2 l3 l3) (M3.ofMandel c (act (Gen.N2_DTAU_DF__SPATIAL_MODULI_r c c3 fn (matOf (Gen.N2_SPATIAL_MODULI__DTAU_DF_r c c3 fn D (tensv F0) (tensv (plane f0 f1 f2 f3 f4)) s)) (tensv F0) (tensv (plane f0 f1 f2 f3 f4)) s) (M3.tens2 ((plane l0 l1 l2 l3 l3) * (plane f0 f1 f2 f3 f4))))))
+      = upper (lamTau (plane f0 f1 f2 f3 f4) (M3.ofMandel c [s 0, s 1, s 2, s 3]) (plane l0 l1 l2 l3 l3) (M3.ofMandel c (act (rowsOf D i4 i5) (M3.tens2 ((plane l0 l1 l2 l3 l3) * (plane f0 f1 f2 f3 f4)))))) := by
+  refine (PropsN2Chains.N2_DTAU_DF__SPATIAL_MODULI c c3 fn hc h2 (hJ := hJ) ..).trans ?_
+  exact PropsN2Chains.N2_SPATIAL_MODULI__DTAU_DF c c3 fn hc h2 ..
+
+/-- conversions compose: `DS_DF ← DS_DC ← DS_DEGL` acts as the direct `DS_DF ← DS_DEGL`, for every variation. -/
+theorem N2_compose_DS_DF__DS_DC__DS_DEGL (hc : c * c = 2) (h2 : (2:K) ≠ 0)
+    (D : Nat → Nat → K) (F0 : M3 K) (f0 f1 f2 f3 f4 : K) (l0 l1 l2 l3 l4 : K) (s : Nat → K)  :
+    upper (lamS (plane f0 f1 f2 f3 f4) (M3.ofMandel c [s 0, s 1, s 2, s 3]) (plane l0 l1 l2 l3 l4) (M3.ofMandel c (act (Gen.N2_DS_DF__DS_DC_r c c3 fn (matOf (Gen.N2_DS_DC__DS_DEGL_r c c3 fn D (tensv F0) (tensv (plane f0 f1 f2 f3 f4)) s)) (tensv F0) (tensv (plane f0 f1 f2 f3 f4)) s) (M3.tens2 ((plane l0 l1 l2 l3 l4) * (plane f0 f1 f2 f3 f4))))))
+      = upper (lamS (plane f0 f1 f2 f3 f4) (M3.ofMandel c [s 0, s 1, s 2, s 3]) (plane l0 l1 l2 l3 l4) (M3.ofMandel c (act (Gen.N2_DS_DF__DS_DEGL_r c c3 fn D (tensv F0) (tensv (plane f0 f1 f2 f3 f4)) s) (M3.tens2 ((plane l0 l1 l2 l3 l4) * (plane f0 f1 f2 f3 f4)))))) := by
+  refine (PropsN2a.N2_DS_DF__DS_DC c c3 fn hc h2 ..).trans ?_
+  refine (PropsN2d.N2_DS_DC__DS_DEGL c c3 fn hc h2 ..).trans ?_
+  exact (PropsN2c.N2_DS_DF__DS_DEGL c c3 fn hc h2 ..).symm
+
+/-- conversions compose: `DS_DF ← DS_DEGL ← DS_DC` acts as the direct `DS_DF ← DS_DC`, for every variation. -/
+theorem N2_compose_DS_DF__DS_DEGL__DS_DC (hc : c * c = 2) (h2 : (2:K) ≠ 0)
+    (D : Nat → Nat → K) (F0 : M3 K) (f0 f1 f2 f3 f4 : K) (l0 l1 l2 l3 l4 : K) (s : Nat → K)  :
+    upper (lamS (plane f0 f1 f2 f3 f4) (M3.ofMandel c [s 0, s 1, s 2, s 3]) (plane l0 l1 l2 l3 l4) (M3.ofMandel c (act (Gen.N2_DS_DF__DS_DEGL_r c c3 fn (matOf (Gen.N2_DS_DEGL__DS_DC_r c c3 fn D (tensv F0) (tensv (plane f0 f1 f2 f3 f4)) s)) (tensv F0) (tensv (plane f0 f1 f2 f3 f4)) s) (M3.tens2 ((plane l0 l1 l2 l3 l4) * (plane f0 f1 f2 f3 f4))))))
+      = upper (lamS (plane f0 f1 f2 f3 f4) (M3.ofMandel c [s 0, s 1, s 2, s 3]) (plane l0 l1 l2 l3 l4) (M3.ofMandel c (act (Gen.N2_DS_DF__DS_DC_r c c3 fn D (tensv F0) (tensv (plane f0 f1 f2 f3 f4)) s) (M3.tens2 ((plane l0 l1 l2 l3 l4) * (plane f0 f1 f2 f3 f4)))))) := by
+  refine (PropsN2c.N2_DS_DF__DS_DEGL c c3 fn hc h2 ..).trans ?_
+  refine (PropsN2b.N2_DS_DEGL__DS_DC c c3 fn hc h2 ..).trans ?_
+  exact (PropsN2a.N2_DS_DF__DS_DC c c3 fn hc h2 ..).symm
+
+/-- conversions compose: `ABAQUS ← SPATIAL_MODULI ← DS_DEGL` acts as the direct `ABAQUS ← DS_DEGL`, for every variation. -/
+theorem N2_compose_ABAQUS__SPATIAL_MODULI__DS_DEGL (hc : c * c = 2) (h2 : (2:K) ≠ 0)
+    (D : Nat → Nat → K) (F0 : M3 K) (f0 f1 f2 f3 f4 : K) (l0 l1 l2 l3 l4 : K) (s : Nat → K) (hJ : (plane f0 f1 f2 f3 f4).det ≠ 0) :
+    upper (lamAb (plane f0 f1 f2 f3 f4) (M3.ofMandel c [s 0, s 1, s 2, s 3]) (plane l0 l1 l2 l3 l4) (M3.ofMandel c (act (Gen.N2_ABAQUS__SPATIAL_MODULI_r c c3 fn (matOf (Gen.N2_SPATIAL_MODULI__DS_DEGL_r c c3 fn D (tensv F0) (tensv (plane f0 f1 f2 f3 f4)) s)) (tensv F0) (tensv (plane f0 f1 f2 f3 f4)) s) (M3.mandel2 c (symm (plane l0 l1 l2 l3 l4))))))
+      = upper (lamAb (plane f0 f1 f2 f3 f4) (M3.ofMandel c [s 0, s 1, s 2, s 3]) (plane l0 l1 l2 l3 l4) (M3.ofMandel c (act (Gen.N2_ABAQUS__DS_DEGL_r c c3 fn D (tensv F0) (tensv (plane f0 f1 f2 f3 f4)) s) (M3.mandel2 c (symm (plane l0 l1 l2 l3 l4)))))) := by
+  refine (PropsN2d.N2_ABAQUS__SPATIAL_MODULI c c3 fn hc h2 (hJ := hJ) ..).trans ?_
+  refine (PropsN2d.N2_SPATIAL_MODULI__DS_DEGL c c3 fn hc h2 ..).trans ?_
+  exact (PropsN2Chains.N2_ABAQUS__DS_DEGL c c3 fn hc h2 (hJ := hJ) ..).symm
+
+/-- conversions compose: `ABAQUS ← SPATIAL_MODULI ← DTAU_DF` acts as the direct `ABAQUS ← DTAU_DF`, for every variation. -/
+theorem N2_compose_ABAQUS__SPATIAL_MODULI__DTAU_DF (hc : c * c = 2) (h2 : (2:K) ≠ 0)
+    (D : Nat → Nat → K) (F0 : M3 K) (f0 f1 f2 f3 f4 : K) (l0 l1 l2 l3 : K) (s : Nat → K) (hJ : (plane f0 f1 f2 f3 f4).det ≠ 0) :
+    upper (lamAb (plane f0 f1 f2 f3 f4) (M3.ofMandel c [s 0, s 1, s 2, s 3]) (plane l0 l1 l2 l3 l3) (M3.ofMandel c (act (Gen.N2_ABAQUS__SPATIAL_MODULI_r c c3 fn (matOf (Gen.N2_SPATIAL_MODULI__DTAU_DF_r c c3 fn D (tensv F0) (tensv (plane f0 f1 f2 f3 f4)) s)) (tensv F0) (tensv (plane f0 f1 f2 f3 f4)) s) (M3.mandel2 c (symm (plane l0 l1 l2 l3 l3))))))
+      = upper (lamAb (plane f0 f1 f2 f3 f4) (M3.ofMandel c [s 0, s 1, s 2, s 3]) (plane l0 l1 l2 l3 l3) (M3.ofMandel c (act (Gen.N2_ABAQUS__DTAU_DF_r c c3 fn D (tensv F0) (tensv (plane f0 f1 f2 f3 f4)) s) (M3.mandel2 c (symm (plane l0 l1 l2 l3 l3)))))) := by
+  refine (PropsN2d.N2_ABAQUS__SPATIAL_MODULI c c3 fn hc h2 (hJ := hJ) ..).trans ?_
+  refine (PropsN2Chains.N2_SPATIAL_MODULI__DTAU_DF c c3 fn hc h2 ..).trans ?_
+  exact (PropsN2c.N2_ABAQUS__DTAU_DF c c3 fn hc h2 (hJ := hJ) ..).symm
+
+/-- conversions compose: `ABAQUS ← SPATIAL_MODULI ← C_TAU_JAUMANN` acts as the direct `ABAQUS ← C_TAU_JAUMANN`, for every variation. -/
+theorem N2_compose_ABAQUS__SPATIAL_MODULI__C_TAU_JAUMANN (hc : c * c = 2) (h2 : (2:K) ≠ 0)
+    (D : Nat → Nat → K) (F0 : M3 K) (f0 f1 f2 f3 f4 : K) (l0 l1 l2 l3 l4 : K) (s : Nat → K) (hJ : (plane f0 f1 f2 f3 f4).det ≠ 0) :
+    upper (lamAb (plane f0 f1 f2 f3 f4) (M3.ofMandel c [s 0, s 1, s 2, s 3]) (plane l0 l1 l2 l3 l4) (M3.ofMandel c (act (Gen.N2_ABAQUS__SPATIAL_MODULI_r c c3 fn (matOf (Gen.N2_SPATIAL_MODULI__C_TAU_JAUMANN_r c c3 fn D (tensv F0) (tensv (plane f0 f1 f2 f3 f4)) s)) (tensv F0) (tensv (plane f0 f1 f2 f3 f4)) s) (M3.mandel2 c (symm (plane l0 l1 l2 l3 l4))))))
+      = upper (lamAb (plane f0 f1 f2 f3 f4) (M3.ofMandel c [s 0, s 1, s 2, s 3]) (plane l0 l1 l2 l3 l4) (M3.ofMandel c (act (Gen.N2_ABAQUS__C_TAU_JAUMANN_r c c3 fn D (tensv F0) (tensv (plane f0 f1 f2 f3 f4)) s) (M3.mandel2 c (symm (plane l0 l1 l2 l3 l4)))))) := by
+  refine (PropsN2d.N2_ABAQUS__SPATIAL_MODULI c c3 fn hc h2 (hJ := hJ) ..).trans ?_
+  refine (PropsN2a.N2_SPATIAL_MODULI__C_TAU_JAUMANN c c3 fn hc h2 ..).trans ?_
+  exact (PropsN2d.N2_ABAQUS__C_TAU_JAUMANN c c3 fn hc h2 (hJ := hJ) ..).symm
+
+/-- conversions compose: `ABAQUS ← DS_DEGL ← SPATIAL_MODULI` acts as the direct `ABAQUS ← SPATIAL_MODULI`, for every variation. -/
+theorem N2_compose_ABAQUS__DS_DEGL__SPATIAL_MODULI (hc : c * c = 2) (h2 : (2:K) ≠ 0)
+    (D : Nat → Nat → K) (F0 : M3 K) (f0 f1 f2 f3 f4 : K) (l0 l1 l2 l3 l4 : K) (s : Nat → K) (hJ : (plane f0 f1 f2 f3 f4).det ≠ 0) :
+    upper (lamAb (plane f0 f1 f2 f3 f4) (M3.ofMandel c [s 0, s 1, s 2, s 3]) (plane l0 l1 l2 l3 l4) (M3.ofMandel c (act (Gen.N2_ABAQUS__DS_DEGL_r c c3 fn (matOf (Gen.N2_DS_DEGL__SPATIAL_MODULI_r c c3 fn D (tensv F0) (tensv (plane f0 f1 f2 f3 f4)) s)) (tensv F0) (tensv (plane f0 f1 f2 f3 f4)) s) (M3.mandel2 c (symm (plane l0 l1 l2 l3 l4))))))
+      = upper (lamAb (plane f0 f1 f2 f3 f4) (M3.ofMandel c [s 0, s 1, s 2, s 3]) (plane l0 l1 l2 l3 l4) (M3.ofMandel c (act (Gen.N2_ABAQUS__SPATIAL_MODULI_r c c3 fn D (tensv F0) (tensv (plane f0 f1 f2 f3 f4)) s) (M3.mandel2 c (symm (plane l0 l1 l2 l3 l4)))))) := by
+  refine (PropsN2Chains.N2_ABAQUS__DS_DEGL c c3 fn hc h2 (hJ := hJ) ..).trans ?_
+  refine (PropsN2Chains.N2_DS_DEGL__SPATIAL_MODULI c c3 fn hc h2 (hJ := hJ) ..).trans ?_
+  exact (PropsN2d.N2_ABAQUS__SPATIAL_MODULI c c3 fn hc h2 (hJ := hJ) ..).symm
+
+/-- conversions compose: `DSIG_DF ← C_TRUESDELL ← DS_DEGL` acts as the direct `DSIG_DF ← DS_DEGL`, for every variation. -/
+theorem N2_compose_DSIG_DF__C_TRUESDELL__DS_DEGL (hc : c * c = 2) (h2 : (2:K) ≠ 0)
+    (D : Nat → Nat → K) (F0 : M3 K) (f0 f1 f2 f3 f4 : K) (l0 l1 l2 l3 l4 : K) (s : Nat → K) (hJ : (plane f0 f1 f2 f3 f4).det ≠ 0) :
+    upper (lamSig (plane f0 f1 f2 f3 f4) (M3.ofMandel c [s 0, s 1, s 2, s 3]) (plane l0 l1 l2 l3 l4) (M3.ofMandel c (act (Gen.N2_DSIG_DF__C_TRUESDELL_r c c3 fn (matOf (Gen.N2_C_TRUESDELL__DS_DEGL_r c c3 fn D (tensv F0) (tensv (plane f0 f1 f2 f3 f4)) s)) (tensv F0) (tensv (plane f0 f1 f2 f3 f4)) s) (M3.tens2 ((plane l0 l1 l2 l3 l4) * (plane f0 f1 f2 f3 f4))))))
+      = upper (lamSig (plane f0 f1 f2 f3 f4) (M3.ofMandel c [s 0, s 1, s 2, s 3]) (plane l0 l1 l2 l3 l4) (M3.ofMandel c (act (Gen.N2_DSIG_DF__DS_DEGL_r c c3 fn D (tensv F0) (tensv (plane f0 f1 f2 f3 f4)) s) (M3.tens2 ((plane l0 l1 l2 l3 l4) * (plane f0 f1 f2 f3 f4)))))) := by
+  refine (PropsN2Chains.N2_DSIG_DF__C_TRUESDELL c c3 fn hc h2 (hJ := hJ) ..).trans ?_
+  refine (PropsN2Chains.N2_C_TRUESDELL__DS_DEGL c c3 fn hc h2 (hJ := hJ) ..).trans ?_
+  exact (PropsN2Chains.N2_DSIG_DF__DS_DEGL c c3 fn hc h2 (hJ := hJ) ..).symm
+
+/-- conversions compose: `DSIG_DF ← C_TRUESDELL ← DTAU_DF` acts as the direct `DSIG_DF ← DTAU_DF`, for every variation. -/
+theorem N2_compose_DSIG_DF__C_TRUESDELL__DTAU_DF (hc : c * c = 2) (h2 : (2:K) ≠ 0)
+    (D : Nat → Nat → K) (F0 : M3 K) (f0 f1 f2 f3 f4 : K) (l0 l1 l2 l3 : K) (s : Nat → K) (hJ : (plane f0 f1 f2 f3 f4).det ≠ 0) :
+    upper (lamSig (plane f0 f1 f2 f3 f4) (M3.ofMandel c [s 0, s 1, s 2, s 3]) (plane l0 l1 l2 l3 l3) (M3.ofMandel c (act (Gen.N2_DSIG_DF__C_TRUESDELL_r c c3 fn (matOf (Gen.N2_C_TRUESDELL__DTAU_DF_r c c3 fn D (tensv F0) (tensv (plane f0 f1 f2 f3 f4)) s)) (tensv F0) (tensv (plane f0 f1 f2 f3 f4)) s) (M3.tens2 ((plane l0 l1 l2 l3 l3) * (plane f0 f1 f2 f3 f4))))))
+      = upper (lamSig (plane f0 f1 f2 f3 f4) (M3.ofMandel c [s 0, s 1, s 2, s 3]) (plane l0 l1 l2 l3 l3) (M3.ofMandel c (act (Gen.N2_DSIG_DF__DTAU_DF_r c c3 fn D (tensv F0) (tensv (plane f0 f1 f2 f3 f4)) s) (M3.tens2 ((plane l0 l1 l2 l3 l3) * (plane f0 f1 f2 f3 f4)))))) := by
+  refine (PropsN2Chains.N2_DSIG_DF__C_TRUESDELL c c3 fn hc h2 (hJ := hJ) ..).trans ?_
+  refine (PropsN2Chains.N2_C_TRUESDELL__DTAU_DF c c3 fn hc h2 (hJ := hJ) ..).trans ?_
+  exact (PropsN2c.N2_DSIG_DF__DTAU_DF c c3 fn hc h2 (hJ := hJ) ..).symm
+
+/-- conversions compose: `SPATIAL_MODULI ← ABAQUS ← DS_DEGL` acts as the direct `SPATIAL_MODULI ← DS_DEGL`, for every variation. -/
+theorem N2_compose_SPATIAL_MODULI__ABAQUS__DS_DEGL (hc : c * c = 2) (h2 : (2:K) ≠ 0)
+    (D : Nat → Nat → K) (F0 : M3 K) (f0 f1 f2 f3 f4 : K) (l0 l1 l2 l3 l4 : K) (s : Nat → K) (hJ : (plane f0 f1 f2 f3 f4).det ≠ 0) :
+    upper (lamSM (plane f0 f1 f2 f3 f4) (M3.ofMandel c [s 0, s 1, s 2, s 3]) (plane l0 l1 l2 l3 l4) (M3.ofMandel c (act (Gen.N2_SPATIAL_MODULI__ABAQUS_r c c3 fn (matOf (Gen.N2_ABAQUS__DS_DEGL_r c c3 fn D (tensv F0) (tensv (plane f0 f1 f2 f3 f4)) s)) (tensv F0) (tensv (plane f0 f1 f2 f3 f4)) s) (M3.mandel2 c (symm (plane l0 l1 l2 l3 l4))))))
+      = upper (lamSM (plane f0 f1 f2 f3 f4) (M3.ofMandel c [s 0, s 1, s 2, s 3]) (plane l0 l1 l2 l3 l4) (M3.ofMandel c (act (Gen.N2_SPATIAL_MODULI__DS_DEGL_r c c3 fn D (tensv F0) (tensv (plane f0 f1 f2 f3 f4)) s) (M3.mandel2 c (symm (plane l0 l1 l2 l3 l4)))))) := by
+  refine (PropsN2c.N2_SPATIAL_MODULI__ABAQUS c c3 fn hc h2 ..).trans ?_
+  refine (PropsN2Chains.N2_ABAQUS__DS_DEGL c c3 fn hc h2 (hJ := hJ) ..).trans ?_
+  exact (PropsN2d.N2_SPATIAL_MODULI__DS_DEGL c c3 fn hc h2 ..).symm
+
+/-- conversions compose: `SPATIAL_MODULI ← ABAQUS ← C_TAU_JAUMANN` acts as the direct `SPATIAL_MODULI ← C_TAU_JAUMANN`, for every variation. -/
+theorem N2_compose_SPATIAL_MODULI__ABAQUS__C_TAU_JAUMANN (hc : c * c = 2) (h2 : (2:K) ≠ 0)
+    (D : Nat → Nat → K) (F0 : M3 K) (f0 f1 f2 f3 f4 : K) (l0 l1 l2 l3 l4 : K) (s : Nat → K) (hJ : (plane f0 f1 f2 f3 f4).det ≠ 0) :
+    upper (lamSM (plane f0 f1 f2 f3 f4) (M3.ofMandel c [s 0, s 1, s 2, s 3]) (plane l0 l1 l2 l3 l4) (M3.ofMandel c (act (Gen.N2_SPATIAL_MODULI__ABAQUS_r c c3 fn (matOf (Gen.N2_ABAQUS__C_TAU_JAUMANN_r c c3 fn D (tensv F0) (tensv (plane f0 f1 f2 f3 f4)) s)) (tensv F0) (tensv (plane f0 f1 f2 f3 f4)) s) (M3.mandel2 c (symm (plane l0 l1 l2 l3 l4))))))
+      = upper (lamSM (plane f0 f1 f2 f3 f4) (M3.ofMandel c [s 0, s 1, s 2, s 3]) (plane l0 l1 l2 l3 l4) (M3.ofMandel c (act (Gen.N2_SPATIAL_MODULI__C_TAU_JAUMANN_r c c3 fn D (tensv F0) (tensv (plane f0 f1 f2 f3 f4)) s) (M3.mandel2 c (symm (plane l0 l1 l2 l3 l4)))))) := by
+  refine (PropsN2c.N2_SPATIAL_MODULI__ABAQUS c c3 fn hc h2 ..).trans ?_
+  refine (PropsN2d.N2_ABAQUS__C_TAU_JAUMANN c c3 fn hc h2 (hJ := hJ) ..).trans ?_
+  exact (PropsN2a.N2_SPATIAL_MODULI__C_TAU_JAUMANN c c3 fn hc h2 ..).symm
+
+/-- conversions compose: `SPATIAL_MODULI ← ABAQUS ← DTAU_DF` acts as the direct `SPATIAL_MODULI ← DTAU_DF`, for every variation. -/
+theorem N2_compose_SPATIAL_MODULI__ABAQUS__DTAU_DF (hc : c * c = 2) (h2 : (2:K) ≠ 0)
+    (D : Nat → Nat → K) (F0 : M3 K) (f0 f1 f2 f3 f4 : K) (l0 l1 l2 l3 : K) (s : Nat → K) (hJ : (plane f0 f1 f2 f3 f4).det ≠ 0) :
+    upper (lamSM (plane f0 f1 f2 f3 f4) (M3.ofMandel c [s 0, s 1, s 2, s 3]) (plane l0 l1 l2 l3 l3) (M3.ofMandel c (act (Gen.N2_SPATIAL_MODULI__ABAQUS_r c c3 fn (matOf (Gen.N2_ABAQUS__DTAU_DF_r c c3 fn D (tensv F0) (tensv (plane f0 f1 f2 f3 f4)) s)) (tensv F0) (tensv (plane f0 f1 f2 f3 f4)) s) (M3.mandel2 c (symm (plane l0 l1 l2 l3 l3))))))
+      = upper (lamSM (plane f0 f1 f2 f3 f4) (M3.ofMandel c [s 0, s 1, s 2, s 3]) (plane l0 l1 l2 l3 l3) (M3.ofMandel c (act (Gen.N2_SPATIAL_MODULI__DTAU_DF_r c c3 fn D (tensv F0) (tensv (plane f0 f1 f2 f3 f4)) s) (M3.mandel2 c (symm (plane l0 l1 l2 l3 l3)))))) := by
+  refine (PropsN2c.N2_SPATIAL_MODULI__ABAQUS c c3 fn hc h2 ..).trans ?_
+  refine (PropsN2c.N2_ABAQUS__DTAU_DF c c3 fn hc h2 (hJ := hJ) ..).trans ?_
+  exact (PropsN2Chains.N2_SPATIAL_MODULI__DTAU_DF c c3 fn hc h2 ..).symm
+
+/-- conversions compose: `C_TRUESDELL ← SPATIAL_MODULI ← DS_DEGL` acts as the direct `C_TRUESDELL ← DS_DEGL`, for every variation. -/
+theorem N2_compose_C_TRUESDELL__SPATIAL_MODULI__DS_DEGL (hc : c * c = 2) (h2 : (2:K) ≠ 0)
+    (D : Nat → Nat → K) (F0 : M3 K) (f0 f1 f2 f3 f4 : K) (l0 l1 l2 l3 l4 : K) (s : Nat → K) (hJ : (plane f0 f1 f2 f3 f4).det ≠ 0) :
+    upper (lamTr (plane f0 f1 f2 f3 f4) (M3.ofMandel c [s 0, s 1, s 2, s 3]) (plane l0 l1 l2 l3 l4) (M3.ofMandel c (act (Gen.N2_C_TRUESDELL__SPATIAL_MODULI_r c c3 fn (matOf (Gen.N2_SPATIAL_MODULI__DS_DEGL_r c c3 fn D (tensv F0) (tensv (plane f0 f1 f2 f3 f4)) s)) (tensv F0) (tensv (plane f0 f1 f2 f3 f4)) s) (M3.mandel2 c (symm (plane l0 l1 l2 l3 l4))))))
+      = upper (lamTr (plane f0 f1 f2 f3 f4) (M3.ofMandel c [s 0, s 1, s 2, s 3]) (plane l0 l1 l2 l3 l4) (M3.ofMandel c (act (Gen.N2_C_TRUESDELL__DS_DEGL_r c c3 fn D (tensv F0) (tensv (plane f0 f1 f2 f3 f4)) s) (M3.mandel2 c (symm (plane l0 l1 l2 l3 l4)))))) := by
+  refine (PropsN2a.N2_C_TRUESDELL__SPATIAL_MODULI c c3 fn hc h2 (hJ := hJ) ..).trans ?_
+  refine (PropsN2d.N2_SPATIAL_MODULI__DS_DEGL c c3 fn hc h2 ..).trans ?_
+  exact (PropsN2Chains.N2_C_TRUESDELL__DS_DEGL c c3 fn hc h2 (hJ := hJ) ..).symm
+
+/-- conversions compose: `C_TRUESDELL ← SPATIAL_MODULI ← DTAU_DF` acts as the direct `C_TRUESDELL ← DTAU_DF`, for every variation. -/
+theorem N2_compose_C_TRUESDELL__SPATIAL_MODULI__DTAU_DF (hc : c * c = 2) (h2 : (2:K) ≠ 0)
+    (D : Nat → Nat → K) (F0 : M3 K) (f0 f1 f2 f3 f4 : K) (l0 l1 l2 l3 : K) (s : Nat → K) (hJ : (plane f0 f1 f2 f3 f4).det ≠ 0) :
+    upper (lamTr (plane f0 f1 f2 f3 f4) (M3.ofMandel c [s 0, s 1, s 2, s 3]) (plane l0 l1 l2 l3 l3) (M3.ofMandel c (act (Gen.N2_C_TRUESDELL__SPATIAL_MODULI_r c c3 fn (matOf (Gen.N2_SPATIAL_MODULI__DTAU_DF_r c c3 fn D (tensv F0) (tensv (plane f0 f1 f2 f3 f4)) s)) (tensv F0) (tensv (plane f0 f1 f2 f3 f4)) s) (M3.mandel2 c (symm (plane l0 l1 l2 l3 l3))))))
+      = upper (lamTr (plane f0 f1 f2 f3 f4) (M3.ofMandel c [s 0, s 1, s 2, s 3]) (plane l0 l1 l2 l3 l3) (M3.ofMandel c (act (Gen.N2_C_TRUESDELL__DTAU_DF_r c c3 fn D (tensv F0) (tensv (plane f0 f1 f2 f3 f4)) s) (M3.mandel2 c (symm (plane l0 l1 l2 l3 l3)))))) := by
+  refine (PropsN2a.N2_C_TRUESDELL__SPATIAL_MODULI c c3 fn hc h2 (hJ := hJ) ..).trans ?_
+  refine (PropsN2Chains.N2_SPATIAL_MODULI__DTAU_DF c c3 fn hc h2 ..).trans ?_
+  exact (PropsN2Chains.N2_C_TRUESDELL__DTAU_DF c c3 fn hc h2 (hJ := hJ) ..).symm
+
+/-- conversions compose: `C_TRUESDELL ← DS_DEGL ← SPATIAL_MODULI` acts as the direct `C_TRUESDELL ← SPATIAL_MODULI`, for every variation. -/
+theorem N2_compose_C_TRUESDELL__DS_DEGL__SPATIAL_MODULI (hc : c * c = 2) (h2 : (2:K) ≠ 0)
+    (D : Nat → Nat → K) (F0 : M3 K) (f0 f1 f2 f3 f4 : K) (l0 l1 l2 l3 l4 : K) (s : Nat → K) (hJ : (plane f0 f1 f2 f3 f4).det ≠ 0) :
+    upper (lamTr (plane f0 f1 f2 f3 f4) (M3.ofMandel c [s 0, s 1, s 2, s 3]) (plane l0 l1 l2 l3 l4) (M3.ofMandel c (act (Gen.N2_C_TRUESDELL__DS_DEGL_r c c3 fn (matOf (Gen.N2_DS_DEGL__SPATIAL_MODULI_r c c3 fn D (tensv F0) (tensv (plane f0 f1 f2 f3 f4)) s)) (tensv F0) (tensv (plane f0 f1 f2 f3 f4)) s) (M3.mandel2 c (symm (plane l0 l1 l2 l3 l4))))))
+      = upper (lamTr (plane f0 f1 f2 f3 f4) (M3.ofMandel c [s 0, s 1, s 2, s 3]) (plane l0 l1 l2 l3 l4) (M3.ofMandel c (act (Gen.N2_C_TRUESDELL__SPATIAL_MODULI_r c c3 fn D (tensv F0) (tensv (plane f0 f1 f2 f3 f4)) s) (M3.mandel2 c (symm (plane l0 l1 l2 l3 l4)))))) := by
+  refine (PropsN2Chains.N2_C_TRUESDELL__DS_DEGL c c3 fn hc h2 (hJ := hJ) ..).trans ?_
+  refine (PropsN2Chains.N2_DS_DEGL__SPATIAL_MODULI c c3 fn hc h2 (hJ := hJ) ..).trans ?_
+  exact (PropsN2a.N2_C_TRUESDELL__SPATIAL_MODULI c c3 fn hc h2 (hJ := hJ) ..).symm
+
+/-- conversions compose: `SPATIAL_MODULI ← C_TRUESDELL ← DS_DEGL` acts as the direct `SPATIAL_MODULI ← DS_DEGL`, for every variation. -/
+theorem N2_compose_SPATIAL_MODULI__C_TRUESDELL__DS_DEGL (hc : c * c = 2) (h2 : (2:K) ≠ 0)
+    (D : Nat → Nat → K) (F0 : M3 K) (f0 f1 f2 f3 f4 : K) (l0 l1 l2 l3 l4 : K) (s : Nat → K) (hJ : (plane f0 f1 f2 f3 f4).det ≠ 0) :
+    upper (lamSM (plane f0 f1 f2 f3 f4) (M3.ofMandel c [s 0, s 1, s 2, s 3]) (plane l0 l1 l2 l3 l4) (M3.ofMandel c (act (Gen.N2_SPATIAL_MODULI__C_TRUESDELL_r c c3 fn (matOf (Gen.N2_C_TRUESDELL__DS_DEGL_r c c3 fn D (tensv F0) (tensv (plane f0 f1 f2 f3 f4)) s)) (tensv F0) (tensv (plane f0 f1 f2 f3 f4)) s) (M3.mandel2 c (symm (plane l0 l1 l2 l3 l4))))))
+      = upper (lamSM (plane f0 f1 f2 f3 f4) (M3.ofMandel c [s 0, s 1, s 2, s 3]) (plane l0 l1 l2 l3 l4) (M3.ofMandel c (act (Gen.N2_SPATIAL_MODULI__DS_DEGL_r c c3 fn D (tensv F0) (tensv (plane f0 f1 f2 f3 f4)) s) (M3.mandel2 c (symm (plane l0 l1 l2 l3 l4)))))) := by
+  refine (PropsN2c.N2_SPATIAL_MODULI__C_TRUESDELL c c3 fn hc h2 ..).trans ?_
+  refine (PropsN2Chains.N2_C_TRUESDELL__DS_DEGL c c3 fn hc h2 (hJ := hJ) ..).trans ?_
+  exact (PropsN2d.N2_SPATIAL_MODULI__DS_DEGL c c3 fn hc h2 ..).symm
+
+/-- conversions compose: `SPATIAL_MODULI ← C_TRUESDELL ← DTAU_DF` acts as the direct `SPATIAL_MODULI ← DTAU_DF`, for every variation. -/
+theorem N2_compose_SPATIAL_MODULI__C_TRUESDELL__DTAU_DF (hc : c * c = 2) (h2 : (2:K) ≠ 0)
+    (D : Nat → Nat → K) (F0 : M3 K) (f0 f1 f2 f3 f4 : K) (l0 l1 l2 l3 : K) (s : Nat → K) (hJ : (plane f0 f1 f2 f3 f4).det ≠ 0) :
+    upper (lamSM (plane f0 f1 f2 f3 f4) (M3.ofMandel c [s 0, s 1, s 2, s 3]) (plane l0 l1 l2 l3 l3) (M3.ofMandel c (act (Gen.N2_SPATIAL_MODULI__C_TRUESDELL_r c c3 fn (matOf (Gen.N2_C_TRUESDELL__DTAU_DF_r c c3 fn D (tensv F0) (tensv (plane f0 f1 f2 f3 f4)) s)) (tensv F0) (tensv (plane f0 f1 f2 f3 f4)) s) (M3.mandel2 c (symm (plane l0 l1 l2 l3 l3))))))
+      = upper (lamSM (plane f0 f1 f2 f3 f4) (M3.ofMandel c [s 0, s 1, s 2, s 3]) (plane l0 l1 l2 l3 l3) (M3.ofMandel c (act (Gen.N2_SPATIAL_MODULI__DTAU_DF_r c c3 fn D (tensv F0) (tensv (plane f0 f1 f2 f3 f4)) s) (M3.mandel2 c (symm (plane l0 l1 l2 l3 l3)))))) := by
+  refine (PropsN2c.N2_SPATIAL_MODULI__C_TRUESDELL c c3 fn hc h2 ..).trans ?_
+  refine (PropsN2Chains.N2_C_TRUESDELL__DTAU_DF c c3 fn hc h2 (hJ := hJ) ..).trans ?_
+  exact (PropsN2Chains.N2_SPATIAL_MODULI__DTAU_DF c c3 fn hc h2 ..).symm
+
+/-- conversions compose: `DSIG_DF ← DTAU_DF ← ABAQUS` acts as the direct `DSIG_DF ← ABAQUS`, for every variation. -/
+theorem N2_compose_DSIG_DF__DTAU_DF__ABAQUS (hc : c * c = 2) (h2 : (2:K) ≠ 0)
+    (D : Nat → Nat → K) (F0 : M3 K) (f0 f1 f2 f3 f4 : K) (l0 l1 l2 l3 l4 : K) (s : Nat → K) (hJ : (plane f0 f1 f2 f3 f4).det ≠ 0) :
+    upper (lamSig (plane f0 f1 f2 f3 f4) (M3.ofMandel c [s 0, s 1, s 2, s 3]) (plane l0 l1 l2 l3 l4) (M3.ofMandel c (act (Gen.N2_DSIG_DF__DTAU_DF_r c c3 fn (matOf (Gen.N2_DTAU_DF__ABAQUS_r c c3 fn D (tensv F0) (tensv (plane f0 f1 f2 f3 f4)) s)) (tensv F0) (tensv (plane f0 f1 f2 f3 f4)) s) (M3.tens2 ((plane l0 l1 l2 l3 l4) * (plane f0 f1 f2 f3 f4))))))
+      = upper (lamSig (plane f0 f1 f2 f3 f4) (M3.ofMandel c [s 0, s 1, s 2, s 3]) (plane l0 l1 l2 l3 l4) (M3.ofMandel c (act (Gen.N2_DSIG_DF__ABAQUS_r c c3 fn D (tensv F0) (tensv (plane f0 f1 f2 f3 f4)) s) (M3.tens2 ((plane l0 l1 l2 l3 l4) * (plane f0 f1 f2 f3 f4)))))) := by
+  refine (PropsN2c.N2_DSIG_DF__DTAU_DF c c3 fn hc h2 (hJ := hJ) ..).trans ?_
+  refine (PropsN2a.N2_DTAU_DF__ABAQUS c c3 fn hc h2 (hJ := hJ) ..).trans ?_
+  exact (PropsN2Chains.N2_DSIG_DF__ABAQUS c c3 fn hc h2 (hJ := hJ) ..).symm
+
+/-- conversions compose: `SPATIAL_MODULI ← DTAU_DF ← C_TAU_JAUMANN` acts as the direct `SPATIAL_MODULI ← C_TAU_JAUMANN`, for every variation. -/
+theorem N2_compose_SPATIAL_MODULI__DTAU_DF__C_TAU_JAUMANN (hc : c * c = 2) (h2 : (2:K) ≠ 0)
+    (D : Nat → Nat → K) (F0 : M3 K) (f0 f1 f2 f3 f4 : K) (l0 l1 l2 l3 : K) (s : Nat → K) (hJ : (plane f0 f1 f2 f3 f4).det ≠ 0) :
+    upper (lamSM (plane f0 f1 f2 f3 f4) (M3.ofMandel c [s 0, s 1, s 2, s 3]) (plane l0 l1 l2 l3 l3) (M3.ofMandel c (act (Gen.N2_SPATIAL_MODULI__DTAU_DF_r c c3 fn (matOf (Gen.N2_DTAU_DF__C_TAU_JAUMANN_r c c3 fn D (tensv F0) (tensv (plane f0 f1 f2 f3 f4)) s)) (tensv F0) (tensv (plane f0 f1 f2 f3 f4)) s) (M3.mandel2 c (symm (plane l0 l1 l2 l3 l3))))))
+      = upper (lamSM (plane f0 f1 f2 f3 f4) (M3.ofMandel c [s 0, s 1, s 2, s 3]) (plane l0 l1 l2 l3 l3) (M3.ofMandel c (act (Gen.N2_SPATIAL_MODULI__C_TAU_JAUMANN_r c c3 fn D (tensv F0) (tensv (plane f0 f1 f2 f3 f4)) s) (M3.mandel2 c (symm (plane l0 l1 l2 l3 l3)))))) := by
+  refine (PropsN2Chains.N2_SPATIAL_MODULI__DTAU_DF c c3 fn hc h2 ..).trans ?_
+  refine (PropsN2b.N2_DTAU_DF__C_TAU_JAUMANN c c3 fn hc h2 (hJ := hJ) ..).trans ?_
+  exact (PropsN2a.N2_SPATIAL_MODULI__C_TAU_JAUMANN c c3 fn hc h2 ..).symm
+
+/-- conversions compose: `SPATIAL_MODULI ← DTAU_DF ← ABAQUS` acts as the direct `SPATIAL_MODULI ← ABAQUS`, for every variation. -/
+theorem N2_compose_SPATIAL_MODULI__DTAU_DF__ABAQUS (hc : c * c = 2) (h2 : (2:K) ≠ 0)
+    (D : Nat → Nat → K) (F0 : M3 K) (f0 f1 f2 f3 f4 : K) (l0 l1 l2 l3 : K) (s : Nat → K) (hJ : (plane f0 f1 f2 f3 f4).det ≠ 0) :
+    upper (lamSM (plane f0 f1 f2 f3 f4) (M3.ofMandel c [s 0, s 1, s 2, s 3]) (plane l0 l1 l2 l3 l3) (M3.ofMandel c (act (Gen.N2_SPATIAL_MODULI__DTAU_DF_r c c3 fn (matOf (Gen.N2_DTAU_DF__ABAQUS_r c c3 fn D (tensv F0) (tensv (plane f0 f1 f2 f3 f4)) s)) (tensv F0) (tensv (plane f0 f1 f2 f3 f4)) s) (M3.mandel2 c (symm (plane l0 l1 l2 l3 l3))))))
+      = upper (lamSM (plane f0 f1 f2 f3 f4) (M3.ofMandel c [s 0, s 1, s 2, s 3]) (plane l0 l1 l2 l3 l3) (M3.ofMandel c (act (Gen.N2_SPATIAL_MODULI__ABAQUS_r c c3 fn D (tensv F0) (tensv (plane f0 f1 f2 f3 f4)) s) (M3.mandel2 c (symm (plane l0 l1 l2 l3 l3)))))) := by
+  refine (PropsN2Chains.N2_SPATIAL_MODULI__DTAU_DF c c3 fn hc h2 ..).trans ?_
+  refine (PropsN2a.N2_DTAU_DF__ABAQUS c c3 fn hc h2 (hJ := hJ) ..).trans ?_
+  exact (PropsN2c.N2_SPATIAL_MODULI__ABAQUS c c3 fn hc h2 ..).symm
+
+/-- conversions compose: `C_TAU_JAUMANN ← DTAU_DF ← ABAQUS` acts as the direct `C_TAU_JAUMANN ← ABAQUS`, for every variation. -/
+theorem N2_compose_C_TAU_JAUMANN__DTAU_DF__ABAQUS (hc : c * c = 2) (h2 : (2:K) ≠ 0)
+    (D : Nat → Nat → K) (F0 : M3 K) (f0 f1 f2 f3 f4 : K) (l0 l1 l2 l3 : K) (s : Nat → K) (hJ : (plane f0 f1 f2 f3 f4).det ≠ 0) :
+    upper (lamJ (plane f0 f1 f2 f3 f4) (M3.ofMandel c [s 0, s 1, s 2, s 3]) (plane l0 l1 l2 l3 l3) (M3.ofMandel c (act (Gen.N2_C_TAU_JAUMANN__DTAU_DF_r c c3 fn (matOf (Gen.N2_DTAU_DF__ABAQUS_r c c3 fn D (tensv F0) (tensv (plane f0 f1 f2 f3 f4)) s)) (tensv F0) (tensv (plane f0 f1 f2 f3 f4)) s) (M3.mandel2 c (symm (plane l0 l1 l2 l3 l3))))))
+      = upper (lamJ (plane f0 f1 f2 f3 f4) (M3.ofMandel c [s 0, s 1, s 2, s 3]) (plane l0 l1 l2 l3 l3) (M3.ofMandel c (act (Gen.N2_C_TAU_JAUMANN__ABAQUS_r c c3 fn D (tensv F0) (tensv (plane f0 f1 f2 f3 f4)) s) (M3.mandel2 c (symm (plane l0 l1 l2 l3 l3)))))) := by
+  refine (PropsN2d.N2_C_TAU_JAUMANN__DTAU_DF c c3 fn hc h2 ..).trans ?_
+  refine (PropsN2a.N2_DTAU_DF__ABAQUS c c3 fn hc h2 (hJ := hJ) ..).trans ?_
+  exact (PropsN2b.N2_C_TAU_JAUMANN__ABAQUS c c3 fn hc h2 ..).symm
+
+/-- conversions compose: `C_TAU_JAUMANN ← DTAU_DF ← SPATIAL_MODULI` acts as the direct `C_TAU_JAUMANN ← SPATIAL_MODULI`, for every variation. -/
+theorem N2_compose_C_TAU_JAUMANN__DTAU_DF__SPATIAL_MODULI (hc : c * c = 2) (h2 : (2:K) ≠ 0)
+    (D : Nat → Nat → K) (F0 : M3 K) (f0 f1 f2 f3 f4 : K) (l0 l1 l2 l3 : K) (s : Nat → K) (hJ : (plane f0 f1 f2 f3 f4).det ≠ 0) :
+    upper (lamJ (plane f0 f1 f2 f3 f4) (M3.ofMandel c [s 0, s 1, s 2, s 3]) (plane l0 l1 l2 l3 l3) (M3.ofMandel c (act (Gen.N2_C_TAU_JAUMANN__DTAU_DF_r c c3 fn (matOf (Gen.N2_DTAU_DF__SPATIAL_MODULI_r c c3 fn D (tensv F0) (tensv (plane f0 f1 f2 f3 f4)) s)) (tensv F0) (tensv (plane f0 f1 f2 f3 f4)) s) (M3.mandel2 c (symm (plane l0 l1 l2 l3 l3))))))
+      = upper (lamJ (plane f0 f1 f2 f3 f4) (M3.ofMandel c [s 0, s 1, s 2, s 3]) (plane l0 l1 l2 l3 l3) (M3.ofMandel c (act (Gen.N2_C_TAU_JAUMANN__SPATIAL_MODULI_r c c3 fn D (tensv F0) (tensv (plane f0 f1 f2 f3 f4)) s) (M3.mandel2 c (symm (plane l0 l1 l2 l3 l3)))))) := by
+  refine (PropsN2d.N2_C_TAU_JAUMANN__DTAU_DF c c3 fn hc h2 ..).trans ?_
+  refine (PropsN2Chains.N2_DTAU_DF__SPATIAL_MODULI c c3 fn hc h2 (hJ := hJ) ..).trans ?_
+  exact (PropsN2c.N2_C_TAU_JAUMANN__SPATIAL_MODULI c c3 fn hc h2 ..).symm
+
+/-- conversions compose: `C_TRUESDELL ← DTAU_DF ← SPATIAL_MODULI` acts as the direct `C_TRUESDELL ← SPATIAL_MODULI`, for every variation. -/
+theorem N2_compose_C_TRUESDELL__DTAU_DF__SPATIAL_MODULI (hc : c * c = 2) (h2 : (2:K) ≠ 0)
+    (D : Nat → Nat → K) (F0 : M3 K) (f0 f1 f2 f3 f4 : K) (l0 l1 l2 l3 : K) (s : Nat → K) (hJ : (plane f0 f1 f2 f3 f4).det ≠ 0) :
+    upper (lamTr (plane f0 f1 f2 f3 f4) (M3.ofMandel c [s 0, s 1, s 2, s 3]) (plane l0 l1 l2 l3 l3) (M3.ofMandel c (act (Gen.N2_C_TRUESDELL__DTAU_DF_r c c3 fn (matOf (Gen.N2_DTAU_DF__SPATIAL_MODULI_r c c3 fn D (tensv F0) (tensv (plane f0 f1 f2 f3 f4)) s)) (tensv F0) (tensv (plane f0 f1 f2 f3 f4)) s) (M3.mandel2 c (symm (plane l0 l1 l2 l3 l3))))))
+      = upper (lamTr (plane f0 f1 f2 f3 f4) (M3.ofMandel c [s 0, s 1, s 2, s 3]) (plane l0 l1 l2 l3 l3) (M3.ofMandel c (act (Gen.N2_C_TRUESDELL__SPATIAL_MODULI_r c c3 fn D (tensv F0) (tensv (plane f0 f1 f2 f3 f4)) s) (M3.mandel2 c (symm (plane l0 l1 l2 l3 l3)))))) := by
+  refine (PropsN2Chains.N2_C_TRUESDELL__DTAU_DF c c3 fn hc h2 (hJ := hJ) ..).trans ?_
+  refine (PropsN2Chains.N2_DTAU_DF__SPATIAL_MODULI c c3 fn hc h2 (hJ := hJ) ..).trans ?_
+  exact (PropsN2a.N2_C_TRUESDELL__SPATIAL_MODULI c c3 fn hc h2 (hJ := hJ) ..).symm
+
+/-- conversions compose: `ABAQUS ← C_TAU_JAUMANN ← DTAU_DF` acts as the direct `ABAQUS ← DTAU_DF`, for every variation. -/
+theorem N2_compose_ABAQUS__C_TAU_JAUMANN__DTAU_DF (hc : c * c = 2) (h2 : (2:K) ≠ 0)
+    (D : Nat → Nat → K) (F0 : M3 K) (f0 f1 f2 f3 f4 : K) (l0 l1 l2 l3 : K) (s : Nat → K) (hJ : (plane f0 f1 f2 f3 f4).det ≠ 0) :
+    upper (lamAb (plane f0 f1 f2 f3 f4) (M3.ofMandel c [s 0, s 1, s 2, s 3]) (plane l0 l1 l2 l3 l3) (M3.ofMandel c (act (Gen.N2_ABAQUS__C_TAU_JAUMANN_r c c3 fn (matOf (Gen.N2_C_TAU_JAUMANN__DTAU_DF_r c c3 fn D (tensv F0) (tensv (plane f0 f1 f2 f3 f4)) s)) (tensv F0) (tensv (plane f0 f1 f2 f3 f4)) s) (M3.mandel2 c (symm (plane l0 l1 l2 l3 l3))))))
+      = upper (lamAb (plane f0 f1 f2 f3 f4) (M3.ofMandel c [s 0, s 1, s 2, s 3]) (plane l0 l1 l2 l3 l3) (M3.ofMandel c (act (Gen.N2_ABAQUS__DTAU_DF_r c c3 fn D (tensv F0) (tensv (plane f0 f1 f2 f3 f4)) s) (M3.mandel2 c (symm (plane l0 l1 l2 l3 l3)))))) := by
+  refine (PropsN2d.N2_ABAQUS__C_TAU_JAUMANN c c3 fn hc h2 (hJ := hJ) ..).trans ?_
+  refine (PropsN2d.N2_C_TAU_JAUMANN__DTAU_DF c c3 fn hc h2 ..).trans ?_
+  exact (PropsN2c.N2_ABAQUS__DTAU_DF c c3 fn hc h2 (hJ := hJ) ..).symm
+
+/-- conversions compose: `ABAQUS ← C_TAU_JAUMANN ← SPATIAL_MODULI` acts as the direct `ABAQUS ← SPATIAL_MODULI`, for every variation. -/
+theorem N2_compose_ABAQUS__C_TAU_JAUMANN__SPATIAL_MODULI (hc : c * c = 2) (h2 : (2:K) ≠ 0)
+    (D : Nat → Nat → K) (F0 : M3 K) (f0 f1 f2 f3 f4 : K) (l0 l1 l2 l3 l4 : K) (s : Nat → K) (hJ : (plane f0 f1 f2 f3 f4).det ≠ 0) :
+    upper (lamAb (plane f0 f1 f2 f3 f4) (M3.ofMandel c [s 0, s 1, s 2, s 3]) (plane l0 l1 l2 l3 l4) (M3.ofMandel c (act (Gen.N2_ABAQUS__C_TAU_JAUMANN_r c c3 fn (matOf (Gen.N2_C_TAU_JAUMANN__SPATIAL_MODULI_r c c3 fn D (tensv F0) (tensv (plane f0 f1 f2 f3 f4)) s)) (tensv F0) (tensv (plane f0 f1 f2 f3 f4)) s) (M3.mandel2 c (symm (plane l0 l1 l2 l3 l4))))))
+      = upper (lamAb (plane f0 f1 f2 f3 f4) (M3.ofMandel c [s 0, s 1, s 2, s 3]) (plane l0 l1 l2 l3 l4) (M3.ofMandel c (act (Gen.N2_ABAQUS__SPATIAL_MODULI_r c c3 fn D (tensv F0) (tensv (plane f0 f1 f2 f3 f4)) s) (M3.mandel2 c (symm (plane l0 l1 l2 l3 l4)))))) := by
+  refine (PropsN2d.N2_ABAQUS__C_TAU_JAUMANN c c3 fn hc h2 (hJ := hJ) ..).trans ?_
+  refine (PropsN2c.N2_C_TAU_JAUMANN__SPATIAL_MODULI c c3 fn hc h2 ..).trans ?_
+  exact (PropsN2d.N2_ABAQUS__SPATIAL_MODULI c c3 fn hc h2 (hJ := hJ) ..).symm
+
+/-- conversions compose: `C_TAU_JAUMANN ← ABAQUS ← SPATIAL_MODULI` acts as the direct `C_TAU_JAUMANN ← SPATIAL_MODULI`, for every variation. -/
+theorem N2_compose_C_TAU_JAUMANN__ABAQUS__SPATIAL_MODULI (hc : c * c = 2) (h2 : (2:K) ≠ 0)
+    (D : Nat → Nat → K) (F0 : M3 K) (f0 f1 f2 f3 f4 : K) (l0 l1 l2 l3 l4 : K) (s : Nat → K) (hJ : (plane f0 f1 f2 f3 f4).det ≠ 0) :
+    upper (lamJ (plane f0 f1 f2 f3 f4) (M3.ofMandel c [s 0, s 1, s 2, s 3]) (plane l0 l1 l2 l3 l4) (M3.ofMandel c (act (Gen.N2_C_TAU_JAUMANN__ABAQUS_r c c3 fn (matOf (Gen.N2_ABAQUS__SPATIAL_MODULI_r c c3 fn D (tensv F0) (tensv (plane f0 f1 f2 f3 f4)) s)) (tensv F0) (tensv (plane f0 f1 f2 f3 f4)) s) (M3.mandel2 c (symm (plane l0 l1 l2 l3 l4))))))
+      = upper (lamJ (plane f0 f1 f2 f3 f4) (M3.ofMandel c [s 0, s 1, s 2, s 3]) (plane l0 l1 l2 l3 l4) (M3.ofMandel c (act (Gen.N2_C_TAU_JAUMANN__SPATIAL_MODULI_r c c3 fn D (tensv F0) (tensv (plane f0 f1 f2 f3 f4)) s) (M3.mandel2 c (symm (plane l0 l1 l2 l3 l4)))))) := by
+  refine (PropsN2b.N2_C_TAU_JAUMANN__ABAQUS c c3 fn hc h2 ..).trans ?_
+  refine (PropsN2d.N2_ABAQUS__SPATIAL_MODULI c c3 fn hc h2 (hJ := hJ) ..).trans ?_
+  exact (PropsN2c.N2_C_TAU_JAUMANN__SPATIAL_MODULI c c3 fn hc h2 ..).symm
+
+/-- conversions compose: `C_TAU_JAUMANN ← ABAQUS ← DTAU_DF` acts as the direct `C_TAU_JAUMANN ← DTAU_DF`, for every variation. -/
+theorem N2_compose_C_TAU_JAUMANN__ABAQUS__DTAU_DF (hc : c * c = 2) (h2 : (2:K) ≠ 0)
+    (D : Nat → Nat → K) (F0 : M3 K) (f0 f1 f2 f3 f4 : K) (l0 l1 l2 l3 : K) (s : Nat → K) (hJ : (plane f0 f1 f2 f3 f4).det ≠ 0) :
+    upper (lamJ (plane f0 f1 f2 f3 f4) (M3.ofMandel c [s 0, s 1, s 2, s 3]) (plane l0 l1 l2 l3 l3) (M3.ofMandel c (act (Gen.N2_C_TAU_JAUMANN__ABAQUS_r c c3 fn (matOf (Gen.N2_ABAQUS__DTAU_DF_r c c3 fn D (tensv F0) (tensv (plane f0 f1 f2 f3 f4)) s)) (tensv F0) (tensv (plane f0 f1 f2 f3 f4)) s) (M3.mandel2 c (symm (plane l0 l1 l2 l3 l3))))))
+      = upper (lamJ (plane f0 f1 f2 f3 f4) (M3.ofMandel c [s 0, s 1, s 2, s 3]) (plane l0 l1 l2 l3 l3) (M3.ofMandel c (act (Gen.N2_C_TAU_JAUMANN__DTAU_DF_r c c3 fn D (tensv F0) (tensv (plane f0 f1 f2 f3 f4)) s) (M3.mandel2 c (symm (plane l0 l1 l2 l3 l3)))))) := by
+  refine (PropsN2b.N2_C_TAU_JAUMANN__ABAQUS c c3 fn hc h2 ..).trans ?_
+  refine (PropsN2c.N2_ABAQUS__DTAU_DF c c3 fn hc h2 (hJ := hJ) ..).trans ?_
+  exact (PropsN2d.N2_C_TAU_JAUMANN__DTAU_DF c c3 fn hc h2 ..).symm
+
+/-- conversions compose: `C_TAU_JAUMANN ← SPATIAL_MODULI ← ABAQUS` acts as the direct `C_TAU_JAUMANN ← ABAQUS`, for every variation. -/
+theorem N2_compose_C_TAU_JAUMANN__SPATIAL_MODULI__ABAQUS (hc : c * c = 2) (h2 : (2:K) ≠ 0)
+    (D : Nat → Nat → K) (F0 : M3 K) (f0 f1 f2 f3 f4 : K) (l0 l1 l2 l3 l4 : K) (s : Nat → K)  :
+    upper (lamJ (plane f0 f1 f2 f3 f4) (M3.ofMandel c [s 0, s 1, s 2, s 3]) (plane l0 l1 l2 l3 l4) (M3.ofMandel c (act (Gen.N2_C_TAU_JAUMANN__SPATIAL_MODULI_r c c3 fn (matOf (Gen.N2_SPATIAL_MODULI__ABAQUS_r c c3 fn D (tensv F0) (tensv (plane f0 f1 f2 f3 f4)) s)) (tensv F0) (tensv (plane f0 f1 f2 f3 f4)) s) (M3.mandel2 c (symm (plane l0 l1 l2 l3 l4))))))
+      = upper (lamJ (plane f0 f1 f2 f3 f4) (M3.ofMandel c [s 0, s 1, s 2, s 3]) (plane l0 l1 l2 l3 l4) (M3.ofMandel c (act (Gen.N2_C_TAU_JAUMANN__ABAQUS_r c c3 fn D (tensv F0) (tensv (plane f0 f1 f2 f3 f4)) s) (M3.mandel2 c (symm (plane l0 l1 l2 l3 l4)))))) := by
+  refine (PropsN2c.N2_C_TAU_JAUMANN__SPATIAL_MODULI c c3 fn hc h2 ..).trans ?_
+  refine (PropsN2c.N2_SPATIAL_MODULI__ABAQUS c c3 fn hc h2 ..).trans ?_
+  exact (PropsN2b.N2_C_TAU_JAUMANN__ABAQUS c c3 fn hc h2 ..).symm
+
+/-- conversions compose: `C_TAU_JAUMANN ← SPATIAL_MODULI ← DTAU_DF` acts as the direct `C_TAU_JAUMANN ← DTAU_DF`, for every variation. -/
+theorem N2_compose_C_TAU_JAUMANN__SPATIAL_MODULI__DTAU_DF (hc : c * c = 2) (h2 : (2:K) ≠ 0)
+    (D : Nat → Nat → K) (F0 : M3 K) (f0 f1 f2 f3 f4 : K) (l0 l1 l2 l3 : K) (s : Nat → K)  :
+    upper (lamJ (plane f0 f1 f2 f3 f4) (M3.ofMandel c [s 0, s 1, s 2, s 3]) (plane l0 l1 l2 l3 l3) (M3.ofMandel c (act (Gen.N2_C_TAU_JAUMANN__SPATIAL_MODULI_r c c3 fn (matOf (Gen.N2_SPATIAL_MODULI__DTAU_DF_r c c3 fn D (tensv F0) (tensv (plane f0 f1 f2 f3 f4)) s)) (tensv F0) (tensv (plane f0 f1 f2 f3 f4)) s) (M3.mandel2 c (symm (plane l0 l1 l2 l3 l3))))))
+      = upper (lamJ (plane f0 f1 f2 f3 f4) (M3.ofMandel c [s 0, s 1, s 2, s 3]) (plane l0 l1 l2 l3 l3) (M3.ofMandel c (act (Gen.N2_C_TAU_JAUMANN__DTAU_DF_r c c3 fn D (tensv F0) (tensv (plane f0 f1 f2 f3 f4)) s) (M3.mandel2 c (symm (plane l0 l1 l2 l3 l3)))))) := by
+  refine (PropsN2c.N2_C_TAU_JAUMANN__SPATIAL_MODULI c c3 fn hc h2 ..).trans ?_
+  refine (PropsN2Chains.N2_SPATIAL_MODULI__DTAU_DF c c3 fn hc h2 ..).trans ?_
+  exact (PropsN2d.N2_C_TAU_JAUMANN__DTAU_DF c c3 fn hc h2 ..).symm
+
+/-- conversions compose: `SPATIAL_MODULI ← C_TAU_JAUMANN ← DTAU_DF` acts as the direct `SPATIAL_MODULI ← DTAU_DF`, for every variation. -/
+theorem N2_compose_SPATIAL_MODULI__C_TAU_JAUMANN__DTAU_DF (hc : c * c = 2) (h2 : (2:K) ≠ 0)
+    (D : Nat → Nat → K) (F0 : M3 K) (f0 f1 f2 f3 f4 : K) (l0 l1 l2 l3 : K) (s : Nat → K)  :
+    upper (lamSM (plane f0 f1 f2 f3 f4) (M3.ofMandel c [s 0, s 1, s 2, s 3]) (plane l0 l1 l2 l3 l3) (M3.ofMandel c (act (Gen.N2_SPATIAL_MODULI__C_TAU_JAUMANN_r c c3 fn (matOf (Gen.N2_C_TAU_JAUMANN__DTAU_DF_r c c3 fn D (tensv F0) (tensv (plane f0 f1 f2 f3 f4)) s)) (tensv F0) (tensv (plane f0 f1 f2 f3 f4)) s) (M3.mandel2 c (symm (plane l0 l1 l2 l3 l3))))))
+      = upper (lamSM (plane f0 f1 f2 f3 f4) (M3.ofMandel c [s 0, s 1, s 2, s 3]) (plane l0 l1 l2 l3 l3) (M3.ofMandel c (act (Gen.N2_SPATIAL_MODULI__DTAU_DF_r c c3 fn D (tensv F0) (tensv (plane f0 f1 f2 f3 f4)) s) (M3.mandel2 c (symm (plane l0 l1 l2 l3 l3)))))) := by
+  refine (PropsN2a.N2_SPATIAL_MODULI__C_TAU_JAUMANN c c3 fn hc h2 ..).trans ?_
+  refine (PropsN2d.N2_C_TAU_JAUMANN__DTAU_DF c c3 fn hc h2 ..).trans ?_
+  exact (PropsN2Chains.N2_SPATIAL_MODULI__DTAU_DF c c3 fn hc h2 ..).symm
+
+/-- conversions compose: `SPATIAL_MODULI ← C_TAU_JAUMANN ← ABAQUS` acts as the direct `SPATIAL_MODULI ← ABAQUS`, for every variation. -/
+theorem N2_compose_SPATIAL_MODULI__C_TAU_JAUMANN__ABAQUS (hc : c * c = 2) (h2 : (2:K) ≠ 0)
+    (D : Nat → Nat → K) (F0 : M3 K) (f0 f1 f2 f3 f4 : K) (l0 l1 l2 l3 l4 : K) (s : Nat → K)  :
+    upper (lamSM (plane f0 f1 f2 f3 f4) (M3.ofMandel c [s 0, s 1, s 2, s 3]) (plane l0 l1 l2 l3 l4) (M3.ofMandel c (act (Gen.N2_SPATIAL_MODULI__C_TAU_JAUMANN_r c c3 fn (matOf (Gen.N2_C_TAU_JAUMANN__ABAQUS_r c c3 fn D (tensv F0) (tensv (plane f0 f1 f2 f3 f4)) s)) (tensv F0) (tensv (plane f0 f1 f2 f3 f4)) s) (M3.mandel2 c (symm (plane l0 l1 l2 l3 l4))))))
+      = upper (lamSM (plane f0 f1 f2 f3 f4) (M3.ofMandel c [s 0, s 1, s 2, s 3]) (plane l0 l1 l2 l3 l4) (M3.ofMandel c (act (Gen.N2_SPATIAL_MODULI__ABAQUS_r c c3 fn D (tensv F0) (tensv (plane f0 f1 f2 f3 f4)) s) (M3.mandel2 c (symm (plane l0 l1 l2 l3 l4)))))) := by
+  refine (PropsN2a.N2_SPATIAL_MODULI__C_TAU_JAUMANN c c3 fn hc h2 ..).trans ?_
+  refine (PropsN2b.N2_C_TAU_JAUMANN__ABAQUS c c3 fn hc h2 ..).trans ?_
+  exact (PropsN2c.N2_SPATIAL_MODULI__ABAQUS c c3 fn hc h2 ..).symm
+
+/-- conversions compose: `ABAQUS ← DTAU_DF ← C_TAU_JAUMANN` acts as the direct `ABAQUS ← C_TAU_JAUMANN`, for every variation. -/
+theorem N2_compose_ABAQUS__DTAU_DF__C_TAU_JAUMANN (hc : c * c = 2) (h2 : (2:K) ≠ 0)
+    (D : Nat → Nat → K) (F0 : M3 K) (f0 f1 f2 f3 f4 : K) (l0 l1 l2 l3 : K) (s : Nat → K) (hJ : (plane f0 f1 f2 f3 f4).det ≠ 0) :
+    upper (lamAb (plane f0 f1 f2 f3 f4) (M3.ofMandel c [s 0, s 1, s 2, s 3]) (plane l0 l1 l2 l3 l3) (M3.ofMandel c (act (Gen.N2_ABAQUS__DTAU_DF_r c c3 fn (matOf (Gen.N2_DTAU_DF__C_TAU_JAUMANN_r c c3 fn D (tensv F0) (tensv (plane f0 f1 f2 f3 f4)) s)) (tensv F0) (tensv (plane f0 f1 f2 f3 f4)) s) (M3.mandel2 c (symm (plane l0 l1 l2 l3 l3))))))
+      = upper (lamAb (plane f0 f1 f2 f3 f4) (M3.ofMandel c [s 0, s 1, s 2, s 3]) (plane l0 l1 l2 l3 l3) (M3.ofMandel c (act (Gen.N2_ABAQUS__C_TAU_JAUMANN_r c c3 fn D (tensv F0) (tensv (plane f0 f1 f2 f3 f4)) s) (M3.mandel2 c (symm (plane l0 l1 l2 l3 l3)))))) := by
+  refine (PropsN2c.N2_ABAQUS__DTAU_DF c c3 fn hc h2 (hJ := hJ) ..).trans ?_
+  refine (PropsN2b.N2_DTAU_DF__C_TAU_JAUMANN c c3 fn hc h2 (hJ := hJ) ..).trans ?_
+  exact (PropsN2d.N2_ABAQUS__C_TAU_JAUMANN c c3 fn hc h2 (hJ := hJ) ..).symm
+
+/-- conversions compose: `ABAQUS ← DTAU_DF ← SPATIAL_MODULI` acts as the direct `ABAQUS ← SPATIAL_MODULI`, for every variation. -/
+theorem N2_compose_ABAQUS__DTAU_DF__SPATIAL_MODULI (hc : c * c = 2) (h2 : (2:K) ≠ 0)
+    (D : Nat → Nat → K) (F0 : M3 K) (f0 f1 f2 f3 f4 : K) (l0 l1 l2 l3 : K) (s : Nat → K) (hJ : (plane f0 f1 f2 f3 f4).det ≠ 0) :
+    upper (lamAb (plane f0 f1 f2 f3 f4) (M3.ofMandel c [s 0, s 1, s 2, s 3]) (plane l0 l1 l2 l3 l3) (M3.ofMandel c (act (Gen.N2_ABAQUS__DTAU_DF_r c c3 fn (matOf (Gen.N2_DTAU_DF__SPATIAL_MODULI_r c c3 fn D (tensv F0) (tensv (plane f0 f1 f2 f3 f4)) s)) (tensv F0) (tensv (plane f0 f1 f2 f3 f4)) s) (M3.mandel2 c (symm (plane l0 l1 l2 l3 l3))))))
+      = upper (lamAb (plane f0 f1 f2 f3 f4) (M3.ofMandel c [s 0, s 1, s 2, s 3]) (plane l0 l1 l2 l3 l3) (M3.ofMandel c (act (Gen.N2_ABAQUS__SPATIAL_MODULI_r c c3 fn D (tensv F0) (tensv (plane f0 f1 f2 f3 f4)) s) (M3.mandel2 c (symm (plane l0 l1 l2 l3 l3)))))) := by
+  refine (PropsN2c.N2_ABAQUS__DTAU_DF c c3 fn hc h2 (hJ := hJ) ..).trans ?_
+  refine (PropsN2Chains.N2_DTAU_DF__SPATIAL_MODULI c c3 fn hc h2 (hJ := hJ) ..).trans ?_
+  exact (PropsN2d.N2_ABAQUS__SPATIAL_MODULI c c3 fn hc h2 (hJ := hJ) ..).symm
+
+/-- conversions compose: `DTAU_DF ← C_TAU_JAUMANN ← ABAQUS` acts as the direct `DTAU_DF ← ABAQUS`, for every variation. -/
+theorem N2_compose_DTAU_DF__C_TAU_JAUMANN__ABAQUS (hc : c * c = 2) (h2 : (2:K) ≠ 0)
+    (D : Nat → Nat → K) (F0 : M3 K) (f0 f1 f2 f3 f4 : K) (l0 l1 l2 l3 l4 : K) (s : Nat → K) (hJ : (plane f0 f1 f2 f3 f4).det ≠ 0) :
+    upper (lamTau (plane f0 f1 f2 f3 f4) (M3.ofMandel c [s 0, s 1, s 2, s 3]) (plane l0 l1 l2 l3 l4) (M3.ofMandel c (act (Gen.N2_DTAU_DF__C_TAU_JAUMANN_r c c3 fn (matOf (Gen.N2_C_TAU_JAUMANN__ABAQUS_r c c3 fn D (tensv F0) (tensv (plane f0 f1 f2 f3 f4)) s)) (tensv F0) (tensv (plane f0 f1 f2 f3 f4)) s) (M3.tens2 ((plane l0 l1 l2 l3 l4) * (plane f0 f1 f2 f3 f4))))))
+      = upper (lamTau (plane f0 f1 f2 f3 f4) (M3.ofMandel c [s 0, s 1, s 2, s 3]) (plane l0 l1 l2 l3 l4) (M3.ofMandel c (act (Gen.N2_DTAU_DF__ABAQUS_r c c3 fn D (tensv F0) (tensv (plane f0 f1 f2 f3 f4)) s) (M3.tens2 ((plane l0 l1 l2 l3 l4) * (plane f0 f1 f2 f3 f4)))))) := by
+  refine (PropsN2b.N2_DTAU_DF__C_TAU_JAUMANN c c3 fn hc h2 (hJ := hJ) ..).trans ?_
+  refine (PropsN2b.N2_C_TAU_JAUMANN__ABAQUS c c3 fn hc h2 ..).trans ?_
+  exact (PropsN2a.N2_DTAU_DF__ABAQUS c c3 fn hc h2 (hJ := hJ) ..).symm
+
+/-- conversions compose: `DTAU_DF ← C_TAU_JAUMANN ← SPATIAL_MODULI` acts as the direct `DTAU_DF ← SPATIAL_MODULI`, for every variation. -/
+theorem N2_compose_DTAU_DF__C_TAU_JAUMANN__SPATIAL_MODULI (hc : c * c = 2) (h2 : (2:K) ≠ 0)
+    (D : Nat → Nat → K) (F0 : M3 K) (f0 f1 f2 f3 f4 : K) (l0 l1 l2 l3 l4 : K) (s : Nat → K) (hJ : (plane f0 f1 f2 f3 f4).det ≠ 0) :
+    upper (lamTau (plane f0 f1 f2 f3 f4) (M3.ofMandel c [s 0, s 1, s 2, s 3]) (plane l0 l1 l2 l3 l4) (M3.ofMandel c (act (Gen.N2_DTAU_DF__C_TAU_JAUMANN_r c c3 fn (matOf (Gen.N2_C_TAU_JAUMANN__SPATIAL_MODULI_r c c3 fn D (tensv F0) (tensv (plane f0 f1 f2 f3 f4)) s)) (tensv F0) (tensv (plane f0 f1 f2 f3 f4)) s) (M3.tens2 ((plane l0 l1 l2 l3 l4) * (plane f0 f1 f2 f3 f4))))))
+      = upper (lamTau (plane f0 f1 f2 f3 f4) (M3.ofMandel c [s 0, s 1, s 2, s 3]) (plane l0 l1 l2 l3 l4) (M3.ofMandel c (act (Gen.N2_DTAU_DF__SPATIAL_MODULI_r c c3 fn D (tensv F0) (tensv (plane f0 f1 f2 f3 f4)) s) (M3.tens2 ((plane l0 l1 l2 l3 l4) * (plane f0 f1 f2 f3 f4)))))) := by
+  refine (PropsN2b.N2_DTAU_DF__C_TAU_JAUMANN c c3 fn hc h2 (hJ := hJ) ..).trans ?_
+  refine (PropsN2c.N2_C_TAU_JAUMANN__SPATIAL_MODULI c c3 fn hc h2 ..).trans ?_
+  exact (PropsN2Chains.N2_DTAU_DF__SPATIAL_MODULI c c3 fn hc h2 (hJ := hJ) ..).symm
+
+/-- conversions compose: `DTAU_DF ← ABAQUS ← SPATIAL_MODULI` acts as the direct `DTAU_DF ← SPATIAL_MODULI`, for every variation. -/
+theorem N2_compose_DTAU_DF__ABAQUS__SPATIAL_MODULI (hc : c * c = 2) (h2 : (2:K) ≠ 0)
+    (D : Nat → Nat → K) (F0 : M3 K) (f0 f1 f2 f3 f4 : K) (l0 l1 l2 l3 l4 : K) (s : Nat → K) (hJ : (plane f0 f1 f2 f3 f4).det ≠ 0) :
+    upper (lamTau (plane f0 f1 f2 f3 f4) (M3.ofMandel c [s 0, s 1, s 2, s 3]) (plane l0 l1 l2 l3 l4) (M3.ofMandel c (act (Gen.N2_DTAU_DF__ABAQUS_r c c3 fn (matOf (Gen.N2_ABAQUS__SPATIAL_MODULI_r c c3 fn D (tensv F0) (tensv (plane f0 f1 f2 f3 f4)) s)) (tensv F0) (tensv (plane f0 f1 f2 f3 f4)) s) (M3.tens2 ((plane l0 l1 l2 l3 l4) * (plane f0 f1 f2 f3 f4))))))
+      = upper (lamTau (plane f0 f1 f2 f3 f4) (M3.ofMandel c [s 0, s 1, s 2, s 3]) (plane l0 l1 l2 l3 l4) (M3.ofMandel c (act (Gen.N2_DTAU_DF__SPATIAL_MODULI_r c c3 fn D (tensv F0) (tensv (plane f0 f1 f2 f3 f4)) s) (M3.tens2 ((plane l0 l1 l2 l3 l4) * (plane f0 f1 f2 f3 f4)))))) := by
+  refine (PropsN2a.N2_DTAU_DF__ABAQUS c c3 fn hc h2 (hJ := hJ) ..).trans ?_
+  refine (PropsN2d.N2_ABAQUS__SPATIAL_MODULI c c3 fn hc h2 (hJ := hJ) ..).trans ?_
+  exact (PropsN2Chains.N2_DTAU_DF__SPATIAL_MODULI c c3 fn hc h2 (hJ := hJ) ..).symm
+
+/-- conversions compose: `DTAU_DF ← ABAQUS ← C_TAU_JAUMANN` acts as the direct `DTAU_DF ← C_TAU_JAUMANN`, for every variation. -/
+theorem N2_compose_DTAU_DF__ABAQUS__C_TAU_JAUMANN (hc : c * c = 2) (h2 : (2:K) ≠ 0)
+    (D : Nat → Nat → K) (F0 : M3 K) (f0 f1 f2 f3 f4 : K) (l0 l1 l2 l3 l4 : K) (s : Nat → K) (hJ : (plane f0 f1 f2 f3 f4).det ≠ 0) :
+    upper (lamTau (plane f0 f1 f2 f3 f4) (M3.ofMandel c [s 0, s 1, s 2, s 3]) (plane l0 l1 l2 l3 l4) (M3.ofMandel c (act (Gen.N2_DTAU_DF__ABAQUS_r c c3 fn (matOf (Gen.N2_ABAQUS__C_TAU_JAUMANN_r c c3 fn D (tensv F0) (tensv (plane f0 f1 f2 f3 f4)) s)) (tensv F0) (tensv (plane f0 f1 f2 f3 f4)) s) (M3.tens2 ((plane l0 l1 l2 l3 l4) * (plane f0 f1 f2 f3 f4))))))
+      = upper (lamTau (plane f0 f1 f2 f3 f4) (M3.ofMandel c [s 0, s 1, s 2, s 3]) (plane l0 l1 l2 l3 l4) (M3.ofMandel c (act (Gen.N2_DTAU_DF__C_TAU_JAUMANN_r c c3 fn D (tensv F0) (tensv (plane f0 f1 f2 f3 f4)) s) (M3.tens2 ((plane l0 l1 l2 l3 l4) * (plane f0 f1 f2 f3 f4)))))) := by
+  refine (PropsN2a.N2_DTAU_DF__ABAQUS c c3 fn hc h2 (hJ := hJ) ..).trans ?_
+  refine (PropsN2d.N2_ABAQUS__C_TAU_JAUMANN c c3 fn hc h2 (hJ := hJ) ..).trans ?_
+  exact (PropsN2b.N2_DTAU_DF__C_TAU_JAUMANN c c3 fn hc h2 (hJ := hJ) ..).symm
+
+/-- conversions compose: `DTAU_DF ← SPATIAL_MODULI ← ABAQUS` acts as the direct `DTAU_DF ← ABAQUS`, for every variation. -/
+theorem N2_compose_DTAU_DF__SPATIAL_MODULI__ABAQUS (hc : c * c = 2) (h2 : (2:K) ≠ 0)
+    (D : Nat → Nat → K) (F0 : M3 K) (f0 f1 f2 f3 f4 : K) (l0 l1 l2 l3 l4 : K) (s : Nat → K) (hJ : (plane f0 f1 f2 f3 f4).det ≠ 0) :
+    upper (lamTau (plane f0 f1 f2 f3 f4) (M3.ofMandel c [s 0, s 1, s 2, s 3]) (plane l0 l1 l2 l3 l4) (M3.ofMandel c (act (Gen.N2_DTAU_DF__SPATIAL_MODULI_r c c3 fn (matOf (Gen.N2_SPATIAL_MODULI__ABAQUS_r c c3 fn D (tensv F0) (tensv (plane f0 f1 f2 f3 f4)) s)) (tensv F0) (tensv (plane f0 f1 f2 f3 f4)) s) (M3.tens2 ((plane l0 l1 l2 l3 l4) * (plane f0 f1 f2 f3 f4))))))
+      = upper (lamTau (plane f0 f1 f2 f3 f4) (M3.ofMandel c [s 0, s 1, s 2, s 3]) (plane l0 l1 l2 l3 l4) (M3.ofMandel c (act (Gen.N2_DTAU_DF__ABAQUS_r c c3 fn D (tensv F0) (tensv (plane f0 f1 f2 f3 f4)) s) (M3.tens2 ((plane l0 l1 l2 l3 l4) * (plane f0 f1 f2 f3 f4)))))) := by
+  refine (PropsN2Chains.N2_DTAU_DF__SPATIAL_MODULI c c3 fn hc h2 (hJ := hJ) ..).trans ?_
+  refine (PropsN2c.N2_SPATIAL_MODULI__ABAQUS c c3 fn hc h2 ..).trans ?_
+  exact (PropsN2a.N2_DTAU_DF__ABAQUS c c3 fn hc h2 (hJ := hJ) ..).symm
+
+/-- conversions compose: `DTAU_DF ← SPATIAL_MODULI ← C_TAU_JAUMANN` acts as the direct `DTAU_DF ← C_TAU_JAUMANN`, for every variation. -/
+theorem N2_compose_DTAU_DF__SPATIAL_MODULI__C_TAU_JAUMANN (hc : c * c = 2) (h2 : (2:K) ≠ 0)
+    (D : Nat → Nat → K) (F0 : M3 K) (f0 f1 f2 f3 f4 : K) (l0 l1 l2 l3 l4 : K) (s : Nat → K) (hJ : (plane f0 f1 f2 f3 f4).det ≠ 0) :
+    upper (lamTau (plane f0 f1 f2 f3 f4) (M3.ofMandel c [s 0, s 1, s 2, s 3]) (plane l0 l1 l2 l3 l4) (M3.ofMandel c (act (Gen.N2_DTAU_DF__SPATIAL_MODULI_r c c3 fn (matOf (Gen.N2_SPATIAL_MODULI__C_TAU_JAUMANN_r c c3 fn D (tensv F0) (tensv (plane f0 f1 f2 f3 f4)) s)) (tensv F0) (tensv (plane f0 f1 f2 f3 f4)) s) (M3.tens2 ((plane l0 l1 l2 l3 l4) * (plane f0 f1 f2 f3 f4))))))
+      = upper (lamTau (plane f0 f1 f2 f3 f4) (M3.ofMandel c [s 0, s 1, s 2, s 3]) (plane l0 l1 l2 l3 l4) (M3.ofMandel c (act (Gen.N2_DTAU_DF__C_TAU_JAUMANN_r c c3 fn D (tensv F0) (tensv (plane f0 f1 f2 f3 f4)) s) (M3.tens2 ((plane l0 l1 l2 l3 l4) * (plane f0 f1 f2 f3 f4)))))) := by
+  refine (PropsN2Chains.N2_DTAU_DF__SPATIAL_MODULI c c3 fn hc h2 (hJ := hJ) ..).trans ?_
+  refine (PropsN2a.N2_SPATIAL_MODULI__C_TAU_JAUMANN c c3 fn hc h2 ..).trans ?_
+  exact (PropsN2b.N2_DTAU_DF__C_TAU_JAUMANN c c3 fn hc h2 (hJ := hJ) ..).symm
+
+/-- conversions compose: `DSIG_DF ← ABAQUS ← DS_DEGL` acts as the direct `DSIG_DF ← DS_DEGL`, for every variation. -/
+theorem N2_compose_DSIG_DF__ABAQUS__DS_DEGL (hc : c * c = 2) (h2 : (2:K) ≠ 0)
+    (D : Nat → Nat → K) (F0 : M3 K) (f0 f1 f2 f3 f4 : K) (l0 l1 l2 l3 l4 : K) (s : Nat → K) (hJ : (plane f0 f1 f2 f3 f4).det ≠ 0) :
+    upper (lamSig (plane f0 f1 f2 f3 f4) (M3.ofMandel c [s 0, s 1, s 2, s 3]) (plane l0 l1 l2 l3 l4) (M3.ofMandel c (act (Gen.N2_DSIG_DF__ABAQUS_r c c3 fn (matOf (Gen.N2_ABAQUS__DS_DEGL_r c c3 fn D (tensv F0) (tensv (plane f0 f1 f2 f3 f4)) s)) (tensv F0) (tensv (plane f0 f1 f2 f3 f4)) s) (M3.tens2 ((plane l0 l1 l2 l3 l4) * (plane f0 f1 f2 f3 f4))))))
+      = upper (lamSig (plane f0 f1 f2 f3 f4) (M3.ofMandel c [s 0, s 1, s 2, s 3]) (plane l0 l1 l2 l3 l4) (M3.ofMandel c (act (Gen.N2_DSIG_DF__DS_DEGL_r c c3 fn D (tensv F0) (tensv (plane f0 f1 f2 f3 f4)) s) (M3.tens2 ((plane l0 l1 l2 l3 l4) * (plane f0 f1 f2 f3 f4)))))) := by
+  refine (PropsN2Chains.N2_DSIG_DF__ABAQUS c c3 fn hc h2 (hJ := hJ) ..).trans ?_
+  refine (PropsN2Chains.N2_ABAQUS__DS_DEGL c c3 fn hc h2 (hJ := hJ) ..).trans ?_
+  exact (PropsN2Chains.N2_DSIG_DF__DS_DEGL c c3 fn hc h2 (hJ := hJ) ..).symm
+
+/-- conversions compose: `DSIG_DF ← ABAQUS ← DTAU_DF` acts as the direct `DSIG_DF ← DTAU_DF`, for every variation. -/
+theorem N2_compose_DSIG_DF__ABAQUS__DTAU_DF (hc : c * c = 2) (h2 : (2:K) ≠ 0)
+    (D : Nat → Nat → K) (F0 : M3 K) (f0 f1 f2 f3 f4 : K) (l0 l1 l2 l3 : K) (s : Nat → K) (hJ : (plane f0 f1 f2 f3 f4).det ≠ 0) :
+    upper (lamSig (plane f0 f1 f2 f3 f4) (M3.ofMandel c [s 0, s 1, s 2, s 3]) (plane l0 l1 l2 l3 l3) (M3.ofMandel c (act (Gen.N2_DSIG_DF__ABAQUS_r c c3 fn (matOf (Gen.N2_ABAQUS__DTAU_DF_r c c3 fn D (tensv F0) (tensv (plane f0 f1 f2 f3 f4)) s)) (tensv F0) (tensv (plane f0 f1 f2 f3 f4)) s) (M3.tens2 ((plane l0 l1 l2 l3 l3) * (plane f0 f1 f2 f3 f4))))))
+      = upper (lamSig (plane f0 f1 f2 f3 f4) (M3.ofMandel c [s 0, s 1, s 2, s 3]) (plane l0 l1 l2 l3 l3) (M3.ofMandel c (act (Gen.N2_DSIG_DF__DTAU_DF_r c c3 fn D (tensv F0) (tensv (plane f0 f1 f2 f3 f4)) s) (M3.tens2 ((plane l0 l1 l2 l3 l3) * (plane f0 f1 f2 f3 f4)))))) := by
+  refine (PropsN2Chains.N2_DSIG_DF__ABAQUS c c3 fn hc h2 (hJ := hJ) ..).trans ?_
+  refine (PropsN2c.N2_ABAQUS__DTAU_DF c c3 fn hc h2 (hJ := hJ) ..).trans ?_
+  exact (PropsN2c.N2_DSIG_DF__DTAU_DF c c3 fn hc h2 (hJ := hJ) ..).symm
+
+end TfelVerif.C23.PropsCompose2
